@@ -9,6 +9,12 @@ type nat =
 | O
 | S of nat
 
+(** val option_map : ('a1 -> 'a2) -> 'a1 option -> 'a2 option **)
+
+let option_map f = function
+| Some a -> Some (f a)
+| None -> None
+
 type ('a, 'b) sum =
 | Inl of 'a
 | Inr of 'b
@@ -99,6 +105,17 @@ module Nat =
 
   let ltb n1 m =
     leb (S n1) m
+
+  (** val compare : nat -> nat -> comparison **)
+
+  let rec compare n1 m =
+    match n1 with
+    | O -> (match m with
+            | O -> Eq
+            | S _ -> Lt)
+    | S n' -> (match m with
+               | O -> Gt
+               | S m' -> compare n' m')
  end
 
 (** val hd : 'a1 -> 'a1 list -> 'a1 **)
@@ -162,6 +179,12 @@ let rec list_eq_dec eq_dec l l' =
 let rec map f = function
 | [] -> []
 | a :: t -> (f a) :: (map f t)
+
+(** val flat_map : ('a1 -> 'a2 list) -> 'a1 list -> 'a2 list **)
+
+let rec flat_map f = function
+| [] -> []
+| x :: t -> app (f x) (flat_map f t)
 
 (** val fold_left : ('a1 -> 'a2 -> 'a1) -> 'a2 list -> 'a1 -> 'a1 **)
 
@@ -249,17 +272,17 @@ module Coq_Pos =
     match x with
     | XI p ->
       (match y with
-       | XI q -> XO (add_carry p q)
-       | XO q -> XI (add p q)
+       | XI q0 -> XO (add_carry p q0)
+       | XO q0 -> XI (add p q0)
        | XH -> XO (succ p))
     | XO p ->
       (match y with
-       | XI q -> XI (add p q)
-       | XO q -> XO (add p q)
+       | XI q0 -> XI (add p q0)
+       | XO q0 -> XO (add p q0)
        | XH -> XI p)
     | XH -> (match y with
-             | XI q -> XO (succ q)
-             | XO q -> XI q
+             | XI q0 -> XO (succ q0)
+             | XO q0 -> XI q0
              | XH -> XO XH)
 
   (** val add_carry : positive -> positive -> positive **)
@@ -268,18 +291,18 @@ module Coq_Pos =
     match x with
     | XI p ->
       (match y with
-       | XI q -> XI (add_carry p q)
-       | XO q -> XO (add_carry p q)
+       | XI q0 -> XI (add_carry p q0)
+       | XO q0 -> XO (add_carry p q0)
        | XH -> XI (succ p))
     | XO p ->
       (match y with
-       | XI q -> XO (add_carry p q)
-       | XO q -> XI (add p q)
+       | XI q0 -> XO (add_carry p q0)
+       | XO q0 -> XI (add p q0)
        | XH -> XO (succ p))
     | XH ->
       (match y with
-       | XI q -> XI (succ q)
-       | XO q -> XO (succ q)
+       | XI q0 -> XI (succ q0)
+       | XO q0 -> XO (succ q0)
        | XH -> XI XH)
 
   (** val pred_double : positive -> positive **)
@@ -320,13 +343,13 @@ module Coq_Pos =
     match x with
     | XI p ->
       (match y with
-       | XI q -> double_mask (sub_mask p q)
-       | XO q -> succ_double_mask (sub_mask p q)
+       | XI q0 -> double_mask (sub_mask p q0)
+       | XO q0 -> succ_double_mask (sub_mask p q0)
        | XH -> IsPos (XO p))
     | XO p ->
       (match y with
-       | XI q -> succ_double_mask (sub_mask_carry p q)
-       | XO q -> double_mask (sub_mask p q)
+       | XI q0 -> succ_double_mask (sub_mask_carry p q0)
+       | XO q0 -> double_mask (sub_mask p q0)
        | XH -> IsPos (pred_double p))
     | XH -> (match y with
              | XH -> IsNul
@@ -338,15 +361,22 @@ module Coq_Pos =
     match x with
     | XI p ->
       (match y with
-       | XI q -> succ_double_mask (sub_mask_carry p q)
-       | XO q -> double_mask (sub_mask p q)
+       | XI q0 -> succ_double_mask (sub_mask_carry p q0)
+       | XO q0 -> double_mask (sub_mask p q0)
        | XH -> IsPos (pred_double p))
     | XO p ->
       (match y with
-       | XI q -> double_mask (sub_mask_carry p q)
-       | XO q -> succ_double_mask (sub_mask_carry p q)
+       | XI q0 -> double_mask (sub_mask_carry p q0)
+       | XO q0 -> succ_double_mask (sub_mask_carry p q0)
        | XH -> double_pred_mask p)
     | XH -> IsNeg
+
+  (** val sub : positive -> positive -> positive **)
+
+  let sub x y =
+    match sub_mask x y with
+    | IsPos z0 -> z0
+    | _ -> XH
 
   (** val mul : positive -> positive -> positive **)
 
@@ -356,19 +386,38 @@ module Coq_Pos =
     | XO p -> XO (mul p y)
     | XH -> y
 
+  (** val iter : ('a1 -> 'a1) -> 'a1 -> positive -> 'a1 **)
+
+  let rec iter f x = function
+  | XI n' -> f (iter f (iter f x n') n')
+  | XO n' -> iter f (iter f x n') n'
+  | XH -> f x
+
+  (** val pow : positive -> positive -> positive **)
+
+  let pow x =
+    iter (mul x) XH
+
+  (** val size_nat : positive -> nat **)
+
+  let rec size_nat = function
+  | XI p0 -> S (size_nat p0)
+  | XO p0 -> S (size_nat p0)
+  | XH -> S O
+
   (** val compare_cont : comparison -> positive -> positive -> comparison **)
 
   let rec compare_cont r x y =
     match x with
     | XI p ->
       (match y with
-       | XI q -> compare_cont r p q
-       | XO q -> compare_cont Gt p q
+       | XI q0 -> compare_cont r p q0
+       | XO q0 -> compare_cont Gt p q0
        | XH -> Gt)
     | XO p ->
       (match y with
-       | XI q -> compare_cont Lt p q
-       | XO q -> compare_cont r p q
+       | XI q0 -> compare_cont Lt p q0
+       | XO q0 -> compare_cont r p q0
        | XH -> Gt)
     | XH -> (match y with
              | XH -> r
@@ -381,17 +430,54 @@ module Coq_Pos =
 
   (** val eqb : positive -> positive -> bool **)
 
-  let rec eqb p q =
+  let rec eqb p q0 =
     match p with
-    | XI p0 -> (match q with
-                | XI q0 -> eqb p0 q0
+    | XI p0 -> (match q0 with
+                | XI q1 -> eqb p0 q1
                 | _ -> false)
-    | XO p0 -> (match q with
-                | XO q0 -> eqb p0 q0
+    | XO p0 -> (match q0 with
+                | XO q1 -> eqb p0 q1
                 | _ -> false)
-    | XH -> (match q with
+    | XH -> (match q0 with
              | XH -> true
              | _ -> false)
+
+  (** val ggcdn :
+      nat -> positive -> positive -> positive * (positive * positive) **)
+
+  let rec ggcdn n1 a b =
+    match n1 with
+    | O -> (XH, (a, b))
+    | S n2 ->
+      (match a with
+       | XI a' ->
+         (match b with
+          | XI b' ->
+            (match compare a' b' with
+             | Eq -> (a, (XH, XH))
+             | Lt ->
+               let (g, p) = ggcdn n2 (sub b' a') a in
+               let (ba, aa) = p in (g, (aa, (add aa (XO ba))))
+             | Gt ->
+               let (g, p) = ggcdn n2 (sub a' b') b in
+               let (ab, bb) = p in (g, ((add bb (XO ab)), bb)))
+          | XO b0 ->
+            let (g, p) = ggcdn n2 a b0 in
+            let (aa, bb) = p in (g, (aa, (XO bb)))
+          | XH -> (XH, (a, XH)))
+       | XO a0 ->
+         (match b with
+          | XI _ ->
+            let (g, p) = ggcdn n2 a0 b in
+            let (aa, bb) = p in (g, ((XO aa), bb))
+          | XO b0 -> let (g, p) = ggcdn n2 a0 b0 in ((XO g), p)
+          | XH -> (XH, (a, XH)))
+       | XH -> (XH, (XH, b)))
+
+  (** val ggcd : positive -> positive -> positive * (positive * positive) **)
+
+  let ggcd a b =
+    ggcdn (Coq__1.add (size_nat a) (size_nat b)) a b
 
   (** val iter_op : ('a1 -> 'a1 -> 'a1) -> positive -> 'a1 -> 'a1 **)
 
@@ -405,6 +491,14 @@ module Coq_Pos =
 
   let to_nat x =
     iter_op Coq__1.add x (S O)
+
+  (** val of_nat : nat -> positive **)
+
+  let rec of_nat = function
+  | O -> XH
+  | S x -> (match x with
+            | O -> XH
+            | S _ -> succ (of_nat x))
 
   (** val of_succ_nat : nat -> positive **)
 
@@ -422,7 +516,7 @@ module N =
     | N0 -> m
     | Npos p -> (match m with
                  | N0 -> n1
-                 | Npos q -> Npos (Coq_Pos.add p q))
+                 | Npos q0 -> Npos (Coq_Pos.add p q0))
 
   (** val sub : n -> n -> n **)
 
@@ -444,7 +538,7 @@ module N =
     | N0 -> N0
     | Npos p -> (match m with
                  | N0 -> N0
-                 | Npos q -> Npos (Coq_Pos.mul p q))
+                 | Npos q0 -> Npos (Coq_Pos.mul p q0))
 
   (** val compare : n -> n -> comparison **)
 
@@ -466,7 +560,7 @@ module N =
              | Npos _ -> false)
     | Npos p -> (match m with
                  | N0 -> false
-                 | Npos q -> Coq_Pos.eqb p q)
+                 | Npos q0 -> Coq_Pos.eqb p q0)
 
   (** val leb : n -> n -> bool **)
 
@@ -524,18 +618,18 @@ module Z =
     match x with
     | XI p ->
       (match y with
-       | XI q -> double (pos_sub p q)
-       | XO q -> succ_double (pos_sub p q)
+       | XI q0 -> double (pos_sub p q0)
+       | XO q0 -> succ_double (pos_sub p q0)
        | XH -> Zpos (XO p))
     | XO p ->
       (match y with
-       | XI q -> pred_double (pos_sub p q)
-       | XO q -> double (pos_sub p q)
+       | XI q0 -> pred_double (pos_sub p q0)
+       | XO q0 -> double (pos_sub p q0)
        | XH -> Zpos (Coq_Pos.pred_double p))
     | XH ->
       (match y with
-       | XI q -> Zneg (XO q)
-       | XO q -> Zneg (Coq_Pos.pred_double q)
+       | XI q0 -> Zneg (XO q0)
+       | XO q0 -> Zneg (Coq_Pos.pred_double q0)
        | XH -> Z0)
 
   (** val add : z -> z -> z **)
@@ -582,6 +676,18 @@ module Z =
        | Zpos y' -> Zneg (Coq_Pos.mul x' y')
        | Zneg y' -> Zpos (Coq_Pos.mul x' y'))
 
+  (** val pow_pos : z -> positive -> z **)
+
+  let pow_pos z0 =
+    Coq_Pos.iter (mul z0) (Zpos XH)
+
+  (** val pow : z -> z -> z **)
+
+  let pow x = function
+  | Z0 -> Zpos XH
+  | Zpos p -> pow_pos x p
+  | Zneg _ -> Z0
+
   (** val compare : z -> z -> comparison **)
 
   let compare x y =
@@ -597,6 +703,13 @@ module Z =
       (match y with
        | Zneg y' -> compOpp (Coq_Pos.compare x' y')
        | _ -> Lt)
+
+  (** val sgn : z -> z **)
+
+  let sgn = function
+  | Z0 -> Z0
+  | Zpos _ -> Zpos XH
+  | Zneg _ -> Zneg XH
 
   (** val leb : z -> z -> bool **)
 
@@ -620,11 +733,17 @@ module Z =
              | Z0 -> true
              | _ -> false)
     | Zpos p -> (match y with
-                 | Zpos q -> Coq_Pos.eqb p q
+                 | Zpos q0 -> Coq_Pos.eqb p q0
                  | _ -> false)
     | Zneg p -> (match y with
-                 | Zneg q -> Coq_Pos.eqb p q
+                 | Zneg q0 -> Coq_Pos.eqb p q0
                  | _ -> false)
+
+  (** val abs : z -> z **)
+
+  let abs = function
+  | Zneg p -> Zpos p
+  | x -> x
 
   (** val to_nat : z -> nat **)
 
@@ -638,22 +757,28 @@ module Z =
   | O -> Z0
   | S n2 -> Zpos (Coq_Pos.of_succ_nat n2)
 
+  (** val to_pos : z -> positive **)
+
+  let to_pos = function
+  | Zpos p -> p
+  | _ -> XH
+
   (** val pos_div_eucl : positive -> z -> z * z **)
 
   let rec pos_div_eucl a b =
     match a with
     | XI a' ->
-      let (q, r) = pos_div_eucl a' b in
+      let (q0, r) = pos_div_eucl a' b in
       let r' = add (mul (Zpos (XO XH)) r) (Zpos XH) in
       if ltb r' b
-      then ((mul (Zpos (XO XH)) q), r')
-      else ((add (mul (Zpos (XO XH)) q) (Zpos XH)), (sub r' b))
+      then ((mul (Zpos (XO XH)) q0), r')
+      else ((add (mul (Zpos (XO XH)) q0) (Zpos XH)), (sub r' b))
     | XO a' ->
-      let (q, r) = pos_div_eucl a' b in
+      let (q0, r) = pos_div_eucl a' b in
       let r' = mul (Zpos (XO XH)) r in
       if ltb r' b
-      then ((mul (Zpos (XO XH)) q), r')
-      else ((add (mul (Zpos (XO XH)) q) (Zpos XH)), (sub r' b))
+      then ((mul (Zpos (XO XH)) q0), r')
+      else ((add (mul (Zpos (XO XH)) q0) (Zpos XH)), (sub r' b))
     | XH -> if leb (Zpos (XO XH)) b then (Z0, (Zpos XH)) else ((Zpos XH), Z0)
 
   (** val div_eucl : z -> z -> z * z **)
@@ -666,29 +791,53 @@ module Z =
        | Z0 -> (Z0, a)
        | Zpos _ -> pos_div_eucl a' b
        | Zneg b' ->
-         let (q, r) = pos_div_eucl a' (Zpos b') in
+         let (q0, r) = pos_div_eucl a' (Zpos b') in
          (match r with
-          | Z0 -> ((opp q), Z0)
-          | _ -> ((opp (add q (Zpos XH))), (add b r))))
+          | Z0 -> ((opp q0), Z0)
+          | _ -> ((opp (add q0 (Zpos XH))), (add b r))))
     | Zneg a' ->
       (match b with
        | Z0 -> (Z0, a)
        | Zpos _ ->
-         let (q, r) = pos_div_eucl a' b in
+         let (q0, r) = pos_div_eucl a' b in
          (match r with
-          | Z0 -> ((opp q), Z0)
-          | _ -> ((opp (add q (Zpos XH))), (sub b r)))
-       | Zneg b' -> let (q, r) = pos_div_eucl a' (Zpos b') in (q, (opp r)))
+          | Z0 -> ((opp q0), Z0)
+          | _ -> ((opp (add q0 (Zpos XH))), (sub b r)))
+       | Zneg b' -> let (q0, r) = pos_div_eucl a' (Zpos b') in (q0, (opp r)))
 
   (** val div : z -> z -> z **)
 
   let div a b =
-    let (q, _) = div_eucl a b in q
+    let (q0, _) = div_eucl a b in q0
 
   (** val modulo : z -> z -> z **)
 
   let modulo a b =
     let (_, r) = div_eucl a b in r
+
+  (** val ggcd : z -> z -> z * (z * z) **)
+
+  let ggcd a b =
+    match a with
+    | Z0 -> ((abs b), (Z0, (sgn b)))
+    | Zpos a0 ->
+      (match b with
+       | Z0 -> ((abs a), ((sgn a), Z0))
+       | Zpos b0 ->
+         let (g, p) = Coq_Pos.ggcd a0 b0 in
+         let (aa, bb) = p in ((Zpos g), ((Zpos aa), (Zpos bb)))
+       | Zneg b0 ->
+         let (g, p) = Coq_Pos.ggcd a0 b0 in
+         let (aa, bb) = p in ((Zpos g), ((Zpos aa), (Zneg bb))))
+    | Zneg a0 ->
+      (match b with
+       | Z0 -> ((abs a), ((sgn a), Z0))
+       | Zpos b0 ->
+         let (g, p) = Coq_Pos.ggcd a0 b0 in
+         let (aa, bb) = p in ((Zpos g), ((Zneg aa), (Zpos bb)))
+       | Zneg b0 ->
+         let (g, p) = Coq_Pos.ggcd a0 b0 in
+         let (aa, bb) = p in ((Zpos g), ((Zneg aa), (Zneg bb))))
  end
 
 (** val zero : char **)
@@ -1008,6 +1157,59 @@ let shared_fns =
 
 let postgres_own_fns =
   (Literal, Fn_literal) :: []
+
+type q = { qnum : z; qden : positive }
+
+(** val inject_Z : z -> q **)
+
+let inject_Z x =
+  { qnum = x; qden = XH }
+
+(** val qcompare : q -> q -> comparison **)
+
+let qcompare p q0 =
+  Z.compare (Z.mul p.qnum (Zpos q0.qden)) (Z.mul q0.qnum (Zpos p.qden))
+
+(** val qplus : q -> q -> q **)
+
+let qplus x y =
+  { qnum = (Z.add (Z.mul x.qnum (Zpos y.qden)) (Z.mul y.qnum (Zpos x.qden)));
+    qden = (Coq_Pos.mul x.qden y.qden) }
+
+(** val qmult : q -> q -> q **)
+
+let qmult x y =
+  { qnum = (Z.mul x.qnum y.qnum); qden = (Coq_Pos.mul x.qden y.qden) }
+
+(** val qopp : q -> q **)
+
+let qopp x =
+  { qnum = (Z.opp x.qnum); qden = x.qden }
+
+(** val qminus : q -> q -> q **)
+
+let qminus x y =
+  qplus x (qopp y)
+
+(** val qinv : q -> q **)
+
+let qinv x =
+  match x.qnum with
+  | Z0 -> { qnum = Z0; qden = XH }
+  | Zpos p -> { qnum = (Zpos x.qden); qden = p }
+  | Zneg p -> { qnum = (Zneg x.qden); qden = p }
+
+(** val qdiv : q -> q -> q **)
+
+let qdiv x y =
+  qmult x (qinv y)
+
+(** val qred : q -> q **)
+
+let qred q0 =
+  let { qnum = q1; qden = q2 } = q0 in
+  let (r1, r2) = snd (Z.ggcd q1 (Zpos q2)) in
+  { qnum = r1; qden = (Z.to_pos r2) }
 
 (** val tt_eqb : toktype -> toktype -> bool **)
 
@@ -2952,7 +3154,7 @@ let strip_ends = function
 | [] -> []
 | _::r -> rev_str (match rev_str r [] with
                    | [] -> []
-                   | _::q -> q) []
+                   | _::q0 -> q0) []
 
 (** val fn_rang_core :
     char list -> char list -> (bool -> char list -> char list -> sres out) ->
@@ -3208,12 +3410,12 @@ let render_param o2 =
                                ('R'::('e'::('n'::('d'::('e'::('r'::('P'::('a'::('r'::('a'::('m'::(':'::(' '::('r'::('p'::('a'::('r'::('a'::('m'::('s'::('['::('0'::(']'::[])))))))))))))))))))))))
                            | v :: rest ->
                              (match v with
-                              | VStr rval ->
-                                if is_regex_text rval
+                              | VStr rval0 ->
+                                if is_regex_text rval0
                                 then Ret (rt0, rparams0)
                                 else Ret (rt0, ((VStr
                                        (replace_char '?' ('_'::[])
-                                         (replace_char '*' ('%'::[]) rval))) :: rest))
+                                         (replace_char '*' ('%'::[]) rval0))) :: rest))
                               | _ ->
                                 Panic
                                   ('R'::('e'::('n'::('d'::('e'::('r'::('P'::('a'::('r'::('a'::('m'::(':'::(' '::('r'::('p'::('a'::('r'::('a'::('m'::('s'::('['::('0'::(']'::('.'::('('::('s'::('t'::('r'::('i'::('n'::('g'::(')'::[]))))))))))))))))))))))))))))))))))
@@ -3223,12 +3425,12 @@ let render_param o2 =
                                ('R'::('e'::('n'::('d'::('e'::('r'::('P'::('a'::('r'::('a'::('m'::(':'::(' '::('r'::('p'::('a'::('r'::('a'::('m'::('s'::('['::('0'::(']'::[])))))))))))))))))))))))
                            | v :: rest ->
                              (match v with
-                              | VStr rval ->
-                                if is_regex_text rval
+                              | VStr rval0 ->
+                                if is_regex_text rval0
                                 then Ret (rt, rparams)
                                 else Ret (rt, ((VStr
                                        (replace_char '?' ('_'::[])
-                                         (replace_char '*' ('%'::[]) rval))) :: rest))
+                                         (replace_char '*' ('%'::[]) rval0))) :: rest))
                               | _ ->
                                 Panic
                                   ('R'::('e'::('n'::('d'::('e'::('r'::('P'::('a'::('r'::('a'::('m'::(':'::(' '::('r'::('p'::('a'::('r'::('a'::('m'::('s'::('['::('0'::(']'::('.'::('('::('s'::('t'::('r'::('i'::('n'::('g'::(')'::[]))))))))))))))))))))))))))))))))))
@@ -3239,12 +3441,12 @@ let render_param o2 =
                           ('R'::('e'::('n'::('d'::('e'::('r'::('P'::('a'::('r'::('a'::('m'::(':'::(' '::('r'::('p'::('a'::('r'::('a'::('m'::('s'::('['::('0'::(']'::[])))))))))))))))))))))))
                       | v :: rest ->
                         (match v with
-                         | VStr rval ->
-                           if is_regex_text rval
+                         | VStr rval0 ->
+                           if is_regex_text rval0
                            then Ret (rt, rparams)
                            else Ret (rt, ((VStr
                                   (replace_char '?' ('_'::[])
-                                    (replace_char '*' ('%'::[]) rval))) :: rest))
+                                    (replace_char '*' ('%'::[]) rval0))) :: rest))
                          | _ ->
                            Panic
                              ('R'::('e'::('n'::('d'::('e'::('r'::('P'::('a'::('r'::('a'::('m'::(':'::(' '::('r'::('p'::('a'::('r'::('a'::('m'::('s'::('['::('0'::(']'::('.'::('('::('s'::('t'::('r'::('i'::('n'::('g'::(')'::[])))))))))))))))))))))))))))))))))))
@@ -3794,7 +3996,7 @@ let um_obj o um l =
                ('d'::('i'::('s'::('t'::('a'::('n'::('c'::('e'::[])))))))) l) with
      | Some dist ->
        (match dec_float o (bindings ('p'::('o'::('w'::('e'::('r'::[]))))) l) with
-        | Some pow ->
+        | Some pow0 ->
           if dec_boundaries_ok
                (bindings
                  ('b'::('o'::('u'::('n'::('d'::('a'::('r'::('i'::('e'::('s'::[]))))))))))
@@ -3828,7 +4030,7 @@ let um_obj o um l =
                            let bp =
                              match op with
                              | Boost ->
-                               (match pow with
+                               (match pow0 with
                                 | Some p -> p
                                 | None -> one_bits)
                              | _ -> one_bits
@@ -4691,21 +4893,21 @@ let rec has_newline = function
 (** val quoted_body :
     nat -> char -> bytes0 -> bytes0 -> (bytes0 * bytes0) option **)
 
-let rec quoted_body fuel q s acc =
+let rec quoted_body fuel q0 s acc =
   match fuel with
   | O -> None
   | S f ->
     (match s with
      | [] -> None
      | c :: r ->
-       if (=) c q
+       if (=) c q0
        then (match r with
              | [] -> Some ((rev acc), [])
              | c2 :: r2 ->
-               if (=) c2 q
-               then quoted_body f q r2 (c :: acc)
+               if (=) c2 q0
+               then quoted_body f q0 r2 (c :: acc)
                else Some ((rev acc), r))
-       else quoted_body f q r (c :: acc))
+       else quoted_body f q0 r (c :: acc))
 
 (** val string_const : nat -> bytes0 -> bytes0 -> (bytes0 * bytes0) option **)
 
@@ -5388,11 +5590,11 @@ let next s0 =
                                                         Some ((TIdent
                                                           (truncate_ident lw)),
                                                           rest))
-                                                   | q :: l ->
+                                                   | q0 :: l ->
                                                      (match l with
                                                       | [] ->
                                                         if (&&)
-                                                             (is_c q (S (S (S
+                                                             (is_c q0 (S (S
                                                                (S (S (S (S (S
                                                                (S (S (S (S (S
                                                                (S (S (S (S (S
@@ -5400,7 +5602,7 @@ let next s0 =
                                                                (S (S (S (S (S
                                                                (S (S (S (S (S
                                                                (S (S (S (S (S
-                                                               (S
+                                                               (S (S
                                                                O))))))))))))))))))))))))))))))))))))))))
                                                              ((||)
                                                                ((||)
@@ -5431,7 +5633,7 @@ let next s0 =
                                                                   rest))
                                                       | q2 :: _ ->
                                                         if (&&)
-                                                             (is_c q (S (S (S
+                                                             (is_c q0 (S (S
                                                                (S (S (S (S (S
                                                                (S (S (S (S (S
                                                                (S (S (S (S (S
@@ -5439,7 +5641,7 @@ let next s0 =
                                                                (S (S (S (S (S
                                                                (S (S (S (S (S
                                                                (S (S (S (S (S
-                                                               (S
+                                                               (S (S
                                                                O))))))))))))))))))))))))))))))))))))))))
                                                              ((||)
                                                                ((||)
@@ -5461,7 +5663,7 @@ let next s0 =
                                                                rest)
                                                         else if (&&)
                                                                   ((&&)
-                                                                    (is_c q
+                                                                    (is_c q0
                                                                     (S (S (S
                                                                     (S (S (S
                                                                     (S (S (S
@@ -6553,3 +6755,8273 @@ let rec dsh e =
              | VExp x -> dsh x
              | _ -> false)
         | _ -> false))
+
+type rval =
+| RNum of q
+| RStr of char list
+
+type row = char list -> rval option
+
+(** val pow2 : z -> z **)
+
+let pow2 n1 =
+  Z.pow (Zpos (XO XH)) n1
+
+(** val q_of_float_bits : z -> q option **)
+
+let q_of_float_bits b =
+  let u =
+    if Z.ltb b Z0
+    then Z.add b (Zpos (XO (XO (XO (XO (XO (XO (XO (XO (XO (XO (XO (XO (XO
+           (XO (XO (XO (XO (XO (XO (XO (XO (XO (XO (XO (XO (XO (XO (XO (XO
+           (XO (XO (XO (XO (XO (XO (XO (XO (XO (XO (XO (XO (XO (XO (XO (XO
+           (XO (XO (XO (XO (XO (XO (XO (XO (XO (XO (XO (XO (XO (XO (XO (XO
+           (XO (XO (XO
+           XH)))))))))))))))))))))))))))))))))))))))))))))))))))))))))))))))))
+    else b
+  in
+  let sign =
+    Z.div u (Zpos (XO (XO (XO (XO (XO (XO (XO (XO (XO (XO (XO (XO (XO (XO (XO
+      (XO (XO (XO (XO (XO (XO (XO (XO (XO (XO (XO (XO (XO (XO (XO (XO (XO (XO
+      (XO (XO (XO (XO (XO (XO (XO (XO (XO (XO (XO (XO (XO (XO (XO (XO (XO (XO
+      (XO (XO (XO (XO (XO (XO (XO (XO (XO (XO (XO (XO
+      XH))))))))))))))))))))))))))))))))))))))))))))))))))))))))))))))))
+  in
+  let ex =
+    Z.modulo
+      (Z.div u (Zpos (XO (XO (XO (XO (XO (XO (XO (XO (XO (XO (XO (XO (XO (XO
+        (XO (XO (XO (XO (XO (XO (XO (XO (XO (XO (XO (XO (XO (XO (XO (XO (XO
+        (XO (XO (XO (XO (XO (XO (XO (XO (XO (XO (XO (XO (XO (XO (XO (XO (XO
+        (XO (XO (XO (XO
+        XH)))))))))))))))))))))))))))))))))))))))))))))))))))))) (Zpos (XO
+      (XO (XO (XO (XO (XO (XO (XO (XO (XO (XO XH))))))))))))
+  in
+  let frac =
+    Z.modulo u (Zpos (XO (XO (XO (XO (XO (XO (XO (XO (XO (XO (XO (XO (XO (XO
+      (XO (XO (XO (XO (XO (XO (XO (XO (XO (XO (XO (XO (XO (XO (XO (XO (XO (XO
+      (XO (XO (XO (XO (XO (XO (XO (XO (XO (XO (XO (XO (XO (XO (XO (XO (XO (XO
+      (XO (XO XH)))))))))))))))))))))))))))))))))))))))))))))))))))))
+  in
+  if Z.eqb ex (Zpos (XI (XI (XI (XI (XI (XI (XI (XI (XI (XI XH)))))))))))
+  then None
+  else let m =
+         if Z.eqb ex Z0
+         then frac
+         else Z.add frac (Zpos (XO (XO (XO (XO (XO (XO (XO (XO (XO (XO (XO
+                (XO (XO (XO (XO (XO (XO (XO (XO (XO (XO (XO (XO (XO (XO (XO
+                (XO (XO (XO (XO (XO (XO (XO (XO (XO (XO (XO (XO (XO (XO (XO
+                (XO (XO (XO (XO (XO (XO (XO (XO (XO (XO (XO
+                XH)))))))))))))))))))))))))))))))))))))))))))))))))))))
+       in
+       let e =
+         if Z.eqb ex Z0
+         then Zneg (XO (XI (XO (XO (XI (XI (XO (XO (XO (XO XH))))))))))
+         else Z.sub ex (Zpos (XI (XI (XO (XO (XI (XI (XO (XO (XO (XO
+                XH)))))))))))
+       in
+       let m0 = if Z.eqb sign (Zpos XH) then Z.opp m else m in
+       Some
+       (if Z.leb Z0 e
+        then inject_Z (Z.mul m0 (pow2 e))
+        else { qnum = m0; qden = (Z.to_pos (pow2 (Z.opp e))) })
+
+(** val str_cmp : char list -> char list -> comparison **)
+
+let rec str_cmp a b =
+  match a with
+  | [] -> (match b with
+           | [] -> Eq
+           | _::_ -> Lt)
+  | x::r ->
+    (match b with
+     | [] -> Gt
+     | y::s ->
+       (match Nat.compare (nat_of_ascii x) (nat_of_ascii y) with
+        | Eq -> str_cmp r s
+        | x0 -> x0))
+
+type cmpop =
+| CEq
+| CLt
+| CLe
+| CGt
+| CGe
+
+(** val holds_cmp : cmpop -> comparison -> bool **)
+
+let holds_cmp op c =
+  match op with
+  | CEq -> (match c with
+            | Eq -> true
+            | _ -> false)
+  | CLt -> (match c with
+            | Lt -> true
+            | _ -> false)
+  | CLe -> (match c with
+            | Gt -> false
+            | _ -> true)
+  | CGt -> (match c with
+            | Gt -> true
+            | _ -> false)
+  | CGe -> (match c with
+            | Lt -> false
+            | _ -> true)
+
+(** val leaf_const : expr -> rval option **)
+
+let leaf_const = function
+| E (left, op, right, _, _) ->
+  (match left with
+   | VInt z0 ->
+     (match op with
+      | Literal ->
+        (match right with
+         | VNil -> Some (RNum (inject_Z z0))
+         | _ -> None)
+      | _ -> None)
+   | VFloat f ->
+     (match op with
+      | Literal ->
+        (match right with
+         | VNil ->
+           (match q_of_float_bits f with
+            | Some q0 -> Some (RNum q0)
+            | None -> None)
+         | _ -> None)
+      | _ -> None)
+   | VStr s ->
+     (match op with
+      | Literal -> (match right with
+                    | VNil -> Some (RStr s)
+                    | _ -> None)
+      | _ -> None)
+   | _ -> None)
+
+(** val cmp_vals : cmpop -> rval -> rval -> bool option **)
+
+let cmp_vals op a b =
+  match a with
+  | RNum x ->
+    (match b with
+     | RNum y -> Some (holds_cmp op (qcompare x y))
+     | RStr _ -> None)
+  | RStr x ->
+    (match b with
+     | RNum _ -> None
+     | RStr y -> Some (holds_cmp op (str_cmp x y)))
+
+(** val wild_match_fuel : nat -> char list -> char list -> bool **)
+
+let rec wild_match_fuel fuel p s =
+  match fuel with
+  | O -> false
+  | S f ->
+    (match p with
+     | [] -> (match s with
+              | [] -> true
+              | _::_ -> false)
+     | c::p' ->
+       (* If this appears, you're using Ascii internals. Please don't *)
+ (fun f c ->
+  let n = Char.code c in
+  let h i = (n land (1 lsl i)) <> 0 in
+  f (h 0) (h 1) (h 2) (h 3) (h 4) (h 5) (h 6) (h 7))
+         (fun b b0 b1 b2 b3 b4 b5 b6 ->
+         if b
+         then if b0
+              then if b1
+                   then if b2
+                        then if b3
+                             then if b4
+                                  then if b5
+                                       then (match s with
+                                             | [] -> false
+                                             | d::s' ->
+                                               (&&) ((=) c d)
+                                                 (wild_match_fuel f p' s'))
+                                       else if b6
+                                            then (match s with
+                                                  | [] -> false
+                                                  | d::s' ->
+                                                    (&&) ((=) c d)
+                                                      (wild_match_fuel f p'
+                                                        s'))
+                                            else (match s with
+                                                  | [] -> false
+                                                  | _::s' ->
+                                                    wild_match_fuel f p' s')
+                                  else (match s with
+                                        | [] -> false
+                                        | d::s' ->
+                                          (&&) ((=) c d)
+                                            (wild_match_fuel f p' s'))
+                             else (match s with
+                                   | [] -> false
+                                   | d::s' ->
+                                     (&&) ((=) c d) (wild_match_fuel f p' s'))
+                        else (match s with
+                              | [] -> false
+                              | d::s' ->
+                                (&&) ((=) c d) (wild_match_fuel f p' s'))
+                   else (match s with
+                         | [] -> false
+                         | d::s' -> (&&) ((=) c d) (wild_match_fuel f p' s'))
+              else (match s with
+                    | [] -> false
+                    | d::s' -> (&&) ((=) c d) (wild_match_fuel f p' s'))
+         else if b0
+              then if b1
+                   then (match s with
+                         | [] -> false
+                         | d::s' -> (&&) ((=) c d) (wild_match_fuel f p' s'))
+                   else if b2
+                        then if b3
+                             then (match s with
+                                   | [] -> false
+                                   | d::s' ->
+                                     (&&) ((=) c d) (wild_match_fuel f p' s'))
+                             else if b4
+                                  then if b5
+                                       then (match s with
+                                             | [] -> false
+                                             | d::s' ->
+                                               (&&) ((=) c d)
+                                                 (wild_match_fuel f p' s'))
+                                       else if b6
+                                            then (match s with
+                                                  | [] -> false
+                                                  | d::s' ->
+                                                    (&&) ((=) c d)
+                                                      (wild_match_fuel f p'
+                                                        s'))
+                                            else (||)
+                                                   (wild_match_fuel f p' s)
+                                                   (match s with
+                                                    | [] -> false
+                                                    | _::s' ->
+                                                      wild_match_fuel f p s')
+                                  else (match s with
+                                        | [] -> false
+                                        | d::s' ->
+                                          (&&) ((=) c d)
+                                            (wild_match_fuel f p' s'))
+                        else (match s with
+                              | [] -> false
+                              | d::s' ->
+                                (&&) ((=) c d) (wild_match_fuel f p' s'))
+              else (match s with
+                    | [] -> false
+                    | d::s' -> (&&) ((=) c d) (wild_match_fuel f p' s')))
+         c)
+
+(** val wild_match : char list -> char list -> bool **)
+
+let wild_match p s =
+  wild_match_fuel (S (add (length0 p) (length0 s))) p s
+
+(** val field_of : value -> char list option **)
+
+let field_of = function
+| VExp e ->
+  let E (left, op, right, _, _) = e in
+  (match left with
+   | VCol f ->
+     (match op with
+      | Literal -> (match right with
+                    | VNil -> Some f
+                    | _ -> None)
+      | _ -> None)
+   | _ -> None)
+| _ -> None
+
+(** val is_star : value -> bool **)
+
+let is_star = function
+| VExp e ->
+  let E (left, op, right, _, _) = e in
+  (match left with
+   | VStr s ->
+     (match op with
+      | Wild -> (match right with
+                 | VNil -> eqb0 s ('*'::[])
+                 | _ -> false)
+      | _ -> false)
+   | _ -> false)
+| _ -> false
+
+(** val opt_and : bool option -> bool option -> bool option **)
+
+let opt_and a b =
+  match a with
+  | Some x -> (match b with
+               | Some y -> Some ((&&) x y)
+               | None -> None)
+  | None -> None
+
+(** val opt_or : bool option -> bool option -> bool option **)
+
+let opt_or a b =
+  match a with
+  | Some x -> (match b with
+               | Some y -> Some ((||) x y)
+               | None -> None)
+  | None -> None
+
+(** val cmp_leaf : row -> cmpop -> char list -> value -> bool option **)
+
+let cmp_leaf r op f = function
+| VExp lf ->
+  (match r f with
+   | Some a ->
+     (match leaf_const lf with
+      | Some b -> cmp_vals op a b
+      | None -> None)
+   | None -> None)
+| _ -> None
+
+(** val in_list : row -> char list -> expr list -> bool option **)
+
+let rec in_list r f = function
+| [] -> Some false
+| x :: rest -> opt_or (cmp_leaf r CEq f (VExp x)) (in_list r f rest)
+
+(** val qsem : row -> expr -> bool option **)
+
+let rec qsem r = function
+| E (l, op, rt, _, _) ->
+  (match op with
+   | And ->
+     (match l with
+      | VExp a ->
+        (match rt with
+         | VExp b -> opt_and (qsem r a) (qsem r b)
+         | _ -> None)
+      | _ -> None)
+   | Or ->
+     (match l with
+      | VExp a ->
+        (match rt with
+         | VExp b -> opt_or (qsem r a) (qsem r b)
+         | _ -> None)
+      | _ -> None)
+   | Equals ->
+     (match field_of l with
+      | Some f -> cmp_leaf r CEq f rt
+      | None -> None)
+   | Like ->
+     (match field_of l with
+      | Some f ->
+        (match rt with
+         | VExp e0 ->
+           let E (left, op0, right, _, _) = e0 in
+           (match left with
+            | VStr p ->
+              (match op0 with
+               | Wild ->
+                 (match right with
+                  | VNil ->
+                    (match r f with
+                     | Some r0 ->
+                       (match r0 with
+                        | RNum _ -> None
+                        | RStr s -> Some (wild_match p s))
+                     | None -> None)
+                  | _ -> None)
+               | _ -> None)
+            | _ -> None)
+         | _ -> None)
+      | None -> None)
+   | Not -> (match l with
+             | VExp a -> option_map negb (qsem r a)
+             | _ -> None)
+   | Range ->
+     (match field_of l with
+      | Some f ->
+        (match rt with
+         | VBound (lo, hi, incl) ->
+           let lower1 =
+             if is_star lo
+             then Some true
+             else cmp_leaf r (if incl then CGe else CGt) f lo
+           in
+           let upper =
+             if is_star hi
+             then Some true
+             else cmp_leaf r (if incl then CLe else CLt) f hi
+           in
+           opt_and lower1 upper
+         | _ -> None)
+      | None -> None)
+   | Must -> (match l with
+              | VExp a -> qsem r a
+              | _ -> None)
+   | MustNot ->
+     (match l with
+      | VExp a -> option_map negb (qsem r a)
+      | _ -> None)
+   | Greater ->
+     (match field_of l with
+      | Some f -> cmp_leaf r CGt f rt
+      | None -> None)
+   | Less ->
+     (match field_of l with
+      | Some f -> cmp_leaf r CLt f rt
+      | None -> None)
+   | GreaterEq ->
+     (match field_of l with
+      | Some f -> cmp_leaf r CGe f rt
+      | None -> None)
+   | LessEq ->
+     (match field_of l with
+      | Some f -> cmp_leaf r CLe f rt
+      | None -> None)
+   | In ->
+     (match field_of l with
+      | Some f ->
+        (match rt with
+         | VExp e0 ->
+           let E (left, op0, right, _, _) = e0 in
+           (match left with
+            | VList lits ->
+              (match op0 with
+               | List ->
+                 (match right with
+                  | VNil -> in_list r f lits
+                  | _ -> None)
+               | _ -> None)
+            | _ -> None)
+         | _ -> None)
+      | None -> None)
+   | _ -> None)
+
+(** val sstr : bytes0 -> char list **)
+
+let sstr =
+  string_of_list_ascii
+
+(** val dec_digits :
+    char list -> z -> nat -> ((z * nat) * char list) option **)
+
+let rec dec_digits s acc n1 =
+  match s with
+  | [] -> Some ((acc, n1), [])
+  | c :: r ->
+    let k = nat_of_ascii c in
+    if (&&)
+         (Nat.leb (S (S (S (S (S (S (S (S (S (S (S (S (S (S (S (S (S (S (S (S
+           (S (S (S (S (S (S (S (S (S (S (S (S (S (S (S (S (S (S (S (S (S (S
+           (S (S (S (S (S (S
+           O)))))))))))))))))))))))))))))))))))))))))))))))) k)
+         (Nat.leb k (S (S (S (S (S (S (S (S (S (S (S (S (S (S (S (S (S (S (S
+           (S (S (S (S (S (S (S (S (S (S (S (S (S (S (S (S (S (S (S (S (S (S
+           (S (S (S (S (S (S (S (S (S (S (S (S (S (S (S (S
+           O))))))))))))))))))))))))))))))))))))))))))))))))))))))))))
+    then dec_digits r
+           (Z.add (Z.mul acc (Zpos (XO (XI (XO XH)))))
+             (Z.of_nat
+               (sub k (S (S (S (S (S (S (S (S (S (S (S (S (S (S (S (S (S (S
+                 (S (S (S (S (S (S (S (S (S (S (S (S (S (S (S (S (S (S (S (S
+                 (S (S (S (S (S (S (S (S (S (S
+                 O))))))))))))))))))))))))))))))))))))))))))))))))))) (S n1)
+    else Some ((acc, n1), s)
+
+(** val q_of_decimal : char list -> q option **)
+
+let q_of_decimal s =
+  match dec_digits s Z0 O with
+  | Some p ->
+    let (p0, rest) = p in
+    let (ip, n1) = p0 in
+    (match rest with
+     | [] ->
+       let p1 = ((ip, O), rest) in
+       let n2 = O in
+       let (p2, rest2) = p1 in
+       let (mant, scale) = p2 in
+       if Nat.eqb (add n1 n2) O
+       then None
+       else let base = { qnum = mant; qden =
+              (Coq_Pos.pow (XO (XI (XO XH))) (Coq_Pos.of_nat scale)) }
+            in
+            let base0 = if Nat.eqb scale O then inject_Z mant else base in
+            (match rest2 with
+             | [] -> Some base0
+             | e :: r ->
+               if (||) ((=) e 'e') ((=) e 'E')
+               then (match r with
+                     | [] ->
+                       let neg = false in
+                       (match dec_digits r Z0 O with
+                        | Some p3 ->
+                          let (p4, l) = p3 in
+                          let (ex, n3) = p4 in
+                          (match n3 with
+                           | O -> None
+                           | S _ ->
+                             (match l with
+                              | [] ->
+                                let p5 =
+                                  inject_Z (Z.pow (Zpos (XO (XI (XO XH)))) ex)
+                                in
+                                Some
+                                (if neg then qdiv base0 p5 else qmult base0 p5)
+                              | _ :: _ -> None))
+                        | None -> None)
+                     | a :: t ->
+                       (* If this appears, you're using Ascii internals. Please don't *)
+ (fun f c ->
+  let n = Char.code c in
+  let h i = (n land (1 lsl i)) <> 0 in
+  f (h 0) (h 1) (h 2) (h 3) (h 4) (h 5) (h 6) (h 7))
+                         (fun b b0 b1 b2 b3 b4 b5 b6 ->
+                         if b
+                         then if b0
+                              then if b1
+                                   then let neg = false in
+                                        (match dec_digits r Z0 O with
+                                         | Some p3 ->
+                                           let (p4, l) = p3 in
+                                           let (ex, n3) = p4 in
+                                           (match n3 with
+                                            | O -> None
+                                            | S _ ->
+                                              (match l with
+                                               | [] ->
+                                                 let p5 =
+                                                   inject_Z
+                                                     (Z.pow (Zpos (XO (XI (XO
+                                                       XH)))) ex)
+                                                 in
+                                                 Some
+                                                 (if neg
+                                                  then qdiv base0 p5
+                                                  else qmult base0 p5)
+                                               | _ :: _ -> None))
+                                         | None -> None)
+                                   else if b2
+                                        then if b3
+                                             then let neg = false in
+                                                  (match dec_digits r Z0 O with
+                                                   | Some p3 ->
+                                                     let (p4, l) = p3 in
+                                                     let (ex, n3) = p4 in
+                                                     (match n3 with
+                                                      | O -> None
+                                                      | S _ ->
+                                                        (match l with
+                                                         | [] ->
+                                                           let p5 =
+                                                             inject_Z
+                                                               (Z.pow (Zpos
+                                                                 (XO (XI (XO
+                                                                 XH)))) ex)
+                                                           in
+                                                           Some
+                                                           (if neg
+                                                            then qdiv base0 p5
+                                                            else qmult base0
+                                                                   p5)
+                                                         | _ :: _ -> None))
+                                                   | None -> None)
+                                             else if b4
+                                                  then if b5
+                                                       then let neg = false in
+                                                            (match dec_digits
+                                                                    r Z0 O with
+                                                             | Some p3 ->
+                                                               let (p4, l) =
+                                                                 p3
+                                                               in
+                                                               let (ex, n3) =
+                                                                 p4
+                                                               in
+                                                               (match n3 with
+                                                                | O -> None
+                                                                | S _ ->
+                                                                  (match l with
+                                                                   | [] ->
+                                                                    let p5 =
+                                                                    inject_Z
+                                                                    (Z.pow
+                                                                    (Zpos (XO
+                                                                    (XI (XO
+                                                                    XH)))) ex)
+                                                                    in
+                                                                    Some
+                                                                    (
+                                                                    if neg
+                                                                    then 
+                                                                    qdiv
+                                                                    base0 p5
+                                                                    else 
+                                                                    qmult
+                                                                    base0 p5)
+                                                                   | _ :: _ ->
+                                                                    None))
+                                                             | None -> None)
+                                                       else if b6
+                                                            then let neg =
+                                                                   false
+                                                                 in
+                                                                 (match 
+                                                                  dec_digits
+                                                                    r Z0 O with
+                                                                  | Some p3 ->
+                                                                    let (
+                                                                    p4, l) =
+                                                                    p3
+                                                                    in
+                                                                    let (
+                                                                    ex, n3) =
+                                                                    p4
+                                                                    in
+                                                                    (
+                                                                    match n3 with
+                                                                    | O ->
+                                                                    None
+                                                                    | S _ ->
+                                                                    (match l with
+                                                                    | [] ->
+                                                                    let p5 =
+                                                                    inject_Z
+                                                                    (Z.pow
+                                                                    (Zpos (XO
+                                                                    (XI (XO
+                                                                    XH)))) ex)
+                                                                    in
+                                                                    Some
+                                                                    (
+                                                                    if neg
+                                                                    then 
+                                                                    qdiv
+                                                                    base0 p5
+                                                                    else 
+                                                                    qmult
+                                                                    base0 p5)
+                                                                    | _ :: _ ->
+                                                                    None))
+                                                                  | None ->
+                                                                    None)
+                                                            else let neg =
+                                                                   false
+                                                                 in
+                                                                 (match 
+                                                                  dec_digits
+                                                                    t Z0 O with
+                                                                  | Some p3 ->
+                                                                    let (
+                                                                    p4, l) =
+                                                                    p3
+                                                                    in
+                                                                    let (
+                                                                    ex, n3) =
+                                                                    p4
+                                                                    in
+                                                                    (
+                                                                    match n3 with
+                                                                    | O ->
+                                                                    None
+                                                                    | S _ ->
+                                                                    (match l with
+                                                                    | [] ->
+                                                                    let p5 =
+                                                                    inject_Z
+                                                                    (Z.pow
+                                                                    (Zpos (XO
+                                                                    (XI (XO
+                                                                    XH)))) ex)
+                                                                    in
+                                                                    Some
+                                                                    (
+                                                                    if neg
+                                                                    then 
+                                                                    qdiv
+                                                                    base0 p5
+                                                                    else 
+                                                                    qmult
+                                                                    base0 p5)
+                                                                    | _ :: _ ->
+                                                                    None))
+                                                                  | None ->
+                                                                    None)
+                                                  else let neg = false in
+                                                       (match dec_digits r Z0
+                                                                O with
+                                                        | Some p3 ->
+                                                          let (p4, l) = p3 in
+                                                          let (ex, n3) = p4 in
+                                                          (match n3 with
+                                                           | O -> None
+                                                           | S _ ->
+                                                             (match l with
+                                                              | [] ->
+                                                                let p5 =
+                                                                  inject_Z
+                                                                    (Z.pow
+                                                                    (Zpos (XO
+                                                                    (XI (XO
+                                                                    XH)))) ex)
+                                                                in
+                                                                Some
+                                                                (if neg
+                                                                 then 
+                                                                   qdiv base0
+                                                                    p5
+                                                                 else 
+                                                                   qmult
+                                                                    base0 p5)
+                                                              | _ :: _ -> None))
+                                                        | None -> None)
+                                        else let neg = false in
+                                             (match dec_digits r Z0 O with
+                                              | Some p3 ->
+                                                let (p4, l) = p3 in
+                                                let (ex, n3) = p4 in
+                                                (match n3 with
+                                                 | O -> None
+                                                 | S _ ->
+                                                   (match l with
+                                                    | [] ->
+                                                      let p5 =
+                                                        inject_Z
+                                                          (Z.pow (Zpos (XO
+                                                            (XI (XO XH)))) ex)
+                                                      in
+                                                      Some
+                                                      (if neg
+                                                       then qdiv base0 p5
+                                                       else qmult base0 p5)
+                                                    | _ :: _ -> None))
+                                              | None -> None)
+                              else if b1
+                                   then if b2
+                                        then if b3
+                                             then let neg = false in
+                                                  (match dec_digits r Z0 O with
+                                                   | Some p3 ->
+                                                     let (p4, l) = p3 in
+                                                     let (ex, n3) = p4 in
+                                                     (match n3 with
+                                                      | O -> None
+                                                      | S _ ->
+                                                        (match l with
+                                                         | [] ->
+                                                           let p5 =
+                                                             inject_Z
+                                                               (Z.pow (Zpos
+                                                                 (XO (XI (XO
+                                                                 XH)))) ex)
+                                                           in
+                                                           Some
+                                                           (if neg
+                                                            then qdiv base0 p5
+                                                            else qmult base0
+                                                                   p5)
+                                                         | _ :: _ -> None))
+                                                   | None -> None)
+                                             else if b4
+                                                  then if b5
+                                                       then let neg = false in
+                                                            (match dec_digits
+                                                                    r Z0 O with
+                                                             | Some p3 ->
+                                                               let (p4, l) =
+                                                                 p3
+                                                               in
+                                                               let (ex, n3) =
+                                                                 p4
+                                                               in
+                                                               (match n3 with
+                                                                | O -> None
+                                                                | S _ ->
+                                                                  (match l with
+                                                                   | [] ->
+                                                                    let p5 =
+                                                                    inject_Z
+                                                                    (Z.pow
+                                                                    (Zpos (XO
+                                                                    (XI (XO
+                                                                    XH)))) ex)
+                                                                    in
+                                                                    Some
+                                                                    (
+                                                                    if neg
+                                                                    then 
+                                                                    qdiv
+                                                                    base0 p5
+                                                                    else 
+                                                                    qmult
+                                                                    base0 p5)
+                                                                   | _ :: _ ->
+                                                                    None))
+                                                             | None -> None)
+                                                       else if b6
+                                                            then let neg =
+                                                                   false
+                                                                 in
+                                                                 (match 
+                                                                  dec_digits
+                                                                    r Z0 O with
+                                                                  | Some p3 ->
+                                                                    let (
+                                                                    p4, l) =
+                                                                    p3
+                                                                    in
+                                                                    let (
+                                                                    ex, n3) =
+                                                                    p4
+                                                                    in
+                                                                    (
+                                                                    match n3 with
+                                                                    | O ->
+                                                                    None
+                                                                    | S _ ->
+                                                                    (match l with
+                                                                    | [] ->
+                                                                    let p5 =
+                                                                    inject_Z
+                                                                    (Z.pow
+                                                                    (Zpos (XO
+                                                                    (XI (XO
+                                                                    XH)))) ex)
+                                                                    in
+                                                                    Some
+                                                                    (
+                                                                    if neg
+                                                                    then 
+                                                                    qdiv
+                                                                    base0 p5
+                                                                    else 
+                                                                    qmult
+                                                                    base0 p5)
+                                                                    | _ :: _ ->
+                                                                    None))
+                                                                  | None ->
+                                                                    None)
+                                                            else let neg =
+                                                                   true
+                                                                 in
+                                                                 (match 
+                                                                  dec_digits
+                                                                    t Z0 O with
+                                                                  | Some p3 ->
+                                                                    let (
+                                                                    p4, l) =
+                                                                    p3
+                                                                    in
+                                                                    let (
+                                                                    ex, n3) =
+                                                                    p4
+                                                                    in
+                                                                    (
+                                                                    match n3 with
+                                                                    | O ->
+                                                                    None
+                                                                    | S _ ->
+                                                                    (match l with
+                                                                    | [] ->
+                                                                    let p5 =
+                                                                    inject_Z
+                                                                    (Z.pow
+                                                                    (Zpos (XO
+                                                                    (XI (XO
+                                                                    XH)))) ex)
+                                                                    in
+                                                                    Some
+                                                                    (
+                                                                    if neg
+                                                                    then 
+                                                                    qdiv
+                                                                    base0 p5
+                                                                    else 
+                                                                    qmult
+                                                                    base0 p5)
+                                                                    | _ :: _ ->
+                                                                    None))
+                                                                  | None ->
+                                                                    None)
+                                                  else let neg = false in
+                                                       (match dec_digits r Z0
+                                                                O with
+                                                        | Some p3 ->
+                                                          let (p4, l) = p3 in
+                                                          let (ex, n3) = p4 in
+                                                          (match n3 with
+                                                           | O -> None
+                                                           | S _ ->
+                                                             (match l with
+                                                              | [] ->
+                                                                let p5 =
+                                                                  inject_Z
+                                                                    (Z.pow
+                                                                    (Zpos (XO
+                                                                    (XI (XO
+                                                                    XH)))) ex)
+                                                                in
+                                                                Some
+                                                                (if neg
+                                                                 then 
+                                                                   qdiv base0
+                                                                    p5
+                                                                 else 
+                                                                   qmult
+                                                                    base0 p5)
+                                                              | _ :: _ -> None))
+                                                        | None -> None)
+                                        else let neg = false in
+                                             (match dec_digits r Z0 O with
+                                              | Some p3 ->
+                                                let (p4, l) = p3 in
+                                                let (ex, n3) = p4 in
+                                                (match n3 with
+                                                 | O -> None
+                                                 | S _ ->
+                                                   (match l with
+                                                    | [] ->
+                                                      let p5 =
+                                                        inject_Z
+                                                          (Z.pow (Zpos (XO
+                                                            (XI (XO XH)))) ex)
+                                                      in
+                                                      Some
+                                                      (if neg
+                                                       then qdiv base0 p5
+                                                       else qmult base0 p5)
+                                                    | _ :: _ -> None))
+                                              | None -> None)
+                                   else let neg = false in
+                                        (match dec_digits r Z0 O with
+                                         | Some p3 ->
+                                           let (p4, l) = p3 in
+                                           let (ex, n3) = p4 in
+                                           (match n3 with
+                                            | O -> None
+                                            | S _ ->
+                                              (match l with
+                                               | [] ->
+                                                 let p5 =
+                                                   inject_Z
+                                                     (Z.pow (Zpos (XO (XI (XO
+                                                       XH)))) ex)
+                                                 in
+                                                 Some
+                                                 (if neg
+                                                  then qdiv base0 p5
+                                                  else qmult base0 p5)
+                                               | _ :: _ -> None))
+                                         | None -> None)
+                         else let neg = false in
+                              (match dec_digits r Z0 O with
+                               | Some p3 ->
+                                 let (p4, l) = p3 in
+                                 let (ex, n3) = p4 in
+                                 (match n3 with
+                                  | O -> None
+                                  | S _ ->
+                                    (match l with
+                                     | [] ->
+                                       let p5 =
+                                         inject_Z
+                                           (Z.pow (Zpos (XO (XI (XO XH)))) ex)
+                                       in
+                                       Some
+                                       (if neg
+                                        then qdiv base0 p5
+                                        else qmult base0 p5)
+                                     | _ :: _ -> None))
+                               | None -> None))
+                         a)
+               else None)
+     | a :: r ->
+       (* If this appears, you're using Ascii internals. Please don't *)
+ (fun f c ->
+  let n = Char.code c in
+  let h i = (n land (1 lsl i)) <> 0 in
+  f (h 0) (h 1) (h 2) (h 3) (h 4) (h 5) (h 6) (h 7))
+         (fun b b0 b1 b2 b3 b4 b5 b6 ->
+         if b
+         then let p1 = ((ip, O), rest) in
+              let n2 = O in
+              let (p2, rest2) = p1 in
+              let (mant, scale) = p2 in
+              if Nat.eqb (add n1 n2) O
+              then None
+              else let base = { qnum = mant; qden =
+                     (Coq_Pos.pow (XO (XI (XO XH))) (Coq_Pos.of_nat scale)) }
+                   in
+                   let base0 = if Nat.eqb scale O then inject_Z mant else base
+                   in
+                   (match rest2 with
+                    | [] -> Some base0
+                    | e :: r0 ->
+                      if (||) ((=) e 'e') ((=) e 'E')
+                      then (match r0 with
+                            | [] ->
+                              let neg = false in
+                              (match dec_digits r0 Z0 O with
+                               | Some p3 ->
+                                 let (p4, l) = p3 in
+                                 let (ex, n3) = p4 in
+                                 (match n3 with
+                                  | O -> None
+                                  | S _ ->
+                                    (match l with
+                                     | [] ->
+                                       let p5 =
+                                         inject_Z
+                                           (Z.pow (Zpos (XO (XI (XO XH)))) ex)
+                                       in
+                                       Some
+                                       (if neg
+                                        then qdiv base0 p5
+                                        else qmult base0 p5)
+                                     | _ :: _ -> None))
+                               | None -> None)
+                            | a0 :: t ->
+                              (* If this appears, you're using Ascii internals. Please don't *)
+ (fun f c ->
+  let n = Char.code c in
+  let h i = (n land (1 lsl i)) <> 0 in
+  f (h 0) (h 1) (h 2) (h 3) (h 4) (h 5) (h 6) (h 7))
+                                (fun b7 b8 b9 b10 b11 b12 b13 b14 ->
+                                if b7
+                                then if b8
+                                     then if b9
+                                          then let neg = false in
+                                               (match dec_digits r0 Z0 O with
+                                                | Some p3 ->
+                                                  let (p4, l) = p3 in
+                                                  let (ex, n3) = p4 in
+                                                  (match n3 with
+                                                   | O -> None
+                                                   | S _ ->
+                                                     (match l with
+                                                      | [] ->
+                                                        let p5 =
+                                                          inject_Z
+                                                            (Z.pow (Zpos (XO
+                                                              (XI (XO XH))))
+                                                              ex)
+                                                        in
+                                                        Some
+                                                        (if neg
+                                                         then qdiv base0 p5
+                                                         else qmult base0 p5)
+                                                      | _ :: _ -> None))
+                                                | None -> None)
+                                          else if b10
+                                               then if b11
+                                                    then let neg = false in
+                                                         (match dec_digits r0
+                                                                  Z0 O with
+                                                          | Some p3 ->
+                                                            let (p4, l) = p3
+                                                            in
+                                                            let (ex, n3) = p4
+                                                            in
+                                                            (match n3 with
+                                                             | O -> None
+                                                             | S _ ->
+                                                               (match l with
+                                                                | [] ->
+                                                                  let p5 =
+                                                                    inject_Z
+                                                                    (Z.pow
+                                                                    (Zpos (XO
+                                                                    (XI (XO
+                                                                    XH)))) ex)
+                                                                  in
+                                                                  Some
+                                                                  (if neg
+                                                                   then 
+                                                                    qdiv
+                                                                    base0 p5
+                                                                   else 
+                                                                    qmult
+                                                                    base0 p5)
+                                                                | _ :: _ ->
+                                                                  None))
+                                                          | None -> None)
+                                                    else if b12
+                                                         then if b13
+                                                              then let neg =
+                                                                    false
+                                                                   in
+                                                                   (match 
+                                                                    dec_digits
+                                                                    r0 Z0 O with
+                                                                    | Some p3 ->
+                                                                    let (
+                                                                    p4, l) =
+                                                                    p3
+                                                                    in
+                                                                    let (
+                                                                    ex, n3) =
+                                                                    p4
+                                                                    in
+                                                                    (
+                                                                    match n3 with
+                                                                    | O ->
+                                                                    None
+                                                                    | S _ ->
+                                                                    (match l with
+                                                                    | [] ->
+                                                                    let p5 =
+                                                                    inject_Z
+                                                                    (Z.pow
+                                                                    (Zpos (XO
+                                                                    (XI (XO
+                                                                    XH)))) ex)
+                                                                    in
+                                                                    Some
+                                                                    (
+                                                                    if neg
+                                                                    then 
+                                                                    qdiv
+                                                                    base0 p5
+                                                                    else 
+                                                                    qmult
+                                                                    base0 p5)
+                                                                    | _ :: _ ->
+                                                                    None))
+                                                                    | None ->
+                                                                    None)
+                                                              else if b14
+                                                                   then 
+                                                                    let neg =
+                                                                    false
+                                                                    in
+                                                                    (
+                                                                    match 
+                                                                    dec_digits
+                                                                    r0 Z0 O with
+                                                                    | Some p3 ->
+                                                                    let (
+                                                                    p4, l) =
+                                                                    p3
+                                                                    in
+                                                                    let (
+                                                                    ex, n3) =
+                                                                    p4
+                                                                    in
+                                                                    (
+                                                                    match n3 with
+                                                                    | O ->
+                                                                    None
+                                                                    | S _ ->
+                                                                    (match l with
+                                                                    | [] ->
+                                                                    let p5 =
+                                                                    inject_Z
+                                                                    (Z.pow
+                                                                    (Zpos (XO
+                                                                    (XI (XO
+                                                                    XH)))) ex)
+                                                                    in
+                                                                    Some
+                                                                    (
+                                                                    if neg
+                                                                    then 
+                                                                    qdiv
+                                                                    base0 p5
+                                                                    else 
+                                                                    qmult
+                                                                    base0 p5)
+                                                                    | _ :: _ ->
+                                                                    None))
+                                                                    | None ->
+                                                                    None)
+                                                                   else 
+                                                                    let neg =
+                                                                    false
+                                                                    in
+                                                                    (
+                                                                    match 
+                                                                    dec_digits
+                                                                    t Z0 O with
+                                                                    | Some p3 ->
+                                                                    let (
+                                                                    p4, l) =
+                                                                    p3
+                                                                    in
+                                                                    let (
+                                                                    ex, n3) =
+                                                                    p4
+                                                                    in
+                                                                    (
+                                                                    match n3 with
+                                                                    | O ->
+                                                                    None
+                                                                    | S _ ->
+                                                                    (match l with
+                                                                    | [] ->
+                                                                    let p5 =
+                                                                    inject_Z
+                                                                    (Z.pow
+                                                                    (Zpos (XO
+                                                                    (XI (XO
+                                                                    XH)))) ex)
+                                                                    in
+                                                                    Some
+                                                                    (
+                                                                    if neg
+                                                                    then 
+                                                                    qdiv
+                                                                    base0 p5
+                                                                    else 
+                                                                    qmult
+                                                                    base0 p5)
+                                                                    | _ :: _ ->
+                                                                    None))
+                                                                    | None ->
+                                                                    None)
+                                                         else let neg = false
+                                                              in
+                                                              (match 
+                                                               dec_digits r0
+                                                                 Z0 O with
+                                                               | Some p3 ->
+                                                                 let (
+                                                                   p4, l) = p3
+                                                                 in
+                                                                 let (
+                                                                   ex, n3) =
+                                                                   p4
+                                                                 in
+                                                                 (match n3 with
+                                                                  | O -> None
+                                                                  | S _ ->
+                                                                    (match l with
+                                                                    | [] ->
+                                                                    let p5 =
+                                                                    inject_Z
+                                                                    (Z.pow
+                                                                    (Zpos (XO
+                                                                    (XI (XO
+                                                                    XH)))) ex)
+                                                                    in
+                                                                    Some
+                                                                    (
+                                                                    if neg
+                                                                    then 
+                                                                    qdiv
+                                                                    base0 p5
+                                                                    else 
+                                                                    qmult
+                                                                    base0 p5)
+                                                                    | _ :: _ ->
+                                                                    None))
+                                                               | None -> None)
+                                               else let neg = false in
+                                                    (match dec_digits r0 Z0 O with
+                                                     | Some p3 ->
+                                                       let (p4, l) = p3 in
+                                                       let (ex, n3) = p4 in
+                                                       (match n3 with
+                                                        | O -> None
+                                                        | S _ ->
+                                                          (match l with
+                                                           | [] ->
+                                                             let p5 =
+                                                               inject_Z
+                                                                 (Z.pow (Zpos
+                                                                   (XO (XI
+                                                                   (XO XH))))
+                                                                   ex)
+                                                             in
+                                                             Some
+                                                             (if neg
+                                                              then qdiv base0
+                                                                    p5
+                                                              else qmult
+                                                                    base0 p5)
+                                                           | _ :: _ -> None))
+                                                     | None -> None)
+                                     else if b9
+                                          then if b10
+                                               then if b11
+                                                    then let neg = false in
+                                                         (match dec_digits r0
+                                                                  Z0 O with
+                                                          | Some p3 ->
+                                                            let (p4, l) = p3
+                                                            in
+                                                            let (ex, n3) = p4
+                                                            in
+                                                            (match n3 with
+                                                             | O -> None
+                                                             | S _ ->
+                                                               (match l with
+                                                                | [] ->
+                                                                  let p5 =
+                                                                    inject_Z
+                                                                    (Z.pow
+                                                                    (Zpos (XO
+                                                                    (XI (XO
+                                                                    XH)))) ex)
+                                                                  in
+                                                                  Some
+                                                                  (if neg
+                                                                   then 
+                                                                    qdiv
+                                                                    base0 p5
+                                                                   else 
+                                                                    qmult
+                                                                    base0 p5)
+                                                                | _ :: _ ->
+                                                                  None))
+                                                          | None -> None)
+                                                    else if b12
+                                                         then if b13
+                                                              then let neg =
+                                                                    false
+                                                                   in
+                                                                   (match 
+                                                                    dec_digits
+                                                                    r0 Z0 O with
+                                                                    | Some p3 ->
+                                                                    let (
+                                                                    p4, l) =
+                                                                    p3
+                                                                    in
+                                                                    let (
+                                                                    ex, n3) =
+                                                                    p4
+                                                                    in
+                                                                    (
+                                                                    match n3 with
+                                                                    | O ->
+                                                                    None
+                                                                    | S _ ->
+                                                                    (match l with
+                                                                    | [] ->
+                                                                    let p5 =
+                                                                    inject_Z
+                                                                    (Z.pow
+                                                                    (Zpos (XO
+                                                                    (XI (XO
+                                                                    XH)))) ex)
+                                                                    in
+                                                                    Some
+                                                                    (
+                                                                    if neg
+                                                                    then 
+                                                                    qdiv
+                                                                    base0 p5
+                                                                    else 
+                                                                    qmult
+                                                                    base0 p5)
+                                                                    | _ :: _ ->
+                                                                    None))
+                                                                    | None ->
+                                                                    None)
+                                                              else if b14
+                                                                   then 
+                                                                    let neg =
+                                                                    false
+                                                                    in
+                                                                    (
+                                                                    match 
+                                                                    dec_digits
+                                                                    r0 Z0 O with
+                                                                    | Some p3 ->
+                                                                    let (
+                                                                    p4, l) =
+                                                                    p3
+                                                                    in
+                                                                    let (
+                                                                    ex, n3) =
+                                                                    p4
+                                                                    in
+                                                                    (
+                                                                    match n3 with
+                                                                    | O ->
+                                                                    None
+                                                                    | S _ ->
+                                                                    (match l with
+                                                                    | [] ->
+                                                                    let p5 =
+                                                                    inject_Z
+                                                                    (Z.pow
+                                                                    (Zpos (XO
+                                                                    (XI (XO
+                                                                    XH)))) ex)
+                                                                    in
+                                                                    Some
+                                                                    (
+                                                                    if neg
+                                                                    then 
+                                                                    qdiv
+                                                                    base0 p5
+                                                                    else 
+                                                                    qmult
+                                                                    base0 p5)
+                                                                    | _ :: _ ->
+                                                                    None))
+                                                                    | None ->
+                                                                    None)
+                                                                   else 
+                                                                    let neg =
+                                                                    true
+                                                                    in
+                                                                    (
+                                                                    match 
+                                                                    dec_digits
+                                                                    t Z0 O with
+                                                                    | Some p3 ->
+                                                                    let (
+                                                                    p4, l) =
+                                                                    p3
+                                                                    in
+                                                                    let (
+                                                                    ex, n3) =
+                                                                    p4
+                                                                    in
+                                                                    (
+                                                                    match n3 with
+                                                                    | O ->
+                                                                    None
+                                                                    | S _ ->
+                                                                    (match l with
+                                                                    | [] ->
+                                                                    let p5 =
+                                                                    inject_Z
+                                                                    (Z.pow
+                                                                    (Zpos (XO
+                                                                    (XI (XO
+                                                                    XH)))) ex)
+                                                                    in
+                                                                    Some
+                                                                    (
+                                                                    if neg
+                                                                    then 
+                                                                    qdiv
+                                                                    base0 p5
+                                                                    else 
+                                                                    qmult
+                                                                    base0 p5)
+                                                                    | _ :: _ ->
+                                                                    None))
+                                                                    | None ->
+                                                                    None)
+                                                         else let neg = false
+                                                              in
+                                                              (match 
+                                                               dec_digits r0
+                                                                 Z0 O with
+                                                               | Some p3 ->
+                                                                 let (
+                                                                   p4, l) = p3
+                                                                 in
+                                                                 let (
+                                                                   ex, n3) =
+                                                                   p4
+                                                                 in
+                                                                 (match n3 with
+                                                                  | O -> None
+                                                                  | S _ ->
+                                                                    (match l with
+                                                                    | [] ->
+                                                                    let p5 =
+                                                                    inject_Z
+                                                                    (Z.pow
+                                                                    (Zpos (XO
+                                                                    (XI (XO
+                                                                    XH)))) ex)
+                                                                    in
+                                                                    Some
+                                                                    (
+                                                                    if neg
+                                                                    then 
+                                                                    qdiv
+                                                                    base0 p5
+                                                                    else 
+                                                                    qmult
+                                                                    base0 p5)
+                                                                    | _ :: _ ->
+                                                                    None))
+                                                               | None -> None)
+                                               else let neg = false in
+                                                    (match dec_digits r0 Z0 O with
+                                                     | Some p3 ->
+                                                       let (p4, l) = p3 in
+                                                       let (ex, n3) = p4 in
+                                                       (match n3 with
+                                                        | O -> None
+                                                        | S _ ->
+                                                          (match l with
+                                                           | [] ->
+                                                             let p5 =
+                                                               inject_Z
+                                                                 (Z.pow (Zpos
+                                                                   (XO (XI
+                                                                   (XO XH))))
+                                                                   ex)
+                                                             in
+                                                             Some
+                                                             (if neg
+                                                              then qdiv base0
+                                                                    p5
+                                                              else qmult
+                                                                    base0 p5)
+                                                           | _ :: _ -> None))
+                                                     | None -> None)
+                                          else let neg = false in
+                                               (match dec_digits r0 Z0 O with
+                                                | Some p3 ->
+                                                  let (p4, l) = p3 in
+                                                  let (ex, n3) = p4 in
+                                                  (match n3 with
+                                                   | O -> None
+                                                   | S _ ->
+                                                     (match l with
+                                                      | [] ->
+                                                        let p5 =
+                                                          inject_Z
+                                                            (Z.pow (Zpos (XO
+                                                              (XI (XO XH))))
+                                                              ex)
+                                                        in
+                                                        Some
+                                                        (if neg
+                                                         then qdiv base0 p5
+                                                         else qmult base0 p5)
+                                                      | _ :: _ -> None))
+                                                | None -> None)
+                                else let neg = false in
+                                     (match dec_digits r0 Z0 O with
+                                      | Some p3 ->
+                                        let (p4, l) = p3 in
+                                        let (ex, n3) = p4 in
+                                        (match n3 with
+                                         | O -> None
+                                         | S _ ->
+                                           (match l with
+                                            | [] ->
+                                              let p5 =
+                                                inject_Z
+                                                  (Z.pow (Zpos (XO (XI (XO
+                                                    XH)))) ex)
+                                              in
+                                              Some
+                                              (if neg
+                                               then qdiv base0 p5
+                                               else qmult base0 p5)
+                                            | _ :: _ -> None))
+                                      | None -> None))
+                                a0)
+                      else None)
+         else if b0
+              then if b1
+                   then if b2
+                        then if b3
+                             then let p1 = ((ip, O), rest) in
+                                  let n2 = O in
+                                  let (p2, rest2) = p1 in
+                                  let (mant, scale) = p2 in
+                                  if Nat.eqb (add n1 n2) O
+                                  then None
+                                  else let base = { qnum = mant; qden =
+                                         (Coq_Pos.pow (XO (XI (XO XH)))
+                                           (Coq_Pos.of_nat scale)) }
+                                       in
+                                       let base0 =
+                                         if Nat.eqb scale O
+                                         then inject_Z mant
+                                         else base
+                                       in
+                                       (match rest2 with
+                                        | [] -> Some base0
+                                        | e :: r0 ->
+                                          if (||) ((=) e 'e') ((=) e 'E')
+                                          then (match r0 with
+                                                | [] ->
+                                                  let neg = false in
+                                                  (match dec_digits r0 Z0 O with
+                                                   | Some p3 ->
+                                                     let (p4, l) = p3 in
+                                                     let (ex, n3) = p4 in
+                                                     (match n3 with
+                                                      | O -> None
+                                                      | S _ ->
+                                                        (match l with
+                                                         | [] ->
+                                                           let p5 =
+                                                             inject_Z
+                                                               (Z.pow (Zpos
+                                                                 (XO (XI (XO
+                                                                 XH)))) ex)
+                                                           in
+                                                           Some
+                                                           (if neg
+                                                            then qdiv base0 p5
+                                                            else qmult base0
+                                                                   p5)
+                                                         | _ :: _ -> None))
+                                                   | None -> None)
+                                                | a0 :: t ->
+                                                  (* If this appears, you're using Ascii internals. Please don't *)
+ (fun f c ->
+  let n = Char.code c in
+  let h i = (n land (1 lsl i)) <> 0 in
+  f (h 0) (h 1) (h 2) (h 3) (h 4) (h 5) (h 6) (h 7))
+                                                    (fun b7 b8 b9 b10 b11 b12 b13 b14 ->
+                                                    if b7
+                                                    then if b8
+                                                         then if b9
+                                                              then let neg =
+                                                                    false
+                                                                   in
+                                                                   (match 
+                                                                    dec_digits
+                                                                    r0 Z0 O with
+                                                                    | Some p3 ->
+                                                                    let (
+                                                                    p4, l) =
+                                                                    p3
+                                                                    in
+                                                                    let (
+                                                                    ex, n3) =
+                                                                    p4
+                                                                    in
+                                                                    (
+                                                                    match n3 with
+                                                                    | O ->
+                                                                    None
+                                                                    | S _ ->
+                                                                    (match l with
+                                                                    | [] ->
+                                                                    let p5 =
+                                                                    inject_Z
+                                                                    (Z.pow
+                                                                    (Zpos (XO
+                                                                    (XI (XO
+                                                                    XH)))) ex)
+                                                                    in
+                                                                    Some
+                                                                    (
+                                                                    if neg
+                                                                    then 
+                                                                    qdiv
+                                                                    base0 p5
+                                                                    else 
+                                                                    qmult
+                                                                    base0 p5)
+                                                                    | _ :: _ ->
+                                                                    None))
+                                                                    | None ->
+                                                                    None)
+                                                              else if b10
+                                                                   then 
+                                                                    if b11
+                                                                    then 
+                                                                    let neg =
+                                                                    false
+                                                                    in
+                                                                    (
+                                                                    match 
+                                                                    dec_digits
+                                                                    r0 Z0 O with
+                                                                    | Some p3 ->
+                                                                    let (
+                                                                    p4, l) =
+                                                                    p3
+                                                                    in
+                                                                    let (
+                                                                    ex, n3) =
+                                                                    p4
+                                                                    in
+                                                                    (
+                                                                    match n3 with
+                                                                    | O ->
+                                                                    None
+                                                                    | S _ ->
+                                                                    (match l with
+                                                                    | [] ->
+                                                                    let p5 =
+                                                                    inject_Z
+                                                                    (Z.pow
+                                                                    (Zpos (XO
+                                                                    (XI (XO
+                                                                    XH)))) ex)
+                                                                    in
+                                                                    Some
+                                                                    (
+                                                                    if neg
+                                                                    then 
+                                                                    qdiv
+                                                                    base0 p5
+                                                                    else 
+                                                                    qmult
+                                                                    base0 p5)
+                                                                    | _ :: _ ->
+                                                                    None))
+                                                                    | None ->
+                                                                    None)
+                                                                    else 
+                                                                    if b12
+                                                                    then 
+                                                                    if b13
+                                                                    then 
+                                                                    let neg =
+                                                                    false
+                                                                    in
+                                                                    (
+                                                                    match 
+                                                                    dec_digits
+                                                                    r0 Z0 O with
+                                                                    | Some p3 ->
+                                                                    let (
+                                                                    p4, l) =
+                                                                    p3
+                                                                    in
+                                                                    let (
+                                                                    ex, n3) =
+                                                                    p4
+                                                                    in
+                                                                    (
+                                                                    match n3 with
+                                                                    | O ->
+                                                                    None
+                                                                    | S _ ->
+                                                                    (match l with
+                                                                    | [] ->
+                                                                    let p5 =
+                                                                    inject_Z
+                                                                    (Z.pow
+                                                                    (Zpos (XO
+                                                                    (XI (XO
+                                                                    XH)))) ex)
+                                                                    in
+                                                                    Some
+                                                                    (
+                                                                    if neg
+                                                                    then 
+                                                                    qdiv
+                                                                    base0 p5
+                                                                    else 
+                                                                    qmult
+                                                                    base0 p5)
+                                                                    | _ :: _ ->
+                                                                    None))
+                                                                    | None ->
+                                                                    None)
+                                                                    else 
+                                                                    if b14
+                                                                    then 
+                                                                    let neg =
+                                                                    false
+                                                                    in
+                                                                    (
+                                                                    match 
+                                                                    dec_digits
+                                                                    r0 Z0 O with
+                                                                    | Some p3 ->
+                                                                    let (
+                                                                    p4, l) =
+                                                                    p3
+                                                                    in
+                                                                    let (
+                                                                    ex, n3) =
+                                                                    p4
+                                                                    in
+                                                                    (
+                                                                    match n3 with
+                                                                    | O ->
+                                                                    None
+                                                                    | S _ ->
+                                                                    (match l with
+                                                                    | [] ->
+                                                                    let p5 =
+                                                                    inject_Z
+                                                                    (Z.pow
+                                                                    (Zpos (XO
+                                                                    (XI (XO
+                                                                    XH)))) ex)
+                                                                    in
+                                                                    Some
+                                                                    (
+                                                                    if neg
+                                                                    then 
+                                                                    qdiv
+                                                                    base0 p5
+                                                                    else 
+                                                                    qmult
+                                                                    base0 p5)
+                                                                    | _ :: _ ->
+                                                                    None))
+                                                                    | None ->
+                                                                    None)
+                                                                    else 
+                                                                    let neg =
+                                                                    false
+                                                                    in
+                                                                    (
+                                                                    match 
+                                                                    dec_digits
+                                                                    t Z0 O with
+                                                                    | Some p3 ->
+                                                                    let (
+                                                                    p4, l) =
+                                                                    p3
+                                                                    in
+                                                                    let (
+                                                                    ex, n3) =
+                                                                    p4
+                                                                    in
+                                                                    (
+                                                                    match n3 with
+                                                                    | O ->
+                                                                    None
+                                                                    | S _ ->
+                                                                    (match l with
+                                                                    | [] ->
+                                                                    let p5 =
+                                                                    inject_Z
+                                                                    (Z.pow
+                                                                    (Zpos (XO
+                                                                    (XI (XO
+                                                                    XH)))) ex)
+                                                                    in
+                                                                    Some
+                                                                    (
+                                                                    if neg
+                                                                    then 
+                                                                    qdiv
+                                                                    base0 p5
+                                                                    else 
+                                                                    qmult
+                                                                    base0 p5)
+                                                                    | _ :: _ ->
+                                                                    None))
+                                                                    | None ->
+                                                                    None)
+                                                                    else 
+                                                                    let neg =
+                                                                    false
+                                                                    in
+                                                                    (
+                                                                    match 
+                                                                    dec_digits
+                                                                    r0 Z0 O with
+                                                                    | Some p3 ->
+                                                                    let (
+                                                                    p4, l) =
+                                                                    p3
+                                                                    in
+                                                                    let (
+                                                                    ex, n3) =
+                                                                    p4
+                                                                    in
+                                                                    (
+                                                                    match n3 with
+                                                                    | O ->
+                                                                    None
+                                                                    | S _ ->
+                                                                    (match l with
+                                                                    | [] ->
+                                                                    let p5 =
+                                                                    inject_Z
+                                                                    (Z.pow
+                                                                    (Zpos (XO
+                                                                    (XI (XO
+                                                                    XH)))) ex)
+                                                                    in
+                                                                    Some
+                                                                    (
+                                                                    if neg
+                                                                    then 
+                                                                    qdiv
+                                                                    base0 p5
+                                                                    else 
+                                                                    qmult
+                                                                    base0 p5)
+                                                                    | _ :: _ ->
+                                                                    None))
+                                                                    | None ->
+                                                                    None)
+                                                                   else 
+                                                                    let neg =
+                                                                    false
+                                                                    in
+                                                                    (
+                                                                    match 
+                                                                    dec_digits
+                                                                    r0 Z0 O with
+                                                                    | Some p3 ->
+                                                                    let (
+                                                                    p4, l) =
+                                                                    p3
+                                                                    in
+                                                                    let (
+                                                                    ex, n3) =
+                                                                    p4
+                                                                    in
+                                                                    (
+                                                                    match n3 with
+                                                                    | O ->
+                                                                    None
+                                                                    | S _ ->
+                                                                    (match l with
+                                                                    | [] ->
+                                                                    let p5 =
+                                                                    inject_Z
+                                                                    (Z.pow
+                                                                    (Zpos (XO
+                                                                    (XI (XO
+                                                                    XH)))) ex)
+                                                                    in
+                                                                    Some
+                                                                    (
+                                                                    if neg
+                                                                    then 
+                                                                    qdiv
+                                                                    base0 p5
+                                                                    else 
+                                                                    qmult
+                                                                    base0 p5)
+                                                                    | _ :: _ ->
+                                                                    None))
+                                                                    | None ->
+                                                                    None)
+                                                         else if b9
+                                                              then if b10
+                                                                   then 
+                                                                    if b11
+                                                                    then 
+                                                                    let neg =
+                                                                    false
+                                                                    in
+                                                                    (
+                                                                    match 
+                                                                    dec_digits
+                                                                    r0 Z0 O with
+                                                                    | Some p3 ->
+                                                                    let (
+                                                                    p4, l) =
+                                                                    p3
+                                                                    in
+                                                                    let (
+                                                                    ex, n3) =
+                                                                    p4
+                                                                    in
+                                                                    (
+                                                                    match n3 with
+                                                                    | O ->
+                                                                    None
+                                                                    | S _ ->
+                                                                    (match l with
+                                                                    | [] ->
+                                                                    let p5 =
+                                                                    inject_Z
+                                                                    (Z.pow
+                                                                    (Zpos (XO
+                                                                    (XI (XO
+                                                                    XH)))) ex)
+                                                                    in
+                                                                    Some
+                                                                    (
+                                                                    if neg
+                                                                    then 
+                                                                    qdiv
+                                                                    base0 p5
+                                                                    else 
+                                                                    qmult
+                                                                    base0 p5)
+                                                                    | _ :: _ ->
+                                                                    None))
+                                                                    | None ->
+                                                                    None)
+                                                                    else 
+                                                                    if b12
+                                                                    then 
+                                                                    if b13
+                                                                    then 
+                                                                    let neg =
+                                                                    false
+                                                                    in
+                                                                    (
+                                                                    match 
+                                                                    dec_digits
+                                                                    r0 Z0 O with
+                                                                    | Some p3 ->
+                                                                    let (
+                                                                    p4, l) =
+                                                                    p3
+                                                                    in
+                                                                    let (
+                                                                    ex, n3) =
+                                                                    p4
+                                                                    in
+                                                                    (
+                                                                    match n3 with
+                                                                    | O ->
+                                                                    None
+                                                                    | S _ ->
+                                                                    (match l with
+                                                                    | [] ->
+                                                                    let p5 =
+                                                                    inject_Z
+                                                                    (Z.pow
+                                                                    (Zpos (XO
+                                                                    (XI (XO
+                                                                    XH)))) ex)
+                                                                    in
+                                                                    Some
+                                                                    (
+                                                                    if neg
+                                                                    then 
+                                                                    qdiv
+                                                                    base0 p5
+                                                                    else 
+                                                                    qmult
+                                                                    base0 p5)
+                                                                    | _ :: _ ->
+                                                                    None))
+                                                                    | None ->
+                                                                    None)
+                                                                    else 
+                                                                    if b14
+                                                                    then 
+                                                                    let neg =
+                                                                    false
+                                                                    in
+                                                                    (
+                                                                    match 
+                                                                    dec_digits
+                                                                    r0 Z0 O with
+                                                                    | Some p3 ->
+                                                                    let (
+                                                                    p4, l) =
+                                                                    p3
+                                                                    in
+                                                                    let (
+                                                                    ex, n3) =
+                                                                    p4
+                                                                    in
+                                                                    (
+                                                                    match n3 with
+                                                                    | O ->
+                                                                    None
+                                                                    | S _ ->
+                                                                    (match l with
+                                                                    | [] ->
+                                                                    let p5 =
+                                                                    inject_Z
+                                                                    (Z.pow
+                                                                    (Zpos (XO
+                                                                    (XI (XO
+                                                                    XH)))) ex)
+                                                                    in
+                                                                    Some
+                                                                    (
+                                                                    if neg
+                                                                    then 
+                                                                    qdiv
+                                                                    base0 p5
+                                                                    else 
+                                                                    qmult
+                                                                    base0 p5)
+                                                                    | _ :: _ ->
+                                                                    None))
+                                                                    | None ->
+                                                                    None)
+                                                                    else 
+                                                                    let neg =
+                                                                    true
+                                                                    in
+                                                                    (
+                                                                    match 
+                                                                    dec_digits
+                                                                    t Z0 O with
+                                                                    | Some p3 ->
+                                                                    let (
+                                                                    p4, l) =
+                                                                    p3
+                                                                    in
+                                                                    let (
+                                                                    ex, n3) =
+                                                                    p4
+                                                                    in
+                                                                    (
+                                                                    match n3 with
+                                                                    | O ->
+                                                                    None
+                                                                    | S _ ->
+                                                                    (match l with
+                                                                    | [] ->
+                                                                    let p5 =
+                                                                    inject_Z
+                                                                    (Z.pow
+                                                                    (Zpos (XO
+                                                                    (XI (XO
+                                                                    XH)))) ex)
+                                                                    in
+                                                                    Some
+                                                                    (
+                                                                    if neg
+                                                                    then 
+                                                                    qdiv
+                                                                    base0 p5
+                                                                    else 
+                                                                    qmult
+                                                                    base0 p5)
+                                                                    | _ :: _ ->
+                                                                    None))
+                                                                    | None ->
+                                                                    None)
+                                                                    else 
+                                                                    let neg =
+                                                                    false
+                                                                    in
+                                                                    (
+                                                                    match 
+                                                                    dec_digits
+                                                                    r0 Z0 O with
+                                                                    | Some p3 ->
+                                                                    let (
+                                                                    p4, l) =
+                                                                    p3
+                                                                    in
+                                                                    let (
+                                                                    ex, n3) =
+                                                                    p4
+                                                                    in
+                                                                    (
+                                                                    match n3 with
+                                                                    | O ->
+                                                                    None
+                                                                    | S _ ->
+                                                                    (match l with
+                                                                    | [] ->
+                                                                    let p5 =
+                                                                    inject_Z
+                                                                    (Z.pow
+                                                                    (Zpos (XO
+                                                                    (XI (XO
+                                                                    XH)))) ex)
+                                                                    in
+                                                                    Some
+                                                                    (
+                                                                    if neg
+                                                                    then 
+                                                                    qdiv
+                                                                    base0 p5
+                                                                    else 
+                                                                    qmult
+                                                                    base0 p5)
+                                                                    | _ :: _ ->
+                                                                    None))
+                                                                    | None ->
+                                                                    None)
+                                                                   else 
+                                                                    let neg =
+                                                                    false
+                                                                    in
+                                                                    (
+                                                                    match 
+                                                                    dec_digits
+                                                                    r0 Z0 O with
+                                                                    | Some p3 ->
+                                                                    let (
+                                                                    p4, l) =
+                                                                    p3
+                                                                    in
+                                                                    let (
+                                                                    ex, n3) =
+                                                                    p4
+                                                                    in
+                                                                    (
+                                                                    match n3 with
+                                                                    | O ->
+                                                                    None
+                                                                    | S _ ->
+                                                                    (match l with
+                                                                    | [] ->
+                                                                    let p5 =
+                                                                    inject_Z
+                                                                    (Z.pow
+                                                                    (Zpos (XO
+                                                                    (XI (XO
+                                                                    XH)))) ex)
+                                                                    in
+                                                                    Some
+                                                                    (
+                                                                    if neg
+                                                                    then 
+                                                                    qdiv
+                                                                    base0 p5
+                                                                    else 
+                                                                    qmult
+                                                                    base0 p5)
+                                                                    | _ :: _ ->
+                                                                    None))
+                                                                    | None ->
+                                                                    None)
+                                                              else let neg =
+                                                                    false
+                                                                   in
+                                                                   (match 
+                                                                    dec_digits
+                                                                    r0 Z0 O with
+                                                                    | Some p3 ->
+                                                                    let (
+                                                                    p4, l) =
+                                                                    p3
+                                                                    in
+                                                                    let (
+                                                                    ex, n3) =
+                                                                    p4
+                                                                    in
+                                                                    (
+                                                                    match n3 with
+                                                                    | O ->
+                                                                    None
+                                                                    | S _ ->
+                                                                    (match l with
+                                                                    | [] ->
+                                                                    let p5 =
+                                                                    inject_Z
+                                                                    (Z.pow
+                                                                    (Zpos (XO
+                                                                    (XI (XO
+                                                                    XH)))) ex)
+                                                                    in
+                                                                    Some
+                                                                    (
+                                                                    if neg
+                                                                    then 
+                                                                    qdiv
+                                                                    base0 p5
+                                                                    else 
+                                                                    qmult
+                                                                    base0 p5)
+                                                                    | _ :: _ ->
+                                                                    None))
+                                                                    | None ->
+                                                                    None)
+                                                    else let neg = false in
+                                                         (match dec_digits r0
+                                                                  Z0 O with
+                                                          | Some p3 ->
+                                                            let (p4, l) = p3
+                                                            in
+                                                            let (ex, n3) = p4
+                                                            in
+                                                            (match n3 with
+                                                             | O -> None
+                                                             | S _ ->
+                                                               (match l with
+                                                                | [] ->
+                                                                  let p5 =
+                                                                    inject_Z
+                                                                    (Z.pow
+                                                                    (Zpos (XO
+                                                                    (XI (XO
+                                                                    XH)))) ex)
+                                                                  in
+                                                                  Some
+                                                                  (if neg
+                                                                   then 
+                                                                    qdiv
+                                                                    base0 p5
+                                                                   else 
+                                                                    qmult
+                                                                    base0 p5)
+                                                                | _ :: _ ->
+                                                                  None))
+                                                          | None -> None))
+                                                    a0)
+                                          else None)
+                             else if b4
+                                  then if b5
+                                       then let p1 = ((ip, O), rest) in
+                                            let n2 = O in
+                                            let (p2, rest2) = p1 in
+                                            let (mant, scale) = p2 in
+                                            if Nat.eqb (add n1 n2) O
+                                            then None
+                                            else let base = { qnum = mant;
+                                                   qden =
+                                                   (Coq_Pos.pow (XO (XI (XO
+                                                     XH)))
+                                                     (Coq_Pos.of_nat scale)) }
+                                                 in
+                                                 let base0 =
+                                                   if Nat.eqb scale O
+                                                   then inject_Z mant
+                                                   else base
+                                                 in
+                                                 (match rest2 with
+                                                  | [] -> Some base0
+                                                  | e :: r0 ->
+                                                    if (||) ((=) e 'e')
+                                                         ((=) e 'E')
+                                                    then (match r0 with
+                                                          | [] ->
+                                                            let neg = false in
+                                                            (match dec_digits
+                                                                    r0 Z0 O with
+                                                             | Some p3 ->
+                                                               let (p4, l) =
+                                                                 p3
+                                                               in
+                                                               let (ex, n3) =
+                                                                 p4
+                                                               in
+                                                               (match n3 with
+                                                                | O -> None
+                                                                | S _ ->
+                                                                  (match l with
+                                                                   | [] ->
+                                                                    let p5 =
+                                                                    inject_Z
+                                                                    (Z.pow
+                                                                    (Zpos (XO
+                                                                    (XI (XO
+                                                                    XH)))) ex)
+                                                                    in
+                                                                    Some
+                                                                    (
+                                                                    if neg
+                                                                    then 
+                                                                    qdiv
+                                                                    base0 p5
+                                                                    else 
+                                                                    qmult
+                                                                    base0 p5)
+                                                                   | _ :: _ ->
+                                                                    None))
+                                                             | None -> None)
+                                                          | a0 :: t ->
+                                                            (* If this appears, you're using Ascii internals. Please don't *)
+ (fun f c ->
+  let n = Char.code c in
+  let h i = (n land (1 lsl i)) <> 0 in
+  f (h 0) (h 1) (h 2) (h 3) (h 4) (h 5) (h 6) (h 7))
+                                                              (fun b7 b8 b9 b10 b11 b12 b13 b14 ->
+                                                              if b7
+                                                              then if b8
+                                                                   then 
+                                                                    if b9
+                                                                    then 
+                                                                    let neg =
+                                                                    false
+                                                                    in
+                                                                    (
+                                                                    match 
+                                                                    dec_digits
+                                                                    r0 Z0 O with
+                                                                    | Some p3 ->
+                                                                    let (
+                                                                    p4, l) =
+                                                                    p3
+                                                                    in
+                                                                    let (
+                                                                    ex, n3) =
+                                                                    p4
+                                                                    in
+                                                                    (
+                                                                    match n3 with
+                                                                    | O ->
+                                                                    None
+                                                                    | S _ ->
+                                                                    (match l with
+                                                                    | [] ->
+                                                                    let p5 =
+                                                                    inject_Z
+                                                                    (Z.pow
+                                                                    (Zpos (XO
+                                                                    (XI (XO
+                                                                    XH)))) ex)
+                                                                    in
+                                                                    Some
+                                                                    (
+                                                                    if neg
+                                                                    then 
+                                                                    qdiv
+                                                                    base0 p5
+                                                                    else 
+                                                                    qmult
+                                                                    base0 p5)
+                                                                    | _ :: _ ->
+                                                                    None))
+                                                                    | None ->
+                                                                    None)
+                                                                    else 
+                                                                    if b10
+                                                                    then 
+                                                                    if b11
+                                                                    then 
+                                                                    let neg =
+                                                                    false
+                                                                    in
+                                                                    (
+                                                                    match 
+                                                                    dec_digits
+                                                                    r0 Z0 O with
+                                                                    | Some p3 ->
+                                                                    let (
+                                                                    p4, l) =
+                                                                    p3
+                                                                    in
+                                                                    let (
+                                                                    ex, n3) =
+                                                                    p4
+                                                                    in
+                                                                    (
+                                                                    match n3 with
+                                                                    | O ->
+                                                                    None
+                                                                    | S _ ->
+                                                                    (match l with
+                                                                    | [] ->
+                                                                    let p5 =
+                                                                    inject_Z
+                                                                    (Z.pow
+                                                                    (Zpos (XO
+                                                                    (XI (XO
+                                                                    XH)))) ex)
+                                                                    in
+                                                                    Some
+                                                                    (
+                                                                    if neg
+                                                                    then 
+                                                                    qdiv
+                                                                    base0 p5
+                                                                    else 
+                                                                    qmult
+                                                                    base0 p5)
+                                                                    | _ :: _ ->
+                                                                    None))
+                                                                    | None ->
+                                                                    None)
+                                                                    else 
+                                                                    if b12
+                                                                    then 
+                                                                    if b13
+                                                                    then 
+                                                                    let neg =
+                                                                    false
+                                                                    in
+                                                                    (
+                                                                    match 
+                                                                    dec_digits
+                                                                    r0 Z0 O with
+                                                                    | Some p3 ->
+                                                                    let (
+                                                                    p4, l) =
+                                                                    p3
+                                                                    in
+                                                                    let (
+                                                                    ex, n3) =
+                                                                    p4
+                                                                    in
+                                                                    (
+                                                                    match n3 with
+                                                                    | O ->
+                                                                    None
+                                                                    | S _ ->
+                                                                    (match l with
+                                                                    | [] ->
+                                                                    let p5 =
+                                                                    inject_Z
+                                                                    (Z.pow
+                                                                    (Zpos (XO
+                                                                    (XI (XO
+                                                                    XH)))) ex)
+                                                                    in
+                                                                    Some
+                                                                    (
+                                                                    if neg
+                                                                    then 
+                                                                    qdiv
+                                                                    base0 p5
+                                                                    else 
+                                                                    qmult
+                                                                    base0 p5)
+                                                                    | _ :: _ ->
+                                                                    None))
+                                                                    | None ->
+                                                                    None)
+                                                                    else 
+                                                                    if b14
+                                                                    then 
+                                                                    let neg =
+                                                                    false
+                                                                    in
+                                                                    (
+                                                                    match 
+                                                                    dec_digits
+                                                                    r0 Z0 O with
+                                                                    | Some p3 ->
+                                                                    let (
+                                                                    p4, l) =
+                                                                    p3
+                                                                    in
+                                                                    let (
+                                                                    ex, n3) =
+                                                                    p4
+                                                                    in
+                                                                    (
+                                                                    match n3 with
+                                                                    | O ->
+                                                                    None
+                                                                    | S _ ->
+                                                                    (match l with
+                                                                    | [] ->
+                                                                    let p5 =
+                                                                    inject_Z
+                                                                    (Z.pow
+                                                                    (Zpos (XO
+                                                                    (XI (XO
+                                                                    XH)))) ex)
+                                                                    in
+                                                                    Some
+                                                                    (
+                                                                    if neg
+                                                                    then 
+                                                                    qdiv
+                                                                    base0 p5
+                                                                    else 
+                                                                    qmult
+                                                                    base0 p5)
+                                                                    | _ :: _ ->
+                                                                    None))
+                                                                    | None ->
+                                                                    None)
+                                                                    else 
+                                                                    let neg =
+                                                                    false
+                                                                    in
+                                                                    (
+                                                                    match 
+                                                                    dec_digits
+                                                                    t Z0 O with
+                                                                    | Some p3 ->
+                                                                    let (
+                                                                    p4, l) =
+                                                                    p3
+                                                                    in
+                                                                    let (
+                                                                    ex, n3) =
+                                                                    p4
+                                                                    in
+                                                                    (
+                                                                    match n3 with
+                                                                    | O ->
+                                                                    None
+                                                                    | S _ ->
+                                                                    (match l with
+                                                                    | [] ->
+                                                                    let p5 =
+                                                                    inject_Z
+                                                                    (Z.pow
+                                                                    (Zpos (XO
+                                                                    (XI (XO
+                                                                    XH)))) ex)
+                                                                    in
+                                                                    Some
+                                                                    (
+                                                                    if neg
+                                                                    then 
+                                                                    qdiv
+                                                                    base0 p5
+                                                                    else 
+                                                                    qmult
+                                                                    base0 p5)
+                                                                    | _ :: _ ->
+                                                                    None))
+                                                                    | None ->
+                                                                    None)
+                                                                    else 
+                                                                    let neg =
+                                                                    false
+                                                                    in
+                                                                    (
+                                                                    match 
+                                                                    dec_digits
+                                                                    r0 Z0 O with
+                                                                    | Some p3 ->
+                                                                    let (
+                                                                    p4, l) =
+                                                                    p3
+                                                                    in
+                                                                    let (
+                                                                    ex, n3) =
+                                                                    p4
+                                                                    in
+                                                                    (
+                                                                    match n3 with
+                                                                    | O ->
+                                                                    None
+                                                                    | S _ ->
+                                                                    (match l with
+                                                                    | [] ->
+                                                                    let p5 =
+                                                                    inject_Z
+                                                                    (Z.pow
+                                                                    (Zpos (XO
+                                                                    (XI (XO
+                                                                    XH)))) ex)
+                                                                    in
+                                                                    Some
+                                                                    (
+                                                                    if neg
+                                                                    then 
+                                                                    qdiv
+                                                                    base0 p5
+                                                                    else 
+                                                                    qmult
+                                                                    base0 p5)
+                                                                    | _ :: _ ->
+                                                                    None))
+                                                                    | None ->
+                                                                    None)
+                                                                    else 
+                                                                    let neg =
+                                                                    false
+                                                                    in
+                                                                    (
+                                                                    match 
+                                                                    dec_digits
+                                                                    r0 Z0 O with
+                                                                    | Some p3 ->
+                                                                    let (
+                                                                    p4, l) =
+                                                                    p3
+                                                                    in
+                                                                    let (
+                                                                    ex, n3) =
+                                                                    p4
+                                                                    in
+                                                                    (
+                                                                    match n3 with
+                                                                    | O ->
+                                                                    None
+                                                                    | S _ ->
+                                                                    (match l with
+                                                                    | [] ->
+                                                                    let p5 =
+                                                                    inject_Z
+                                                                    (Z.pow
+                                                                    (Zpos (XO
+                                                                    (XI (XO
+                                                                    XH)))) ex)
+                                                                    in
+                                                                    Some
+                                                                    (
+                                                                    if neg
+                                                                    then 
+                                                                    qdiv
+                                                                    base0 p5
+                                                                    else 
+                                                                    qmult
+                                                                    base0 p5)
+                                                                    | _ :: _ ->
+                                                                    None))
+                                                                    | None ->
+                                                                    None)
+                                                                   else 
+                                                                    if b9
+                                                                    then 
+                                                                    if b10
+                                                                    then 
+                                                                    if b11
+                                                                    then 
+                                                                    let neg =
+                                                                    false
+                                                                    in
+                                                                    (
+                                                                    match 
+                                                                    dec_digits
+                                                                    r0 Z0 O with
+                                                                    | Some p3 ->
+                                                                    let (
+                                                                    p4, l) =
+                                                                    p3
+                                                                    in
+                                                                    let (
+                                                                    ex, n3) =
+                                                                    p4
+                                                                    in
+                                                                    (
+                                                                    match n3 with
+                                                                    | O ->
+                                                                    None
+                                                                    | S _ ->
+                                                                    (match l with
+                                                                    | [] ->
+                                                                    let p5 =
+                                                                    inject_Z
+                                                                    (Z.pow
+                                                                    (Zpos (XO
+                                                                    (XI (XO
+                                                                    XH)))) ex)
+                                                                    in
+                                                                    Some
+                                                                    (
+                                                                    if neg
+                                                                    then 
+                                                                    qdiv
+                                                                    base0 p5
+                                                                    else 
+                                                                    qmult
+                                                                    base0 p5)
+                                                                    | _ :: _ ->
+                                                                    None))
+                                                                    | None ->
+                                                                    None)
+                                                                    else 
+                                                                    if b12
+                                                                    then 
+                                                                    if b13
+                                                                    then 
+                                                                    let neg =
+                                                                    false
+                                                                    in
+                                                                    (
+                                                                    match 
+                                                                    dec_digits
+                                                                    r0 Z0 O with
+                                                                    | Some p3 ->
+                                                                    let (
+                                                                    p4, l) =
+                                                                    p3
+                                                                    in
+                                                                    let (
+                                                                    ex, n3) =
+                                                                    p4
+                                                                    in
+                                                                    (
+                                                                    match n3 with
+                                                                    | O ->
+                                                                    None
+                                                                    | S _ ->
+                                                                    (match l with
+                                                                    | [] ->
+                                                                    let p5 =
+                                                                    inject_Z
+                                                                    (Z.pow
+                                                                    (Zpos (XO
+                                                                    (XI (XO
+                                                                    XH)))) ex)
+                                                                    in
+                                                                    Some
+                                                                    (
+                                                                    if neg
+                                                                    then 
+                                                                    qdiv
+                                                                    base0 p5
+                                                                    else 
+                                                                    qmult
+                                                                    base0 p5)
+                                                                    | _ :: _ ->
+                                                                    None))
+                                                                    | None ->
+                                                                    None)
+                                                                    else 
+                                                                    if b14
+                                                                    then 
+                                                                    let neg =
+                                                                    false
+                                                                    in
+                                                                    (
+                                                                    match 
+                                                                    dec_digits
+                                                                    r0 Z0 O with
+                                                                    | Some p3 ->
+                                                                    let (
+                                                                    p4, l) =
+                                                                    p3
+                                                                    in
+                                                                    let (
+                                                                    ex, n3) =
+                                                                    p4
+                                                                    in
+                                                                    (
+                                                                    match n3 with
+                                                                    | O ->
+                                                                    None
+                                                                    | S _ ->
+                                                                    (match l with
+                                                                    | [] ->
+                                                                    let p5 =
+                                                                    inject_Z
+                                                                    (Z.pow
+                                                                    (Zpos (XO
+                                                                    (XI (XO
+                                                                    XH)))) ex)
+                                                                    in
+                                                                    Some
+                                                                    (
+                                                                    if neg
+                                                                    then 
+                                                                    qdiv
+                                                                    base0 p5
+                                                                    else 
+                                                                    qmult
+                                                                    base0 p5)
+                                                                    | _ :: _ ->
+                                                                    None))
+                                                                    | None ->
+                                                                    None)
+                                                                    else 
+                                                                    let neg =
+                                                                    true
+                                                                    in
+                                                                    (
+                                                                    match 
+                                                                    dec_digits
+                                                                    t Z0 O with
+                                                                    | Some p3 ->
+                                                                    let (
+                                                                    p4, l) =
+                                                                    p3
+                                                                    in
+                                                                    let (
+                                                                    ex, n3) =
+                                                                    p4
+                                                                    in
+                                                                    (
+                                                                    match n3 with
+                                                                    | O ->
+                                                                    None
+                                                                    | S _ ->
+                                                                    (match l with
+                                                                    | [] ->
+                                                                    let p5 =
+                                                                    inject_Z
+                                                                    (Z.pow
+                                                                    (Zpos (XO
+                                                                    (XI (XO
+                                                                    XH)))) ex)
+                                                                    in
+                                                                    Some
+                                                                    (
+                                                                    if neg
+                                                                    then 
+                                                                    qdiv
+                                                                    base0 p5
+                                                                    else 
+                                                                    qmult
+                                                                    base0 p5)
+                                                                    | _ :: _ ->
+                                                                    None))
+                                                                    | None ->
+                                                                    None)
+                                                                    else 
+                                                                    let neg =
+                                                                    false
+                                                                    in
+                                                                    (
+                                                                    match 
+                                                                    dec_digits
+                                                                    r0 Z0 O with
+                                                                    | Some p3 ->
+                                                                    let (
+                                                                    p4, l) =
+                                                                    p3
+                                                                    in
+                                                                    let (
+                                                                    ex, n3) =
+                                                                    p4
+                                                                    in
+                                                                    (
+                                                                    match n3 with
+                                                                    | O ->
+                                                                    None
+                                                                    | S _ ->
+                                                                    (match l with
+                                                                    | [] ->
+                                                                    let p5 =
+                                                                    inject_Z
+                                                                    (Z.pow
+                                                                    (Zpos (XO
+                                                                    (XI (XO
+                                                                    XH)))) ex)
+                                                                    in
+                                                                    Some
+                                                                    (
+                                                                    if neg
+                                                                    then 
+                                                                    qdiv
+                                                                    base0 p5
+                                                                    else 
+                                                                    qmult
+                                                                    base0 p5)
+                                                                    | _ :: _ ->
+                                                                    None))
+                                                                    | None ->
+                                                                    None)
+                                                                    else 
+                                                                    let neg =
+                                                                    false
+                                                                    in
+                                                                    (
+                                                                    match 
+                                                                    dec_digits
+                                                                    r0 Z0 O with
+                                                                    | Some p3 ->
+                                                                    let (
+                                                                    p4, l) =
+                                                                    p3
+                                                                    in
+                                                                    let (
+                                                                    ex, n3) =
+                                                                    p4
+                                                                    in
+                                                                    (
+                                                                    match n3 with
+                                                                    | O ->
+                                                                    None
+                                                                    | S _ ->
+                                                                    (match l with
+                                                                    | [] ->
+                                                                    let p5 =
+                                                                    inject_Z
+                                                                    (Z.pow
+                                                                    (Zpos (XO
+                                                                    (XI (XO
+                                                                    XH)))) ex)
+                                                                    in
+                                                                    Some
+                                                                    (
+                                                                    if neg
+                                                                    then 
+                                                                    qdiv
+                                                                    base0 p5
+                                                                    else 
+                                                                    qmult
+                                                                    base0 p5)
+                                                                    | _ :: _ ->
+                                                                    None))
+                                                                    | None ->
+                                                                    None)
+                                                                    else 
+                                                                    let neg =
+                                                                    false
+                                                                    in
+                                                                    (
+                                                                    match 
+                                                                    dec_digits
+                                                                    r0 Z0 O with
+                                                                    | Some p3 ->
+                                                                    let (
+                                                                    p4, l) =
+                                                                    p3
+                                                                    in
+                                                                    let (
+                                                                    ex, n3) =
+                                                                    p4
+                                                                    in
+                                                                    (
+                                                                    match n3 with
+                                                                    | O ->
+                                                                    None
+                                                                    | S _ ->
+                                                                    (match l with
+                                                                    | [] ->
+                                                                    let p5 =
+                                                                    inject_Z
+                                                                    (Z.pow
+                                                                    (Zpos (XO
+                                                                    (XI (XO
+                                                                    XH)))) ex)
+                                                                    in
+                                                                    Some
+                                                                    (
+                                                                    if neg
+                                                                    then 
+                                                                    qdiv
+                                                                    base0 p5
+                                                                    else 
+                                                                    qmult
+                                                                    base0 p5)
+                                                                    | _ :: _ ->
+                                                                    None))
+                                                                    | None ->
+                                                                    None)
+                                                              else let neg =
+                                                                    false
+                                                                   in
+                                                                   (match 
+                                                                    dec_digits
+                                                                    r0 Z0 O with
+                                                                    | Some p3 ->
+                                                                    let (
+                                                                    p4, l) =
+                                                                    p3
+                                                                    in
+                                                                    let (
+                                                                    ex, n3) =
+                                                                    p4
+                                                                    in
+                                                                    (
+                                                                    match n3 with
+                                                                    | O ->
+                                                                    None
+                                                                    | S _ ->
+                                                                    (match l with
+                                                                    | [] ->
+                                                                    let p5 =
+                                                                    inject_Z
+                                                                    (Z.pow
+                                                                    (Zpos (XO
+                                                                    (XI (XO
+                                                                    XH)))) ex)
+                                                                    in
+                                                                    Some
+                                                                    (
+                                                                    if neg
+                                                                    then 
+                                                                    qdiv
+                                                                    base0 p5
+                                                                    else 
+                                                                    qmult
+                                                                    base0 p5)
+                                                                    | _ :: _ ->
+                                                                    None))
+                                                                    | None ->
+                                                                    None))
+                                                              a0)
+                                                    else None)
+                                       else if b6
+                                            then let p1 = ((ip, O), rest) in
+                                                 let n2 = O in
+                                                 let (p2, rest2) = p1 in
+                                                 let (mant, scale) = p2 in
+                                                 if Nat.eqb (add n1 n2) O
+                                                 then None
+                                                 else let base = { qnum =
+                                                        mant; qden =
+                                                        (Coq_Pos.pow (XO (XI
+                                                          (XO XH)))
+                                                          (Coq_Pos.of_nat
+                                                            scale)) }
+                                                      in
+                                                      let base0 =
+                                                        if Nat.eqb scale O
+                                                        then inject_Z mant
+                                                        else base
+                                                      in
+                                                      (match rest2 with
+                                                       | [] -> Some base0
+                                                       | e :: r0 ->
+                                                         if (||) ((=) e 'e')
+                                                              ((=) e 'E')
+                                                         then (match r0 with
+                                                               | [] ->
+                                                                 let neg =
+                                                                   false
+                                                                 in
+                                                                 (match 
+                                                                  dec_digits
+                                                                    r0 Z0 O with
+                                                                  | Some p3 ->
+                                                                    let (
+                                                                    p4, l) =
+                                                                    p3
+                                                                    in
+                                                                    let (
+                                                                    ex, n3) =
+                                                                    p4
+                                                                    in
+                                                                    (
+                                                                    match n3 with
+                                                                    | O ->
+                                                                    None
+                                                                    | S _ ->
+                                                                    (match l with
+                                                                    | [] ->
+                                                                    let p5 =
+                                                                    inject_Z
+                                                                    (Z.pow
+                                                                    (Zpos (XO
+                                                                    (XI (XO
+                                                                    XH)))) ex)
+                                                                    in
+                                                                    Some
+                                                                    (
+                                                                    if neg
+                                                                    then 
+                                                                    qdiv
+                                                                    base0 p5
+                                                                    else 
+                                                                    qmult
+                                                                    base0 p5)
+                                                                    | _ :: _ ->
+                                                                    None))
+                                                                  | None ->
+                                                                    None)
+                                                               | a0 :: t ->
+                                                                 (* If this appears, you're using Ascii internals. Please don't *)
+ (fun f c ->
+  let n = Char.code c in
+  let h i = (n land (1 lsl i)) <> 0 in
+  f (h 0) (h 1) (h 2) (h 3) (h 4) (h 5) (h 6) (h 7))
+                                                                   (fun b7 b8 b9 b10 b11 b12 b13 b14 ->
+                                                                   if b7
+                                                                   then 
+                                                                    if b8
+                                                                    then 
+                                                                    if b9
+                                                                    then 
+                                                                    let neg =
+                                                                    false
+                                                                    in
+                                                                    (
+                                                                    match 
+                                                                    dec_digits
+                                                                    r0 Z0 O with
+                                                                    | Some p3 ->
+                                                                    let (
+                                                                    p4, l) =
+                                                                    p3
+                                                                    in
+                                                                    let (
+                                                                    ex, n3) =
+                                                                    p4
+                                                                    in
+                                                                    (
+                                                                    match n3 with
+                                                                    | O ->
+                                                                    None
+                                                                    | S _ ->
+                                                                    (match l with
+                                                                    | [] ->
+                                                                    let p5 =
+                                                                    inject_Z
+                                                                    (Z.pow
+                                                                    (Zpos (XO
+                                                                    (XI (XO
+                                                                    XH)))) ex)
+                                                                    in
+                                                                    Some
+                                                                    (
+                                                                    if neg
+                                                                    then 
+                                                                    qdiv
+                                                                    base0 p5
+                                                                    else 
+                                                                    qmult
+                                                                    base0 p5)
+                                                                    | _ :: _ ->
+                                                                    None))
+                                                                    | None ->
+                                                                    None)
+                                                                    else 
+                                                                    if b10
+                                                                    then 
+                                                                    if b11
+                                                                    then 
+                                                                    let neg =
+                                                                    false
+                                                                    in
+                                                                    (
+                                                                    match 
+                                                                    dec_digits
+                                                                    r0 Z0 O with
+                                                                    | Some p3 ->
+                                                                    let (
+                                                                    p4, l) =
+                                                                    p3
+                                                                    in
+                                                                    let (
+                                                                    ex, n3) =
+                                                                    p4
+                                                                    in
+                                                                    (
+                                                                    match n3 with
+                                                                    | O ->
+                                                                    None
+                                                                    | S _ ->
+                                                                    (match l with
+                                                                    | [] ->
+                                                                    let p5 =
+                                                                    inject_Z
+                                                                    (Z.pow
+                                                                    (Zpos (XO
+                                                                    (XI (XO
+                                                                    XH)))) ex)
+                                                                    in
+                                                                    Some
+                                                                    (
+                                                                    if neg
+                                                                    then 
+                                                                    qdiv
+                                                                    base0 p5
+                                                                    else 
+                                                                    qmult
+                                                                    base0 p5)
+                                                                    | _ :: _ ->
+                                                                    None))
+                                                                    | None ->
+                                                                    None)
+                                                                    else 
+                                                                    if b12
+                                                                    then 
+                                                                    if b13
+                                                                    then 
+                                                                    let neg =
+                                                                    false
+                                                                    in
+                                                                    (
+                                                                    match 
+                                                                    dec_digits
+                                                                    r0 Z0 O with
+                                                                    | Some p3 ->
+                                                                    let (
+                                                                    p4, l) =
+                                                                    p3
+                                                                    in
+                                                                    let (
+                                                                    ex, n3) =
+                                                                    p4
+                                                                    in
+                                                                    (
+                                                                    match n3 with
+                                                                    | O ->
+                                                                    None
+                                                                    | S _ ->
+                                                                    (match l with
+                                                                    | [] ->
+                                                                    let p5 =
+                                                                    inject_Z
+                                                                    (Z.pow
+                                                                    (Zpos (XO
+                                                                    (XI (XO
+                                                                    XH)))) ex)
+                                                                    in
+                                                                    Some
+                                                                    (
+                                                                    if neg
+                                                                    then 
+                                                                    qdiv
+                                                                    base0 p5
+                                                                    else 
+                                                                    qmult
+                                                                    base0 p5)
+                                                                    | _ :: _ ->
+                                                                    None))
+                                                                    | None ->
+                                                                    None)
+                                                                    else 
+                                                                    if b14
+                                                                    then 
+                                                                    let neg =
+                                                                    false
+                                                                    in
+                                                                    (
+                                                                    match 
+                                                                    dec_digits
+                                                                    r0 Z0 O with
+                                                                    | Some p3 ->
+                                                                    let (
+                                                                    p4, l) =
+                                                                    p3
+                                                                    in
+                                                                    let (
+                                                                    ex, n3) =
+                                                                    p4
+                                                                    in
+                                                                    (
+                                                                    match n3 with
+                                                                    | O ->
+                                                                    None
+                                                                    | S _ ->
+                                                                    (match l with
+                                                                    | [] ->
+                                                                    let p5 =
+                                                                    inject_Z
+                                                                    (Z.pow
+                                                                    (Zpos (XO
+                                                                    (XI (XO
+                                                                    XH)))) ex)
+                                                                    in
+                                                                    Some
+                                                                    (
+                                                                    if neg
+                                                                    then 
+                                                                    qdiv
+                                                                    base0 p5
+                                                                    else 
+                                                                    qmult
+                                                                    base0 p5)
+                                                                    | _ :: _ ->
+                                                                    None))
+                                                                    | None ->
+                                                                    None)
+                                                                    else 
+                                                                    let neg =
+                                                                    false
+                                                                    in
+                                                                    (
+                                                                    match 
+                                                                    dec_digits
+                                                                    t Z0 O with
+                                                                    | Some p3 ->
+                                                                    let (
+                                                                    p4, l) =
+                                                                    p3
+                                                                    in
+                                                                    let (
+                                                                    ex, n3) =
+                                                                    p4
+                                                                    in
+                                                                    (
+                                                                    match n3 with
+                                                                    | O ->
+                                                                    None
+                                                                    | S _ ->
+                                                                    (match l with
+                                                                    | [] ->
+                                                                    let p5 =
+                                                                    inject_Z
+                                                                    (Z.pow
+                                                                    (Zpos (XO
+                                                                    (XI (XO
+                                                                    XH)))) ex)
+                                                                    in
+                                                                    Some
+                                                                    (
+                                                                    if neg
+                                                                    then 
+                                                                    qdiv
+                                                                    base0 p5
+                                                                    else 
+                                                                    qmult
+                                                                    base0 p5)
+                                                                    | _ :: _ ->
+                                                                    None))
+                                                                    | None ->
+                                                                    None)
+                                                                    else 
+                                                                    let neg =
+                                                                    false
+                                                                    in
+                                                                    (
+                                                                    match 
+                                                                    dec_digits
+                                                                    r0 Z0 O with
+                                                                    | Some p3 ->
+                                                                    let (
+                                                                    p4, l) =
+                                                                    p3
+                                                                    in
+                                                                    let (
+                                                                    ex, n3) =
+                                                                    p4
+                                                                    in
+                                                                    (
+                                                                    match n3 with
+                                                                    | O ->
+                                                                    None
+                                                                    | S _ ->
+                                                                    (match l with
+                                                                    | [] ->
+                                                                    let p5 =
+                                                                    inject_Z
+                                                                    (Z.pow
+                                                                    (Zpos (XO
+                                                                    (XI (XO
+                                                                    XH)))) ex)
+                                                                    in
+                                                                    Some
+                                                                    (
+                                                                    if neg
+                                                                    then 
+                                                                    qdiv
+                                                                    base0 p5
+                                                                    else 
+                                                                    qmult
+                                                                    base0 p5)
+                                                                    | _ :: _ ->
+                                                                    None))
+                                                                    | None ->
+                                                                    None)
+                                                                    else 
+                                                                    let neg =
+                                                                    false
+                                                                    in
+                                                                    (
+                                                                    match 
+                                                                    dec_digits
+                                                                    r0 Z0 O with
+                                                                    | Some p3 ->
+                                                                    let (
+                                                                    p4, l) =
+                                                                    p3
+                                                                    in
+                                                                    let (
+                                                                    ex, n3) =
+                                                                    p4
+                                                                    in
+                                                                    (
+                                                                    match n3 with
+                                                                    | O ->
+                                                                    None
+                                                                    | S _ ->
+                                                                    (match l with
+                                                                    | [] ->
+                                                                    let p5 =
+                                                                    inject_Z
+                                                                    (Z.pow
+                                                                    (Zpos (XO
+                                                                    (XI (XO
+                                                                    XH)))) ex)
+                                                                    in
+                                                                    Some
+                                                                    (
+                                                                    if neg
+                                                                    then 
+                                                                    qdiv
+                                                                    base0 p5
+                                                                    else 
+                                                                    qmult
+                                                                    base0 p5)
+                                                                    | _ :: _ ->
+                                                                    None))
+                                                                    | None ->
+                                                                    None)
+                                                                    else 
+                                                                    if b9
+                                                                    then 
+                                                                    if b10
+                                                                    then 
+                                                                    if b11
+                                                                    then 
+                                                                    let neg =
+                                                                    false
+                                                                    in
+                                                                    (
+                                                                    match 
+                                                                    dec_digits
+                                                                    r0 Z0 O with
+                                                                    | Some p3 ->
+                                                                    let (
+                                                                    p4, l) =
+                                                                    p3
+                                                                    in
+                                                                    let (
+                                                                    ex, n3) =
+                                                                    p4
+                                                                    in
+                                                                    (
+                                                                    match n3 with
+                                                                    | O ->
+                                                                    None
+                                                                    | S _ ->
+                                                                    (match l with
+                                                                    | [] ->
+                                                                    let p5 =
+                                                                    inject_Z
+                                                                    (Z.pow
+                                                                    (Zpos (XO
+                                                                    (XI (XO
+                                                                    XH)))) ex)
+                                                                    in
+                                                                    Some
+                                                                    (
+                                                                    if neg
+                                                                    then 
+                                                                    qdiv
+                                                                    base0 p5
+                                                                    else 
+                                                                    qmult
+                                                                    base0 p5)
+                                                                    | _ :: _ ->
+                                                                    None))
+                                                                    | None ->
+                                                                    None)
+                                                                    else 
+                                                                    if b12
+                                                                    then 
+                                                                    if b13
+                                                                    then 
+                                                                    let neg =
+                                                                    false
+                                                                    in
+                                                                    (
+                                                                    match 
+                                                                    dec_digits
+                                                                    r0 Z0 O with
+                                                                    | Some p3 ->
+                                                                    let (
+                                                                    p4, l) =
+                                                                    p3
+                                                                    in
+                                                                    let (
+                                                                    ex, n3) =
+                                                                    p4
+                                                                    in
+                                                                    (
+                                                                    match n3 with
+                                                                    | O ->
+                                                                    None
+                                                                    | S _ ->
+                                                                    (match l with
+                                                                    | [] ->
+                                                                    let p5 =
+                                                                    inject_Z
+                                                                    (Z.pow
+                                                                    (Zpos (XO
+                                                                    (XI (XO
+                                                                    XH)))) ex)
+                                                                    in
+                                                                    Some
+                                                                    (
+                                                                    if neg
+                                                                    then 
+                                                                    qdiv
+                                                                    base0 p5
+                                                                    else 
+                                                                    qmult
+                                                                    base0 p5)
+                                                                    | _ :: _ ->
+                                                                    None))
+                                                                    | None ->
+                                                                    None)
+                                                                    else 
+                                                                    if b14
+                                                                    then 
+                                                                    let neg =
+                                                                    false
+                                                                    in
+                                                                    (
+                                                                    match 
+                                                                    dec_digits
+                                                                    r0 Z0 O with
+                                                                    | Some p3 ->
+                                                                    let (
+                                                                    p4, l) =
+                                                                    p3
+                                                                    in
+                                                                    let (
+                                                                    ex, n3) =
+                                                                    p4
+                                                                    in
+                                                                    (
+                                                                    match n3 with
+                                                                    | O ->
+                                                                    None
+                                                                    | S _ ->
+                                                                    (match l with
+                                                                    | [] ->
+                                                                    let p5 =
+                                                                    inject_Z
+                                                                    (Z.pow
+                                                                    (Zpos (XO
+                                                                    (XI (XO
+                                                                    XH)))) ex)
+                                                                    in
+                                                                    Some
+                                                                    (
+                                                                    if neg
+                                                                    then 
+                                                                    qdiv
+                                                                    base0 p5
+                                                                    else 
+                                                                    qmult
+                                                                    base0 p5)
+                                                                    | _ :: _ ->
+                                                                    None))
+                                                                    | None ->
+                                                                    None)
+                                                                    else 
+                                                                    let neg =
+                                                                    true
+                                                                    in
+                                                                    (
+                                                                    match 
+                                                                    dec_digits
+                                                                    t Z0 O with
+                                                                    | Some p3 ->
+                                                                    let (
+                                                                    p4, l) =
+                                                                    p3
+                                                                    in
+                                                                    let (
+                                                                    ex, n3) =
+                                                                    p4
+                                                                    in
+                                                                    (
+                                                                    match n3 with
+                                                                    | O ->
+                                                                    None
+                                                                    | S _ ->
+                                                                    (match l with
+                                                                    | [] ->
+                                                                    let p5 =
+                                                                    inject_Z
+                                                                    (Z.pow
+                                                                    (Zpos (XO
+                                                                    (XI (XO
+                                                                    XH)))) ex)
+                                                                    in
+                                                                    Some
+                                                                    (
+                                                                    if neg
+                                                                    then 
+                                                                    qdiv
+                                                                    base0 p5
+                                                                    else 
+                                                                    qmult
+                                                                    base0 p5)
+                                                                    | _ :: _ ->
+                                                                    None))
+                                                                    | None ->
+                                                                    None)
+                                                                    else 
+                                                                    let neg =
+                                                                    false
+                                                                    in
+                                                                    (
+                                                                    match 
+                                                                    dec_digits
+                                                                    r0 Z0 O with
+                                                                    | Some p3 ->
+                                                                    let (
+                                                                    p4, l) =
+                                                                    p3
+                                                                    in
+                                                                    let (
+                                                                    ex, n3) =
+                                                                    p4
+                                                                    in
+                                                                    (
+                                                                    match n3 with
+                                                                    | O ->
+                                                                    None
+                                                                    | S _ ->
+                                                                    (match l with
+                                                                    | [] ->
+                                                                    let p5 =
+                                                                    inject_Z
+                                                                    (Z.pow
+                                                                    (Zpos (XO
+                                                                    (XI (XO
+                                                                    XH)))) ex)
+                                                                    in
+                                                                    Some
+                                                                    (
+                                                                    if neg
+                                                                    then 
+                                                                    qdiv
+                                                                    base0 p5
+                                                                    else 
+                                                                    qmult
+                                                                    base0 p5)
+                                                                    | _ :: _ ->
+                                                                    None))
+                                                                    | None ->
+                                                                    None)
+                                                                    else 
+                                                                    let neg =
+                                                                    false
+                                                                    in
+                                                                    (
+                                                                    match 
+                                                                    dec_digits
+                                                                    r0 Z0 O with
+                                                                    | Some p3 ->
+                                                                    let (
+                                                                    p4, l) =
+                                                                    p3
+                                                                    in
+                                                                    let (
+                                                                    ex, n3) =
+                                                                    p4
+                                                                    in
+                                                                    (
+                                                                    match n3 with
+                                                                    | O ->
+                                                                    None
+                                                                    | S _ ->
+                                                                    (match l with
+                                                                    | [] ->
+                                                                    let p5 =
+                                                                    inject_Z
+                                                                    (Z.pow
+                                                                    (Zpos (XO
+                                                                    (XI (XO
+                                                                    XH)))) ex)
+                                                                    in
+                                                                    Some
+                                                                    (
+                                                                    if neg
+                                                                    then 
+                                                                    qdiv
+                                                                    base0 p5
+                                                                    else 
+                                                                    qmult
+                                                                    base0 p5)
+                                                                    | _ :: _ ->
+                                                                    None))
+                                                                    | None ->
+                                                                    None)
+                                                                    else 
+                                                                    let neg =
+                                                                    false
+                                                                    in
+                                                                    (
+                                                                    match 
+                                                                    dec_digits
+                                                                    r0 Z0 O with
+                                                                    | Some p3 ->
+                                                                    let (
+                                                                    p4, l) =
+                                                                    p3
+                                                                    in
+                                                                    let (
+                                                                    ex, n3) =
+                                                                    p4
+                                                                    in
+                                                                    (
+                                                                    match n3 with
+                                                                    | O ->
+                                                                    None
+                                                                    | S _ ->
+                                                                    (match l with
+                                                                    | [] ->
+                                                                    let p5 =
+                                                                    inject_Z
+                                                                    (Z.pow
+                                                                    (Zpos (XO
+                                                                    (XI (XO
+                                                                    XH)))) ex)
+                                                                    in
+                                                                    Some
+                                                                    (
+                                                                    if neg
+                                                                    then 
+                                                                    qdiv
+                                                                    base0 p5
+                                                                    else 
+                                                                    qmult
+                                                                    base0 p5)
+                                                                    | _ :: _ ->
+                                                                    None))
+                                                                    | None ->
+                                                                    None)
+                                                                   else 
+                                                                    let neg =
+                                                                    false
+                                                                    in
+                                                                    (
+                                                                    match 
+                                                                    dec_digits
+                                                                    r0 Z0 O with
+                                                                    | Some p3 ->
+                                                                    let (
+                                                                    p4, l) =
+                                                                    p3
+                                                                    in
+                                                                    let (
+                                                                    ex, n3) =
+                                                                    p4
+                                                                    in
+                                                                    (
+                                                                    match n3 with
+                                                                    | O ->
+                                                                    None
+                                                                    | S _ ->
+                                                                    (match l with
+                                                                    | [] ->
+                                                                    let p5 =
+                                                                    inject_Z
+                                                                    (Z.pow
+                                                                    (Zpos (XO
+                                                                    (XI (XO
+                                                                    XH)))) ex)
+                                                                    in
+                                                                    Some
+                                                                    (
+                                                                    if neg
+                                                                    then 
+                                                                    qdiv
+                                                                    base0 p5
+                                                                    else 
+                                                                    qmult
+                                                                    base0 p5)
+                                                                    | _ :: _ ->
+                                                                    None))
+                                                                    | None ->
+                                                                    None))
+                                                                   a0)
+                                                         else None)
+                                            else (match dec_digits r ip O with
+                                                  | Some p1 ->
+                                                    let (p2, r2) = p1 in
+                                                    let (m, k) = p2 in
+                                                    let p3 = ((m, k), r2) in
+                                                    let (p4, rest2) = p3 in
+                                                    let (mant, scale) = p4 in
+                                                    if Nat.eqb (add n1 k) O
+                                                    then None
+                                                    else let base = { qnum =
+                                                           mant; qden =
+                                                           (Coq_Pos.pow (XO
+                                                             (XI (XO XH)))
+                                                             (Coq_Pos.of_nat
+                                                               scale)) }
+                                                         in
+                                                         let base0 =
+                                                           if Nat.eqb scale O
+                                                           then inject_Z mant
+                                                           else base
+                                                         in
+                                                         (match rest2 with
+                                                          | [] -> Some base0
+                                                          | e :: r0 ->
+                                                            if (||)
+                                                                 ((=) e 'e')
+                                                                 ((=) e 'E')
+                                                            then (match r0 with
+                                                                  | [] ->
+                                                                    let neg =
+                                                                    false
+                                                                    in
+                                                                    (
+                                                                    match 
+                                                                    dec_digits
+                                                                    r0 Z0 O with
+                                                                    | Some p5 ->
+                                                                    let (
+                                                                    p6, l) =
+                                                                    p5
+                                                                    in
+                                                                    let (
+                                                                    ex, n2) =
+                                                                    p6
+                                                                    in
+                                                                    (
+                                                                    match n2 with
+                                                                    | O ->
+                                                                    None
+                                                                    | S _ ->
+                                                                    (match l with
+                                                                    | [] ->
+                                                                    let p7 =
+                                                                    inject_Z
+                                                                    (Z.pow
+                                                                    (Zpos (XO
+                                                                    (XI (XO
+                                                                    XH)))) ex)
+                                                                    in
+                                                                    Some
+                                                                    (
+                                                                    if neg
+                                                                    then 
+                                                                    qdiv
+                                                                    base0 p7
+                                                                    else 
+                                                                    qmult
+                                                                    base0 p7)
+                                                                    | _ :: _ ->
+                                                                    None))
+                                                                    | None ->
+                                                                    None)
+                                                                  | a0 :: t ->
+                                                                    (* If this appears, you're using Ascii internals. Please don't *)
+ (fun f c ->
+  let n = Char.code c in
+  let h i = (n land (1 lsl i)) <> 0 in
+  f (h 0) (h 1) (h 2) (h 3) (h 4) (h 5) (h 6) (h 7))
+                                                                    (fun b7 b8 b9 b10 b11 b12 b13 b14 ->
+                                                                    if b7
+                                                                    then 
+                                                                    if b8
+                                                                    then 
+                                                                    if b9
+                                                                    then 
+                                                                    let neg =
+                                                                    false
+                                                                    in
+                                                                    (
+                                                                    match 
+                                                                    dec_digits
+                                                                    r0 Z0 O with
+                                                                    | Some p5 ->
+                                                                    let (
+                                                                    p6, l) =
+                                                                    p5
+                                                                    in
+                                                                    let (
+                                                                    ex, n2) =
+                                                                    p6
+                                                                    in
+                                                                    (
+                                                                    match n2 with
+                                                                    | O ->
+                                                                    None
+                                                                    | S _ ->
+                                                                    (match l with
+                                                                    | [] ->
+                                                                    let p7 =
+                                                                    inject_Z
+                                                                    (Z.pow
+                                                                    (Zpos (XO
+                                                                    (XI (XO
+                                                                    XH)))) ex)
+                                                                    in
+                                                                    Some
+                                                                    (
+                                                                    if neg
+                                                                    then 
+                                                                    qdiv
+                                                                    base0 p7
+                                                                    else 
+                                                                    qmult
+                                                                    base0 p7)
+                                                                    | _ :: _ ->
+                                                                    None))
+                                                                    | None ->
+                                                                    None)
+                                                                    else 
+                                                                    if b10
+                                                                    then 
+                                                                    if b11
+                                                                    then 
+                                                                    let neg =
+                                                                    false
+                                                                    in
+                                                                    (
+                                                                    match 
+                                                                    dec_digits
+                                                                    r0 Z0 O with
+                                                                    | Some p5 ->
+                                                                    let (
+                                                                    p6, l) =
+                                                                    p5
+                                                                    in
+                                                                    let (
+                                                                    ex, n2) =
+                                                                    p6
+                                                                    in
+                                                                    (
+                                                                    match n2 with
+                                                                    | O ->
+                                                                    None
+                                                                    | S _ ->
+                                                                    (match l with
+                                                                    | [] ->
+                                                                    let p7 =
+                                                                    inject_Z
+                                                                    (Z.pow
+                                                                    (Zpos (XO
+                                                                    (XI (XO
+                                                                    XH)))) ex)
+                                                                    in
+                                                                    Some
+                                                                    (
+                                                                    if neg
+                                                                    then 
+                                                                    qdiv
+                                                                    base0 p7
+                                                                    else 
+                                                                    qmult
+                                                                    base0 p7)
+                                                                    | _ :: _ ->
+                                                                    None))
+                                                                    | None ->
+                                                                    None)
+                                                                    else 
+                                                                    if b12
+                                                                    then 
+                                                                    if b13
+                                                                    then 
+                                                                    let neg =
+                                                                    false
+                                                                    in
+                                                                    (
+                                                                    match 
+                                                                    dec_digits
+                                                                    r0 Z0 O with
+                                                                    | Some p5 ->
+                                                                    let (
+                                                                    p6, l) =
+                                                                    p5
+                                                                    in
+                                                                    let (
+                                                                    ex, n2) =
+                                                                    p6
+                                                                    in
+                                                                    (
+                                                                    match n2 with
+                                                                    | O ->
+                                                                    None
+                                                                    | S _ ->
+                                                                    (match l with
+                                                                    | [] ->
+                                                                    let p7 =
+                                                                    inject_Z
+                                                                    (Z.pow
+                                                                    (Zpos (XO
+                                                                    (XI (XO
+                                                                    XH)))) ex)
+                                                                    in
+                                                                    Some
+                                                                    (
+                                                                    if neg
+                                                                    then 
+                                                                    qdiv
+                                                                    base0 p7
+                                                                    else 
+                                                                    qmult
+                                                                    base0 p7)
+                                                                    | _ :: _ ->
+                                                                    None))
+                                                                    | None ->
+                                                                    None)
+                                                                    else 
+                                                                    if b14
+                                                                    then 
+                                                                    let neg =
+                                                                    false
+                                                                    in
+                                                                    (
+                                                                    match 
+                                                                    dec_digits
+                                                                    r0 Z0 O with
+                                                                    | Some p5 ->
+                                                                    let (
+                                                                    p6, l) =
+                                                                    p5
+                                                                    in
+                                                                    let (
+                                                                    ex, n2) =
+                                                                    p6
+                                                                    in
+                                                                    (
+                                                                    match n2 with
+                                                                    | O ->
+                                                                    None
+                                                                    | S _ ->
+                                                                    (match l with
+                                                                    | [] ->
+                                                                    let p7 =
+                                                                    inject_Z
+                                                                    (Z.pow
+                                                                    (Zpos (XO
+                                                                    (XI (XO
+                                                                    XH)))) ex)
+                                                                    in
+                                                                    Some
+                                                                    (
+                                                                    if neg
+                                                                    then 
+                                                                    qdiv
+                                                                    base0 p7
+                                                                    else 
+                                                                    qmult
+                                                                    base0 p7)
+                                                                    | _ :: _ ->
+                                                                    None))
+                                                                    | None ->
+                                                                    None)
+                                                                    else 
+                                                                    let neg =
+                                                                    false
+                                                                    in
+                                                                    (
+                                                                    match 
+                                                                    dec_digits
+                                                                    t Z0 O with
+                                                                    | Some p5 ->
+                                                                    let (
+                                                                    p6, l) =
+                                                                    p5
+                                                                    in
+                                                                    let (
+                                                                    ex, n2) =
+                                                                    p6
+                                                                    in
+                                                                    (
+                                                                    match n2 with
+                                                                    | O ->
+                                                                    None
+                                                                    | S _ ->
+                                                                    (match l with
+                                                                    | [] ->
+                                                                    let p7 =
+                                                                    inject_Z
+                                                                    (Z.pow
+                                                                    (Zpos (XO
+                                                                    (XI (XO
+                                                                    XH)))) ex)
+                                                                    in
+                                                                    Some
+                                                                    (
+                                                                    if neg
+                                                                    then 
+                                                                    qdiv
+                                                                    base0 p7
+                                                                    else 
+                                                                    qmult
+                                                                    base0 p7)
+                                                                    | _ :: _ ->
+                                                                    None))
+                                                                    | None ->
+                                                                    None)
+                                                                    else 
+                                                                    let neg =
+                                                                    false
+                                                                    in
+                                                                    (
+                                                                    match 
+                                                                    dec_digits
+                                                                    r0 Z0 O with
+                                                                    | Some p5 ->
+                                                                    let (
+                                                                    p6, l) =
+                                                                    p5
+                                                                    in
+                                                                    let (
+                                                                    ex, n2) =
+                                                                    p6
+                                                                    in
+                                                                    (
+                                                                    match n2 with
+                                                                    | O ->
+                                                                    None
+                                                                    | S _ ->
+                                                                    (match l with
+                                                                    | [] ->
+                                                                    let p7 =
+                                                                    inject_Z
+                                                                    (Z.pow
+                                                                    (Zpos (XO
+                                                                    (XI (XO
+                                                                    XH)))) ex)
+                                                                    in
+                                                                    Some
+                                                                    (
+                                                                    if neg
+                                                                    then 
+                                                                    qdiv
+                                                                    base0 p7
+                                                                    else 
+                                                                    qmult
+                                                                    base0 p7)
+                                                                    | _ :: _ ->
+                                                                    None))
+                                                                    | None ->
+                                                                    None)
+                                                                    else 
+                                                                    let neg =
+                                                                    false
+                                                                    in
+                                                                    (
+                                                                    match 
+                                                                    dec_digits
+                                                                    r0 Z0 O with
+                                                                    | Some p5 ->
+                                                                    let (
+                                                                    p6, l) =
+                                                                    p5
+                                                                    in
+                                                                    let (
+                                                                    ex, n2) =
+                                                                    p6
+                                                                    in
+                                                                    (
+                                                                    match n2 with
+                                                                    | O ->
+                                                                    None
+                                                                    | S _ ->
+                                                                    (match l with
+                                                                    | [] ->
+                                                                    let p7 =
+                                                                    inject_Z
+                                                                    (Z.pow
+                                                                    (Zpos (XO
+                                                                    (XI (XO
+                                                                    XH)))) ex)
+                                                                    in
+                                                                    Some
+                                                                    (
+                                                                    if neg
+                                                                    then 
+                                                                    qdiv
+                                                                    base0 p7
+                                                                    else 
+                                                                    qmult
+                                                                    base0 p7)
+                                                                    | _ :: _ ->
+                                                                    None))
+                                                                    | None ->
+                                                                    None)
+                                                                    else 
+                                                                    if b9
+                                                                    then 
+                                                                    if b10
+                                                                    then 
+                                                                    if b11
+                                                                    then 
+                                                                    let neg =
+                                                                    false
+                                                                    in
+                                                                    (
+                                                                    match 
+                                                                    dec_digits
+                                                                    r0 Z0 O with
+                                                                    | Some p5 ->
+                                                                    let (
+                                                                    p6, l) =
+                                                                    p5
+                                                                    in
+                                                                    let (
+                                                                    ex, n2) =
+                                                                    p6
+                                                                    in
+                                                                    (
+                                                                    match n2 with
+                                                                    | O ->
+                                                                    None
+                                                                    | S _ ->
+                                                                    (match l with
+                                                                    | [] ->
+                                                                    let p7 =
+                                                                    inject_Z
+                                                                    (Z.pow
+                                                                    (Zpos (XO
+                                                                    (XI (XO
+                                                                    XH)))) ex)
+                                                                    in
+                                                                    Some
+                                                                    (
+                                                                    if neg
+                                                                    then 
+                                                                    qdiv
+                                                                    base0 p7
+                                                                    else 
+                                                                    qmult
+                                                                    base0 p7)
+                                                                    | _ :: _ ->
+                                                                    None))
+                                                                    | None ->
+                                                                    None)
+                                                                    else 
+                                                                    if b12
+                                                                    then 
+                                                                    if b13
+                                                                    then 
+                                                                    let neg =
+                                                                    false
+                                                                    in
+                                                                    (
+                                                                    match 
+                                                                    dec_digits
+                                                                    r0 Z0 O with
+                                                                    | Some p5 ->
+                                                                    let (
+                                                                    p6, l) =
+                                                                    p5
+                                                                    in
+                                                                    let (
+                                                                    ex, n2) =
+                                                                    p6
+                                                                    in
+                                                                    (
+                                                                    match n2 with
+                                                                    | O ->
+                                                                    None
+                                                                    | S _ ->
+                                                                    (match l with
+                                                                    | [] ->
+                                                                    let p7 =
+                                                                    inject_Z
+                                                                    (Z.pow
+                                                                    (Zpos (XO
+                                                                    (XI (XO
+                                                                    XH)))) ex)
+                                                                    in
+                                                                    Some
+                                                                    (
+                                                                    if neg
+                                                                    then 
+                                                                    qdiv
+                                                                    base0 p7
+                                                                    else 
+                                                                    qmult
+                                                                    base0 p7)
+                                                                    | _ :: _ ->
+                                                                    None))
+                                                                    | None ->
+                                                                    None)
+                                                                    else 
+                                                                    if b14
+                                                                    then 
+                                                                    let neg =
+                                                                    false
+                                                                    in
+                                                                    (
+                                                                    match 
+                                                                    dec_digits
+                                                                    r0 Z0 O with
+                                                                    | Some p5 ->
+                                                                    let (
+                                                                    p6, l) =
+                                                                    p5
+                                                                    in
+                                                                    let (
+                                                                    ex, n2) =
+                                                                    p6
+                                                                    in
+                                                                    (
+                                                                    match n2 with
+                                                                    | O ->
+                                                                    None
+                                                                    | S _ ->
+                                                                    (match l with
+                                                                    | [] ->
+                                                                    let p7 =
+                                                                    inject_Z
+                                                                    (Z.pow
+                                                                    (Zpos (XO
+                                                                    (XI (XO
+                                                                    XH)))) ex)
+                                                                    in
+                                                                    Some
+                                                                    (
+                                                                    if neg
+                                                                    then 
+                                                                    qdiv
+                                                                    base0 p7
+                                                                    else 
+                                                                    qmult
+                                                                    base0 p7)
+                                                                    | _ :: _ ->
+                                                                    None))
+                                                                    | None ->
+                                                                    None)
+                                                                    else 
+                                                                    let neg =
+                                                                    true
+                                                                    in
+                                                                    (
+                                                                    match 
+                                                                    dec_digits
+                                                                    t Z0 O with
+                                                                    | Some p5 ->
+                                                                    let (
+                                                                    p6, l) =
+                                                                    p5
+                                                                    in
+                                                                    let (
+                                                                    ex, n2) =
+                                                                    p6
+                                                                    in
+                                                                    (
+                                                                    match n2 with
+                                                                    | O ->
+                                                                    None
+                                                                    | S _ ->
+                                                                    (match l with
+                                                                    | [] ->
+                                                                    let p7 =
+                                                                    inject_Z
+                                                                    (Z.pow
+                                                                    (Zpos (XO
+                                                                    (XI (XO
+                                                                    XH)))) ex)
+                                                                    in
+                                                                    Some
+                                                                    (
+                                                                    if neg
+                                                                    then 
+                                                                    qdiv
+                                                                    base0 p7
+                                                                    else 
+                                                                    qmult
+                                                                    base0 p7)
+                                                                    | _ :: _ ->
+                                                                    None))
+                                                                    | None ->
+                                                                    None)
+                                                                    else 
+                                                                    let neg =
+                                                                    false
+                                                                    in
+                                                                    (
+                                                                    match 
+                                                                    dec_digits
+                                                                    r0 Z0 O with
+                                                                    | Some p5 ->
+                                                                    let (
+                                                                    p6, l) =
+                                                                    p5
+                                                                    in
+                                                                    let (
+                                                                    ex, n2) =
+                                                                    p6
+                                                                    in
+                                                                    (
+                                                                    match n2 with
+                                                                    | O ->
+                                                                    None
+                                                                    | S _ ->
+                                                                    (match l with
+                                                                    | [] ->
+                                                                    let p7 =
+                                                                    inject_Z
+                                                                    (Z.pow
+                                                                    (Zpos (XO
+                                                                    (XI (XO
+                                                                    XH)))) ex)
+                                                                    in
+                                                                    Some
+                                                                    (
+                                                                    if neg
+                                                                    then 
+                                                                    qdiv
+                                                                    base0 p7
+                                                                    else 
+                                                                    qmult
+                                                                    base0 p7)
+                                                                    | _ :: _ ->
+                                                                    None))
+                                                                    | None ->
+                                                                    None)
+                                                                    else 
+                                                                    let neg =
+                                                                    false
+                                                                    in
+                                                                    (
+                                                                    match 
+                                                                    dec_digits
+                                                                    r0 Z0 O with
+                                                                    | Some p5 ->
+                                                                    let (
+                                                                    p6, l) =
+                                                                    p5
+                                                                    in
+                                                                    let (
+                                                                    ex, n2) =
+                                                                    p6
+                                                                    in
+                                                                    (
+                                                                    match n2 with
+                                                                    | O ->
+                                                                    None
+                                                                    | S _ ->
+                                                                    (match l with
+                                                                    | [] ->
+                                                                    let p7 =
+                                                                    inject_Z
+                                                                    (Z.pow
+                                                                    (Zpos (XO
+                                                                    (XI (XO
+                                                                    XH)))) ex)
+                                                                    in
+                                                                    Some
+                                                                    (
+                                                                    if neg
+                                                                    then 
+                                                                    qdiv
+                                                                    base0 p7
+                                                                    else 
+                                                                    qmult
+                                                                    base0 p7)
+                                                                    | _ :: _ ->
+                                                                    None))
+                                                                    | None ->
+                                                                    None)
+                                                                    else 
+                                                                    let neg =
+                                                                    false
+                                                                    in
+                                                                    (
+                                                                    match 
+                                                                    dec_digits
+                                                                    r0 Z0 O with
+                                                                    | Some p5 ->
+                                                                    let (
+                                                                    p6, l) =
+                                                                    p5
+                                                                    in
+                                                                    let (
+                                                                    ex, n2) =
+                                                                    p6
+                                                                    in
+                                                                    (
+                                                                    match n2 with
+                                                                    | O ->
+                                                                    None
+                                                                    | S _ ->
+                                                                    (match l with
+                                                                    | [] ->
+                                                                    let p7 =
+                                                                    inject_Z
+                                                                    (Z.pow
+                                                                    (Zpos (XO
+                                                                    (XI (XO
+                                                                    XH)))) ex)
+                                                                    in
+                                                                    Some
+                                                                    (
+                                                                    if neg
+                                                                    then 
+                                                                    qdiv
+                                                                    base0 p7
+                                                                    else 
+                                                                    qmult
+                                                                    base0 p7)
+                                                                    | _ :: _ ->
+                                                                    None))
+                                                                    | None ->
+                                                                    None)
+                                                                    else 
+                                                                    let neg =
+                                                                    false
+                                                                    in
+                                                                    (
+                                                                    match 
+                                                                    dec_digits
+                                                                    r0 Z0 O with
+                                                                    | Some p5 ->
+                                                                    let (
+                                                                    p6, l) =
+                                                                    p5
+                                                                    in
+                                                                    let (
+                                                                    ex, n2) =
+                                                                    p6
+                                                                    in
+                                                                    (
+                                                                    match n2 with
+                                                                    | O ->
+                                                                    None
+                                                                    | S _ ->
+                                                                    (match l with
+                                                                    | [] ->
+                                                                    let p7 =
+                                                                    inject_Z
+                                                                    (Z.pow
+                                                                    (Zpos (XO
+                                                                    (XI (XO
+                                                                    XH)))) ex)
+                                                                    in
+                                                                    Some
+                                                                    (
+                                                                    if neg
+                                                                    then 
+                                                                    qdiv
+                                                                    base0 p7
+                                                                    else 
+                                                                    qmult
+                                                                    base0 p7)
+                                                                    | _ :: _ ->
+                                                                    None))
+                                                                    | None ->
+                                                                    None))
+                                                                    a0)
+                                                            else None)
+                                                  | None ->
+                                                    let p1 = ((ip, O), rest)
+                                                    in
+                                                    let n2 = O in
+                                                    let (p2, rest2) = p1 in
+                                                    let (mant, scale) = p2 in
+                                                    if Nat.eqb (add n1 n2) O
+                                                    then None
+                                                    else let base = { qnum =
+                                                           mant; qden =
+                                                           (Coq_Pos.pow (XO
+                                                             (XI (XO XH)))
+                                                             (Coq_Pos.of_nat
+                                                               scale)) }
+                                                         in
+                                                         let base0 =
+                                                           if Nat.eqb scale O
+                                                           then inject_Z mant
+                                                           else base
+                                                         in
+                                                         (match rest2 with
+                                                          | [] -> Some base0
+                                                          | e :: r0 ->
+                                                            if (||)
+                                                                 ((=) e 'e')
+                                                                 ((=) e 'E')
+                                                            then (match r0 with
+                                                                  | [] ->
+                                                                    let neg =
+                                                                    false
+                                                                    in
+                                                                    (
+                                                                    match 
+                                                                    dec_digits
+                                                                    r0 Z0 O with
+                                                                    | Some p3 ->
+                                                                    let (
+                                                                    p4, l) =
+                                                                    p3
+                                                                    in
+                                                                    let (
+                                                                    ex, n3) =
+                                                                    p4
+                                                                    in
+                                                                    (
+                                                                    match n3 with
+                                                                    | O ->
+                                                                    None
+                                                                    | S _ ->
+                                                                    (match l with
+                                                                    | [] ->
+                                                                    let p5 =
+                                                                    inject_Z
+                                                                    (Z.pow
+                                                                    (Zpos (XO
+                                                                    (XI (XO
+                                                                    XH)))) ex)
+                                                                    in
+                                                                    Some
+                                                                    (
+                                                                    if neg
+                                                                    then 
+                                                                    qdiv
+                                                                    base0 p5
+                                                                    else 
+                                                                    qmult
+                                                                    base0 p5)
+                                                                    | _ :: _ ->
+                                                                    None))
+                                                                    | None ->
+                                                                    None)
+                                                                  | a0 :: t ->
+                                                                    (* If this appears, you're using Ascii internals. Please don't *)
+ (fun f c ->
+  let n = Char.code c in
+  let h i = (n land (1 lsl i)) <> 0 in
+  f (h 0) (h 1) (h 2) (h 3) (h 4) (h 5) (h 6) (h 7))
+                                                                    (fun b7 b8 b9 b10 b11 b12 b13 b14 ->
+                                                                    if b7
+                                                                    then 
+                                                                    if b8
+                                                                    then 
+                                                                    if b9
+                                                                    then 
+                                                                    let neg =
+                                                                    false
+                                                                    in
+                                                                    (
+                                                                    match 
+                                                                    dec_digits
+                                                                    r0 Z0 O with
+                                                                    | Some p3 ->
+                                                                    let (
+                                                                    p4, l) =
+                                                                    p3
+                                                                    in
+                                                                    let (
+                                                                    ex, n3) =
+                                                                    p4
+                                                                    in
+                                                                    (
+                                                                    match n3 with
+                                                                    | O ->
+                                                                    None
+                                                                    | S _ ->
+                                                                    (match l with
+                                                                    | [] ->
+                                                                    let p5 =
+                                                                    inject_Z
+                                                                    (Z.pow
+                                                                    (Zpos (XO
+                                                                    (XI (XO
+                                                                    XH)))) ex)
+                                                                    in
+                                                                    Some
+                                                                    (
+                                                                    if neg
+                                                                    then 
+                                                                    qdiv
+                                                                    base0 p5
+                                                                    else 
+                                                                    qmult
+                                                                    base0 p5)
+                                                                    | _ :: _ ->
+                                                                    None))
+                                                                    | None ->
+                                                                    None)
+                                                                    else 
+                                                                    if b10
+                                                                    then 
+                                                                    if b11
+                                                                    then 
+                                                                    let neg =
+                                                                    false
+                                                                    in
+                                                                    (
+                                                                    match 
+                                                                    dec_digits
+                                                                    r0 Z0 O with
+                                                                    | Some p3 ->
+                                                                    let (
+                                                                    p4, l) =
+                                                                    p3
+                                                                    in
+                                                                    let (
+                                                                    ex, n3) =
+                                                                    p4
+                                                                    in
+                                                                    (
+                                                                    match n3 with
+                                                                    | O ->
+                                                                    None
+                                                                    | S _ ->
+                                                                    (match l with
+                                                                    | [] ->
+                                                                    let p5 =
+                                                                    inject_Z
+                                                                    (Z.pow
+                                                                    (Zpos (XO
+                                                                    (XI (XO
+                                                                    XH)))) ex)
+                                                                    in
+                                                                    Some
+                                                                    (
+                                                                    if neg
+                                                                    then 
+                                                                    qdiv
+                                                                    base0 p5
+                                                                    else 
+                                                                    qmult
+                                                                    base0 p5)
+                                                                    | _ :: _ ->
+                                                                    None))
+                                                                    | None ->
+                                                                    None)
+                                                                    else 
+                                                                    if b12
+                                                                    then 
+                                                                    if b13
+                                                                    then 
+                                                                    let neg =
+                                                                    false
+                                                                    in
+                                                                    (
+                                                                    match 
+                                                                    dec_digits
+                                                                    r0 Z0 O with
+                                                                    | Some p3 ->
+                                                                    let (
+                                                                    p4, l) =
+                                                                    p3
+                                                                    in
+                                                                    let (
+                                                                    ex, n3) =
+                                                                    p4
+                                                                    in
+                                                                    (
+                                                                    match n3 with
+                                                                    | O ->
+                                                                    None
+                                                                    | S _ ->
+                                                                    (match l with
+                                                                    | [] ->
+                                                                    let p5 =
+                                                                    inject_Z
+                                                                    (Z.pow
+                                                                    (Zpos (XO
+                                                                    (XI (XO
+                                                                    XH)))) ex)
+                                                                    in
+                                                                    Some
+                                                                    (
+                                                                    if neg
+                                                                    then 
+                                                                    qdiv
+                                                                    base0 p5
+                                                                    else 
+                                                                    qmult
+                                                                    base0 p5)
+                                                                    | _ :: _ ->
+                                                                    None))
+                                                                    | None ->
+                                                                    None)
+                                                                    else 
+                                                                    if b14
+                                                                    then 
+                                                                    let neg =
+                                                                    false
+                                                                    in
+                                                                    (
+                                                                    match 
+                                                                    dec_digits
+                                                                    r0 Z0 O with
+                                                                    | Some p3 ->
+                                                                    let (
+                                                                    p4, l) =
+                                                                    p3
+                                                                    in
+                                                                    let (
+                                                                    ex, n3) =
+                                                                    p4
+                                                                    in
+                                                                    (
+                                                                    match n3 with
+                                                                    | O ->
+                                                                    None
+                                                                    | S _ ->
+                                                                    (match l with
+                                                                    | [] ->
+                                                                    let p5 =
+                                                                    inject_Z
+                                                                    (Z.pow
+                                                                    (Zpos (XO
+                                                                    (XI (XO
+                                                                    XH)))) ex)
+                                                                    in
+                                                                    Some
+                                                                    (
+                                                                    if neg
+                                                                    then 
+                                                                    qdiv
+                                                                    base0 p5
+                                                                    else 
+                                                                    qmult
+                                                                    base0 p5)
+                                                                    | _ :: _ ->
+                                                                    None))
+                                                                    | None ->
+                                                                    None)
+                                                                    else 
+                                                                    let neg =
+                                                                    false
+                                                                    in
+                                                                    (
+                                                                    match 
+                                                                    dec_digits
+                                                                    t Z0 O with
+                                                                    | Some p3 ->
+                                                                    let (
+                                                                    p4, l) =
+                                                                    p3
+                                                                    in
+                                                                    let (
+                                                                    ex, n3) =
+                                                                    p4
+                                                                    in
+                                                                    (
+                                                                    match n3 with
+                                                                    | O ->
+                                                                    None
+                                                                    | S _ ->
+                                                                    (match l with
+                                                                    | [] ->
+                                                                    let p5 =
+                                                                    inject_Z
+                                                                    (Z.pow
+                                                                    (Zpos (XO
+                                                                    (XI (XO
+                                                                    XH)))) ex)
+                                                                    in
+                                                                    Some
+                                                                    (
+                                                                    if neg
+                                                                    then 
+                                                                    qdiv
+                                                                    base0 p5
+                                                                    else 
+                                                                    qmult
+                                                                    base0 p5)
+                                                                    | _ :: _ ->
+                                                                    None))
+                                                                    | None ->
+                                                                    None)
+                                                                    else 
+                                                                    let neg =
+                                                                    false
+                                                                    in
+                                                                    (
+                                                                    match 
+                                                                    dec_digits
+                                                                    r0 Z0 O with
+                                                                    | Some p3 ->
+                                                                    let (
+                                                                    p4, l) =
+                                                                    p3
+                                                                    in
+                                                                    let (
+                                                                    ex, n3) =
+                                                                    p4
+                                                                    in
+                                                                    (
+                                                                    match n3 with
+                                                                    | O ->
+                                                                    None
+                                                                    | S _ ->
+                                                                    (match l with
+                                                                    | [] ->
+                                                                    let p5 =
+                                                                    inject_Z
+                                                                    (Z.pow
+                                                                    (Zpos (XO
+                                                                    (XI (XO
+                                                                    XH)))) ex)
+                                                                    in
+                                                                    Some
+                                                                    (
+                                                                    if neg
+                                                                    then 
+                                                                    qdiv
+                                                                    base0 p5
+                                                                    else 
+                                                                    qmult
+                                                                    base0 p5)
+                                                                    | _ :: _ ->
+                                                                    None))
+                                                                    | None ->
+                                                                    None)
+                                                                    else 
+                                                                    let neg =
+                                                                    false
+                                                                    in
+                                                                    (
+                                                                    match 
+                                                                    dec_digits
+                                                                    r0 Z0 O with
+                                                                    | Some p3 ->
+                                                                    let (
+                                                                    p4, l) =
+                                                                    p3
+                                                                    in
+                                                                    let (
+                                                                    ex, n3) =
+                                                                    p4
+                                                                    in
+                                                                    (
+                                                                    match n3 with
+                                                                    | O ->
+                                                                    None
+                                                                    | S _ ->
+                                                                    (match l with
+                                                                    | [] ->
+                                                                    let p5 =
+                                                                    inject_Z
+                                                                    (Z.pow
+                                                                    (Zpos (XO
+                                                                    (XI (XO
+                                                                    XH)))) ex)
+                                                                    in
+                                                                    Some
+                                                                    (
+                                                                    if neg
+                                                                    then 
+                                                                    qdiv
+                                                                    base0 p5
+                                                                    else 
+                                                                    qmult
+                                                                    base0 p5)
+                                                                    | _ :: _ ->
+                                                                    None))
+                                                                    | None ->
+                                                                    None)
+                                                                    else 
+                                                                    if b9
+                                                                    then 
+                                                                    if b10
+                                                                    then 
+                                                                    if b11
+                                                                    then 
+                                                                    let neg =
+                                                                    false
+                                                                    in
+                                                                    (
+                                                                    match 
+                                                                    dec_digits
+                                                                    r0 Z0 O with
+                                                                    | Some p3 ->
+                                                                    let (
+                                                                    p4, l) =
+                                                                    p3
+                                                                    in
+                                                                    let (
+                                                                    ex, n3) =
+                                                                    p4
+                                                                    in
+                                                                    (
+                                                                    match n3 with
+                                                                    | O ->
+                                                                    None
+                                                                    | S _ ->
+                                                                    (match l with
+                                                                    | [] ->
+                                                                    let p5 =
+                                                                    inject_Z
+                                                                    (Z.pow
+                                                                    (Zpos (XO
+                                                                    (XI (XO
+                                                                    XH)))) ex)
+                                                                    in
+                                                                    Some
+                                                                    (
+                                                                    if neg
+                                                                    then 
+                                                                    qdiv
+                                                                    base0 p5
+                                                                    else 
+                                                                    qmult
+                                                                    base0 p5)
+                                                                    | _ :: _ ->
+                                                                    None))
+                                                                    | None ->
+                                                                    None)
+                                                                    else 
+                                                                    if b12
+                                                                    then 
+                                                                    if b13
+                                                                    then 
+                                                                    let neg =
+                                                                    false
+                                                                    in
+                                                                    (
+                                                                    match 
+                                                                    dec_digits
+                                                                    r0 Z0 O with
+                                                                    | Some p3 ->
+                                                                    let (
+                                                                    p4, l) =
+                                                                    p3
+                                                                    in
+                                                                    let (
+                                                                    ex, n3) =
+                                                                    p4
+                                                                    in
+                                                                    (
+                                                                    match n3 with
+                                                                    | O ->
+                                                                    None
+                                                                    | S _ ->
+                                                                    (match l with
+                                                                    | [] ->
+                                                                    let p5 =
+                                                                    inject_Z
+                                                                    (Z.pow
+                                                                    (Zpos (XO
+                                                                    (XI (XO
+                                                                    XH)))) ex)
+                                                                    in
+                                                                    Some
+                                                                    (
+                                                                    if neg
+                                                                    then 
+                                                                    qdiv
+                                                                    base0 p5
+                                                                    else 
+                                                                    qmult
+                                                                    base0 p5)
+                                                                    | _ :: _ ->
+                                                                    None))
+                                                                    | None ->
+                                                                    None)
+                                                                    else 
+                                                                    if b14
+                                                                    then 
+                                                                    let neg =
+                                                                    false
+                                                                    in
+                                                                    (
+                                                                    match 
+                                                                    dec_digits
+                                                                    r0 Z0 O with
+                                                                    | Some p3 ->
+                                                                    let (
+                                                                    p4, l) =
+                                                                    p3
+                                                                    in
+                                                                    let (
+                                                                    ex, n3) =
+                                                                    p4
+                                                                    in
+                                                                    (
+                                                                    match n3 with
+                                                                    | O ->
+                                                                    None
+                                                                    | S _ ->
+                                                                    (match l with
+                                                                    | [] ->
+                                                                    let p5 =
+                                                                    inject_Z
+                                                                    (Z.pow
+                                                                    (Zpos (XO
+                                                                    (XI (XO
+                                                                    XH)))) ex)
+                                                                    in
+                                                                    Some
+                                                                    (
+                                                                    if neg
+                                                                    then 
+                                                                    qdiv
+                                                                    base0 p5
+                                                                    else 
+                                                                    qmult
+                                                                    base0 p5)
+                                                                    | _ :: _ ->
+                                                                    None))
+                                                                    | None ->
+                                                                    None)
+                                                                    else 
+                                                                    let neg =
+                                                                    true
+                                                                    in
+                                                                    (
+                                                                    match 
+                                                                    dec_digits
+                                                                    t Z0 O with
+                                                                    | Some p3 ->
+                                                                    let (
+                                                                    p4, l) =
+                                                                    p3
+                                                                    in
+                                                                    let (
+                                                                    ex, n3) =
+                                                                    p4
+                                                                    in
+                                                                    (
+                                                                    match n3 with
+                                                                    | O ->
+                                                                    None
+                                                                    | S _ ->
+                                                                    (match l with
+                                                                    | [] ->
+                                                                    let p5 =
+                                                                    inject_Z
+                                                                    (Z.pow
+                                                                    (Zpos (XO
+                                                                    (XI (XO
+                                                                    XH)))) ex)
+                                                                    in
+                                                                    Some
+                                                                    (
+                                                                    if neg
+                                                                    then 
+                                                                    qdiv
+                                                                    base0 p5
+                                                                    else 
+                                                                    qmult
+                                                                    base0 p5)
+                                                                    | _ :: _ ->
+                                                                    None))
+                                                                    | None ->
+                                                                    None)
+                                                                    else 
+                                                                    let neg =
+                                                                    false
+                                                                    in
+                                                                    (
+                                                                    match 
+                                                                    dec_digits
+                                                                    r0 Z0 O with
+                                                                    | Some p3 ->
+                                                                    let (
+                                                                    p4, l) =
+                                                                    p3
+                                                                    in
+                                                                    let (
+                                                                    ex, n3) =
+                                                                    p4
+                                                                    in
+                                                                    (
+                                                                    match n3 with
+                                                                    | O ->
+                                                                    None
+                                                                    | S _ ->
+                                                                    (match l with
+                                                                    | [] ->
+                                                                    let p5 =
+                                                                    inject_Z
+                                                                    (Z.pow
+                                                                    (Zpos (XO
+                                                                    (XI (XO
+                                                                    XH)))) ex)
+                                                                    in
+                                                                    Some
+                                                                    (
+                                                                    if neg
+                                                                    then 
+                                                                    qdiv
+                                                                    base0 p5
+                                                                    else 
+                                                                    qmult
+                                                                    base0 p5)
+                                                                    | _ :: _ ->
+                                                                    None))
+                                                                    | None ->
+                                                                    None)
+                                                                    else 
+                                                                    let neg =
+                                                                    false
+                                                                    in
+                                                                    (
+                                                                    match 
+                                                                    dec_digits
+                                                                    r0 Z0 O with
+                                                                    | Some p3 ->
+                                                                    let (
+                                                                    p4, l) =
+                                                                    p3
+                                                                    in
+                                                                    let (
+                                                                    ex, n3) =
+                                                                    p4
+                                                                    in
+                                                                    (
+                                                                    match n3 with
+                                                                    | O ->
+                                                                    None
+                                                                    | S _ ->
+                                                                    (match l with
+                                                                    | [] ->
+                                                                    let p5 =
+                                                                    inject_Z
+                                                                    (Z.pow
+                                                                    (Zpos (XO
+                                                                    (XI (XO
+                                                                    XH)))) ex)
+                                                                    in
+                                                                    Some
+                                                                    (
+                                                                    if neg
+                                                                    then 
+                                                                    qdiv
+                                                                    base0 p5
+                                                                    else 
+                                                                    qmult
+                                                                    base0 p5)
+                                                                    | _ :: _ ->
+                                                                    None))
+                                                                    | None ->
+                                                                    None)
+                                                                    else 
+                                                                    let neg =
+                                                                    false
+                                                                    in
+                                                                    (
+                                                                    match 
+                                                                    dec_digits
+                                                                    r0 Z0 O with
+                                                                    | Some p3 ->
+                                                                    let (
+                                                                    p4, l) =
+                                                                    p3
+                                                                    in
+                                                                    let (
+                                                                    ex, n3) =
+                                                                    p4
+                                                                    in
+                                                                    (
+                                                                    match n3 with
+                                                                    | O ->
+                                                                    None
+                                                                    | S _ ->
+                                                                    (match l with
+                                                                    | [] ->
+                                                                    let p5 =
+                                                                    inject_Z
+                                                                    (Z.pow
+                                                                    (Zpos (XO
+                                                                    (XI (XO
+                                                                    XH)))) ex)
+                                                                    in
+                                                                    Some
+                                                                    (
+                                                                    if neg
+                                                                    then 
+                                                                    qdiv
+                                                                    base0 p5
+                                                                    else 
+                                                                    qmult
+                                                                    base0 p5)
+                                                                    | _ :: _ ->
+                                                                    None))
+                                                                    | None ->
+                                                                    None)
+                                                                    else 
+                                                                    let neg =
+                                                                    false
+                                                                    in
+                                                                    (
+                                                                    match 
+                                                                    dec_digits
+                                                                    r0 Z0 O with
+                                                                    | Some p3 ->
+                                                                    let (
+                                                                    p4, l) =
+                                                                    p3
+                                                                    in
+                                                                    let (
+                                                                    ex, n3) =
+                                                                    p4
+                                                                    in
+                                                                    (
+                                                                    match n3 with
+                                                                    | O ->
+                                                                    None
+                                                                    | S _ ->
+                                                                    (match l with
+                                                                    | [] ->
+                                                                    let p5 =
+                                                                    inject_Z
+                                                                    (Z.pow
+                                                                    (Zpos (XO
+                                                                    (XI (XO
+                                                                    XH)))) ex)
+                                                                    in
+                                                                    Some
+                                                                    (
+                                                                    if neg
+                                                                    then 
+                                                                    qdiv
+                                                                    base0 p5
+                                                                    else 
+                                                                    qmult
+                                                                    base0 p5)
+                                                                    | _ :: _ ->
+                                                                    None))
+                                                                    | None ->
+                                                                    None))
+                                                                    a0)
+                                                            else None))
+                                  else let p1 = ((ip, O), rest) in
+                                       let n2 = O in
+                                       let (p2, rest2) = p1 in
+                                       let (mant, scale) = p2 in
+                                       if Nat.eqb (add n1 n2) O
+                                       then None
+                                       else let base = { qnum = mant; qden =
+                                              (Coq_Pos.pow (XO (XI (XO XH)))
+                                                (Coq_Pos.of_nat scale)) }
+                                            in
+                                            let base0 =
+                                              if Nat.eqb scale O
+                                              then inject_Z mant
+                                              else base
+                                            in
+                                            (match rest2 with
+                                             | [] -> Some base0
+                                             | e :: r0 ->
+                                               if (||) ((=) e 'e') ((=) e 'E')
+                                               then (match r0 with
+                                                     | [] ->
+                                                       let neg = false in
+                                                       (match dec_digits r0
+                                                                Z0 O with
+                                                        | Some p3 ->
+                                                          let (p4, l) = p3 in
+                                                          let (ex, n3) = p4 in
+                                                          (match n3 with
+                                                           | O -> None
+                                                           | S _ ->
+                                                             (match l with
+                                                              | [] ->
+                                                                let p5 =
+                                                                  inject_Z
+                                                                    (Z.pow
+                                                                    (Zpos (XO
+                                                                    (XI (XO
+                                                                    XH)))) ex)
+                                                                in
+                                                                Some
+                                                                (if neg
+                                                                 then 
+                                                                   qdiv base0
+                                                                    p5
+                                                                 else 
+                                                                   qmult
+                                                                    base0 p5)
+                                                              | _ :: _ -> None))
+                                                        | None -> None)
+                                                     | a0 :: t ->
+                                                       (* If this appears, you're using Ascii internals. Please don't *)
+ (fun f c ->
+  let n = Char.code c in
+  let h i = (n land (1 lsl i)) <> 0 in
+  f (h 0) (h 1) (h 2) (h 3) (h 4) (h 5) (h 6) (h 7))
+                                                         (fun b7 b8 b9 b10 b11 b12 b13 b14 ->
+                                                         if b7
+                                                         then if b8
+                                                              then if b9
+                                                                   then 
+                                                                    let neg =
+                                                                    false
+                                                                    in
+                                                                    (
+                                                                    match 
+                                                                    dec_digits
+                                                                    r0 Z0 O with
+                                                                    | Some p3 ->
+                                                                    let (
+                                                                    p4, l) =
+                                                                    p3
+                                                                    in
+                                                                    let (
+                                                                    ex, n3) =
+                                                                    p4
+                                                                    in
+                                                                    (
+                                                                    match n3 with
+                                                                    | O ->
+                                                                    None
+                                                                    | S _ ->
+                                                                    (match l with
+                                                                    | [] ->
+                                                                    let p5 =
+                                                                    inject_Z
+                                                                    (Z.pow
+                                                                    (Zpos (XO
+                                                                    (XI (XO
+                                                                    XH)))) ex)
+                                                                    in
+                                                                    Some
+                                                                    (
+                                                                    if neg
+                                                                    then 
+                                                                    qdiv
+                                                                    base0 p5
+                                                                    else 
+                                                                    qmult
+                                                                    base0 p5)
+                                                                    | _ :: _ ->
+                                                                    None))
+                                                                    | None ->
+                                                                    None)
+                                                                   else 
+                                                                    if b10
+                                                                    then 
+                                                                    if b11
+                                                                    then 
+                                                                    let neg =
+                                                                    false
+                                                                    in
+                                                                    (
+                                                                    match 
+                                                                    dec_digits
+                                                                    r0 Z0 O with
+                                                                    | Some p3 ->
+                                                                    let (
+                                                                    p4, l) =
+                                                                    p3
+                                                                    in
+                                                                    let (
+                                                                    ex, n3) =
+                                                                    p4
+                                                                    in
+                                                                    (
+                                                                    match n3 with
+                                                                    | O ->
+                                                                    None
+                                                                    | S _ ->
+                                                                    (match l with
+                                                                    | [] ->
+                                                                    let p5 =
+                                                                    inject_Z
+                                                                    (Z.pow
+                                                                    (Zpos (XO
+                                                                    (XI (XO
+                                                                    XH)))) ex)
+                                                                    in
+                                                                    Some
+                                                                    (
+                                                                    if neg
+                                                                    then 
+                                                                    qdiv
+                                                                    base0 p5
+                                                                    else 
+                                                                    qmult
+                                                                    base0 p5)
+                                                                    | _ :: _ ->
+                                                                    None))
+                                                                    | None ->
+                                                                    None)
+                                                                    else 
+                                                                    if b12
+                                                                    then 
+                                                                    if b13
+                                                                    then 
+                                                                    let neg =
+                                                                    false
+                                                                    in
+                                                                    (
+                                                                    match 
+                                                                    dec_digits
+                                                                    r0 Z0 O with
+                                                                    | Some p3 ->
+                                                                    let (
+                                                                    p4, l) =
+                                                                    p3
+                                                                    in
+                                                                    let (
+                                                                    ex, n3) =
+                                                                    p4
+                                                                    in
+                                                                    (
+                                                                    match n3 with
+                                                                    | O ->
+                                                                    None
+                                                                    | S _ ->
+                                                                    (match l with
+                                                                    | [] ->
+                                                                    let p5 =
+                                                                    inject_Z
+                                                                    (Z.pow
+                                                                    (Zpos (XO
+                                                                    (XI (XO
+                                                                    XH)))) ex)
+                                                                    in
+                                                                    Some
+                                                                    (
+                                                                    if neg
+                                                                    then 
+                                                                    qdiv
+                                                                    base0 p5
+                                                                    else 
+                                                                    qmult
+                                                                    base0 p5)
+                                                                    | _ :: _ ->
+                                                                    None))
+                                                                    | None ->
+                                                                    None)
+                                                                    else 
+                                                                    if b14
+                                                                    then 
+                                                                    let neg =
+                                                                    false
+                                                                    in
+                                                                    (
+                                                                    match 
+                                                                    dec_digits
+                                                                    r0 Z0 O with
+                                                                    | Some p3 ->
+                                                                    let (
+                                                                    p4, l) =
+                                                                    p3
+                                                                    in
+                                                                    let (
+                                                                    ex, n3) =
+                                                                    p4
+                                                                    in
+                                                                    (
+                                                                    match n3 with
+                                                                    | O ->
+                                                                    None
+                                                                    | S _ ->
+                                                                    (match l with
+                                                                    | [] ->
+                                                                    let p5 =
+                                                                    inject_Z
+                                                                    (Z.pow
+                                                                    (Zpos (XO
+                                                                    (XI (XO
+                                                                    XH)))) ex)
+                                                                    in
+                                                                    Some
+                                                                    (
+                                                                    if neg
+                                                                    then 
+                                                                    qdiv
+                                                                    base0 p5
+                                                                    else 
+                                                                    qmult
+                                                                    base0 p5)
+                                                                    | _ :: _ ->
+                                                                    None))
+                                                                    | None ->
+                                                                    None)
+                                                                    else 
+                                                                    let neg =
+                                                                    false
+                                                                    in
+                                                                    (
+                                                                    match 
+                                                                    dec_digits
+                                                                    t Z0 O with
+                                                                    | Some p3 ->
+                                                                    let (
+                                                                    p4, l) =
+                                                                    p3
+                                                                    in
+                                                                    let (
+                                                                    ex, n3) =
+                                                                    p4
+                                                                    in
+                                                                    (
+                                                                    match n3 with
+                                                                    | O ->
+                                                                    None
+                                                                    | S _ ->
+                                                                    (match l with
+                                                                    | [] ->
+                                                                    let p5 =
+                                                                    inject_Z
+                                                                    (Z.pow
+                                                                    (Zpos (XO
+                                                                    (XI (XO
+                                                                    XH)))) ex)
+                                                                    in
+                                                                    Some
+                                                                    (
+                                                                    if neg
+                                                                    then 
+                                                                    qdiv
+                                                                    base0 p5
+                                                                    else 
+                                                                    qmult
+                                                                    base0 p5)
+                                                                    | _ :: _ ->
+                                                                    None))
+                                                                    | None ->
+                                                                    None)
+                                                                    else 
+                                                                    let neg =
+                                                                    false
+                                                                    in
+                                                                    (
+                                                                    match 
+                                                                    dec_digits
+                                                                    r0 Z0 O with
+                                                                    | Some p3 ->
+                                                                    let (
+                                                                    p4, l) =
+                                                                    p3
+                                                                    in
+                                                                    let (
+                                                                    ex, n3) =
+                                                                    p4
+                                                                    in
+                                                                    (
+                                                                    match n3 with
+                                                                    | O ->
+                                                                    None
+                                                                    | S _ ->
+                                                                    (match l with
+                                                                    | [] ->
+                                                                    let p5 =
+                                                                    inject_Z
+                                                                    (Z.pow
+                                                                    (Zpos (XO
+                                                                    (XI (XO
+                                                                    XH)))) ex)
+                                                                    in
+                                                                    Some
+                                                                    (
+                                                                    if neg
+                                                                    then 
+                                                                    qdiv
+                                                                    base0 p5
+                                                                    else 
+                                                                    qmult
+                                                                    base0 p5)
+                                                                    | _ :: _ ->
+                                                                    None))
+                                                                    | None ->
+                                                                    None)
+                                                                    else 
+                                                                    let neg =
+                                                                    false
+                                                                    in
+                                                                    (
+                                                                    match 
+                                                                    dec_digits
+                                                                    r0 Z0 O with
+                                                                    | Some p3 ->
+                                                                    let (
+                                                                    p4, l) =
+                                                                    p3
+                                                                    in
+                                                                    let (
+                                                                    ex, n3) =
+                                                                    p4
+                                                                    in
+                                                                    (
+                                                                    match n3 with
+                                                                    | O ->
+                                                                    None
+                                                                    | S _ ->
+                                                                    (match l with
+                                                                    | [] ->
+                                                                    let p5 =
+                                                                    inject_Z
+                                                                    (Z.pow
+                                                                    (Zpos (XO
+                                                                    (XI (XO
+                                                                    XH)))) ex)
+                                                                    in
+                                                                    Some
+                                                                    (
+                                                                    if neg
+                                                                    then 
+                                                                    qdiv
+                                                                    base0 p5
+                                                                    else 
+                                                                    qmult
+                                                                    base0 p5)
+                                                                    | _ :: _ ->
+                                                                    None))
+                                                                    | None ->
+                                                                    None)
+                                                              else if b9
+                                                                   then 
+                                                                    if b10
+                                                                    then 
+                                                                    if b11
+                                                                    then 
+                                                                    let neg =
+                                                                    false
+                                                                    in
+                                                                    (
+                                                                    match 
+                                                                    dec_digits
+                                                                    r0 Z0 O with
+                                                                    | Some p3 ->
+                                                                    let (
+                                                                    p4, l) =
+                                                                    p3
+                                                                    in
+                                                                    let (
+                                                                    ex, n3) =
+                                                                    p4
+                                                                    in
+                                                                    (
+                                                                    match n3 with
+                                                                    | O ->
+                                                                    None
+                                                                    | S _ ->
+                                                                    (match l with
+                                                                    | [] ->
+                                                                    let p5 =
+                                                                    inject_Z
+                                                                    (Z.pow
+                                                                    (Zpos (XO
+                                                                    (XI (XO
+                                                                    XH)))) ex)
+                                                                    in
+                                                                    Some
+                                                                    (
+                                                                    if neg
+                                                                    then 
+                                                                    qdiv
+                                                                    base0 p5
+                                                                    else 
+                                                                    qmult
+                                                                    base0 p5)
+                                                                    | _ :: _ ->
+                                                                    None))
+                                                                    | None ->
+                                                                    None)
+                                                                    else 
+                                                                    if b12
+                                                                    then 
+                                                                    if b13
+                                                                    then 
+                                                                    let neg =
+                                                                    false
+                                                                    in
+                                                                    (
+                                                                    match 
+                                                                    dec_digits
+                                                                    r0 Z0 O with
+                                                                    | Some p3 ->
+                                                                    let (
+                                                                    p4, l) =
+                                                                    p3
+                                                                    in
+                                                                    let (
+                                                                    ex, n3) =
+                                                                    p4
+                                                                    in
+                                                                    (
+                                                                    match n3 with
+                                                                    | O ->
+                                                                    None
+                                                                    | S _ ->
+                                                                    (match l with
+                                                                    | [] ->
+                                                                    let p5 =
+                                                                    inject_Z
+                                                                    (Z.pow
+                                                                    (Zpos (XO
+                                                                    (XI (XO
+                                                                    XH)))) ex)
+                                                                    in
+                                                                    Some
+                                                                    (
+                                                                    if neg
+                                                                    then 
+                                                                    qdiv
+                                                                    base0 p5
+                                                                    else 
+                                                                    qmult
+                                                                    base0 p5)
+                                                                    | _ :: _ ->
+                                                                    None))
+                                                                    | None ->
+                                                                    None)
+                                                                    else 
+                                                                    if b14
+                                                                    then 
+                                                                    let neg =
+                                                                    false
+                                                                    in
+                                                                    (
+                                                                    match 
+                                                                    dec_digits
+                                                                    r0 Z0 O with
+                                                                    | Some p3 ->
+                                                                    let (
+                                                                    p4, l) =
+                                                                    p3
+                                                                    in
+                                                                    let (
+                                                                    ex, n3) =
+                                                                    p4
+                                                                    in
+                                                                    (
+                                                                    match n3 with
+                                                                    | O ->
+                                                                    None
+                                                                    | S _ ->
+                                                                    (match l with
+                                                                    | [] ->
+                                                                    let p5 =
+                                                                    inject_Z
+                                                                    (Z.pow
+                                                                    (Zpos (XO
+                                                                    (XI (XO
+                                                                    XH)))) ex)
+                                                                    in
+                                                                    Some
+                                                                    (
+                                                                    if neg
+                                                                    then 
+                                                                    qdiv
+                                                                    base0 p5
+                                                                    else 
+                                                                    qmult
+                                                                    base0 p5)
+                                                                    | _ :: _ ->
+                                                                    None))
+                                                                    | None ->
+                                                                    None)
+                                                                    else 
+                                                                    let neg =
+                                                                    true
+                                                                    in
+                                                                    (
+                                                                    match 
+                                                                    dec_digits
+                                                                    t Z0 O with
+                                                                    | Some p3 ->
+                                                                    let (
+                                                                    p4, l) =
+                                                                    p3
+                                                                    in
+                                                                    let (
+                                                                    ex, n3) =
+                                                                    p4
+                                                                    in
+                                                                    (
+                                                                    match n3 with
+                                                                    | O ->
+                                                                    None
+                                                                    | S _ ->
+                                                                    (match l with
+                                                                    | [] ->
+                                                                    let p5 =
+                                                                    inject_Z
+                                                                    (Z.pow
+                                                                    (Zpos (XO
+                                                                    (XI (XO
+                                                                    XH)))) ex)
+                                                                    in
+                                                                    Some
+                                                                    (
+                                                                    if neg
+                                                                    then 
+                                                                    qdiv
+                                                                    base0 p5
+                                                                    else 
+                                                                    qmult
+                                                                    base0 p5)
+                                                                    | _ :: _ ->
+                                                                    None))
+                                                                    | None ->
+                                                                    None)
+                                                                    else 
+                                                                    let neg =
+                                                                    false
+                                                                    in
+                                                                    (
+                                                                    match 
+                                                                    dec_digits
+                                                                    r0 Z0 O with
+                                                                    | Some p3 ->
+                                                                    let (
+                                                                    p4, l) =
+                                                                    p3
+                                                                    in
+                                                                    let (
+                                                                    ex, n3) =
+                                                                    p4
+                                                                    in
+                                                                    (
+                                                                    match n3 with
+                                                                    | O ->
+                                                                    None
+                                                                    | S _ ->
+                                                                    (match l with
+                                                                    | [] ->
+                                                                    let p5 =
+                                                                    inject_Z
+                                                                    (Z.pow
+                                                                    (Zpos (XO
+                                                                    (XI (XO
+                                                                    XH)))) ex)
+                                                                    in
+                                                                    Some
+                                                                    (
+                                                                    if neg
+                                                                    then 
+                                                                    qdiv
+                                                                    base0 p5
+                                                                    else 
+                                                                    qmult
+                                                                    base0 p5)
+                                                                    | _ :: _ ->
+                                                                    None))
+                                                                    | None ->
+                                                                    None)
+                                                                    else 
+                                                                    let neg =
+                                                                    false
+                                                                    in
+                                                                    (
+                                                                    match 
+                                                                    dec_digits
+                                                                    r0 Z0 O with
+                                                                    | Some p3 ->
+                                                                    let (
+                                                                    p4, l) =
+                                                                    p3
+                                                                    in
+                                                                    let (
+                                                                    ex, n3) =
+                                                                    p4
+                                                                    in
+                                                                    (
+                                                                    match n3 with
+                                                                    | O ->
+                                                                    None
+                                                                    | S _ ->
+                                                                    (match l with
+                                                                    | [] ->
+                                                                    let p5 =
+                                                                    inject_Z
+                                                                    (Z.pow
+                                                                    (Zpos (XO
+                                                                    (XI (XO
+                                                                    XH)))) ex)
+                                                                    in
+                                                                    Some
+                                                                    (
+                                                                    if neg
+                                                                    then 
+                                                                    qdiv
+                                                                    base0 p5
+                                                                    else 
+                                                                    qmult
+                                                                    base0 p5)
+                                                                    | _ :: _ ->
+                                                                    None))
+                                                                    | None ->
+                                                                    None)
+                                                                   else 
+                                                                    let neg =
+                                                                    false
+                                                                    in
+                                                                    (
+                                                                    match 
+                                                                    dec_digits
+                                                                    r0 Z0 O with
+                                                                    | Some p3 ->
+                                                                    let (
+                                                                    p4, l) =
+                                                                    p3
+                                                                    in
+                                                                    let (
+                                                                    ex, n3) =
+                                                                    p4
+                                                                    in
+                                                                    (
+                                                                    match n3 with
+                                                                    | O ->
+                                                                    None
+                                                                    | S _ ->
+                                                                    (match l with
+                                                                    | [] ->
+                                                                    let p5 =
+                                                                    inject_Z
+                                                                    (Z.pow
+                                                                    (Zpos (XO
+                                                                    (XI (XO
+                                                                    XH)))) ex)
+                                                                    in
+                                                                    Some
+                                                                    (
+                                                                    if neg
+                                                                    then 
+                                                                    qdiv
+                                                                    base0 p5
+                                                                    else 
+                                                                    qmult
+                                                                    base0 p5)
+                                                                    | _ :: _ ->
+                                                                    None))
+                                                                    | None ->
+                                                                    None)
+                                                         else let neg = false
+                                                              in
+                                                              (match 
+                                                               dec_digits r0
+                                                                 Z0 O with
+                                                               | Some p3 ->
+                                                                 let (
+                                                                   p4, l) = p3
+                                                                 in
+                                                                 let (
+                                                                   ex, n3) =
+                                                                   p4
+                                                                 in
+                                                                 (match n3 with
+                                                                  | O -> None
+                                                                  | S _ ->
+                                                                    (match l with
+                                                                    | [] ->
+                                                                    let p5 =
+                                                                    inject_Z
+                                                                    (Z.pow
+                                                                    (Zpos (XO
+                                                                    (XI (XO
+                                                                    XH)))) ex)
+                                                                    in
+                                                                    Some
+                                                                    (
+                                                                    if neg
+                                                                    then 
+                                                                    qdiv
+                                                                    base0 p5
+                                                                    else 
+                                                                    qmult
+                                                                    base0 p5)
+                                                                    | _ :: _ ->
+                                                                    None))
+                                                               | None -> None))
+                                                         a0)
+                                               else None)
+                        else let p1 = ((ip, O), rest) in
+                             let n2 = O in
+                             let (p2, rest2) = p1 in
+                             let (mant, scale) = p2 in
+                             if Nat.eqb (add n1 n2) O
+                             then None
+                             else let base = { qnum = mant; qden =
+                                    (Coq_Pos.pow (XO (XI (XO XH)))
+                                      (Coq_Pos.of_nat scale)) }
+                                  in
+                                  let base0 =
+                                    if Nat.eqb scale O
+                                    then inject_Z mant
+                                    else base
+                                  in
+                                  (match rest2 with
+                                   | [] -> Some base0
+                                   | e :: r0 ->
+                                     if (||) ((=) e 'e') ((=) e 'E')
+                                     then (match r0 with
+                                           | [] ->
+                                             let neg = false in
+                                             (match dec_digits r0 Z0 O with
+                                              | Some p3 ->
+                                                let (p4, l) = p3 in
+                                                let (ex, n3) = p4 in
+                                                (match n3 with
+                                                 | O -> None
+                                                 | S _ ->
+                                                   (match l with
+                                                    | [] ->
+                                                      let p5 =
+                                                        inject_Z
+                                                          (Z.pow (Zpos (XO
+                                                            (XI (XO XH)))) ex)
+                                                      in
+                                                      Some
+                                                      (if neg
+                                                       then qdiv base0 p5
+                                                       else qmult base0 p5)
+                                                    | _ :: _ -> None))
+                                              | None -> None)
+                                           | a0 :: t ->
+                                             (* If this appears, you're using Ascii internals. Please don't *)
+ (fun f c ->
+  let n = Char.code c in
+  let h i = (n land (1 lsl i)) <> 0 in
+  f (h 0) (h 1) (h 2) (h 3) (h 4) (h 5) (h 6) (h 7))
+                                               (fun b7 b8 b9 b10 b11 b12 b13 b14 ->
+                                               if b7
+                                               then if b8
+                                                    then if b9
+                                                         then let neg = false
+                                                              in
+                                                              (match 
+                                                               dec_digits r0
+                                                                 Z0 O with
+                                                               | Some p3 ->
+                                                                 let (
+                                                                   p4, l) = p3
+                                                                 in
+                                                                 let (
+                                                                   ex, n3) =
+                                                                   p4
+                                                                 in
+                                                                 (match n3 with
+                                                                  | O -> None
+                                                                  | S _ ->
+                                                                    (match l with
+                                                                    | [] ->
+                                                                    let p5 =
+                                                                    inject_Z
+                                                                    (Z.pow
+                                                                    (Zpos (XO
+                                                                    (XI (XO
+                                                                    XH)))) ex)
+                                                                    in
+                                                                    Some
+                                                                    (
+                                                                    if neg
+                                                                    then 
+                                                                    qdiv
+                                                                    base0 p5
+                                                                    else 
+                                                                    qmult
+                                                                    base0 p5)
+                                                                    | _ :: _ ->
+                                                                    None))
+                                                               | None -> None)
+                                                         else if b10
+                                                              then if b11
+                                                                   then 
+                                                                    let neg =
+                                                                    false
+                                                                    in
+                                                                    (
+                                                                    match 
+                                                                    dec_digits
+                                                                    r0 Z0 O with
+                                                                    | Some p3 ->
+                                                                    let (
+                                                                    p4, l) =
+                                                                    p3
+                                                                    in
+                                                                    let (
+                                                                    ex, n3) =
+                                                                    p4
+                                                                    in
+                                                                    (
+                                                                    match n3 with
+                                                                    | O ->
+                                                                    None
+                                                                    | S _ ->
+                                                                    (match l with
+                                                                    | [] ->
+                                                                    let p5 =
+                                                                    inject_Z
+                                                                    (Z.pow
+                                                                    (Zpos (XO
+                                                                    (XI (XO
+                                                                    XH)))) ex)
+                                                                    in
+                                                                    Some
+                                                                    (
+                                                                    if neg
+                                                                    then 
+                                                                    qdiv
+                                                                    base0 p5
+                                                                    else 
+                                                                    qmult
+                                                                    base0 p5)
+                                                                    | _ :: _ ->
+                                                                    None))
+                                                                    | None ->
+                                                                    None)
+                                                                   else 
+                                                                    if b12
+                                                                    then 
+                                                                    if b13
+                                                                    then 
+                                                                    let neg =
+                                                                    false
+                                                                    in
+                                                                    (
+                                                                    match 
+                                                                    dec_digits
+                                                                    r0 Z0 O with
+                                                                    | Some p3 ->
+                                                                    let (
+                                                                    p4, l) =
+                                                                    p3
+                                                                    in
+                                                                    let (
+                                                                    ex, n3) =
+                                                                    p4
+                                                                    in
+                                                                    (
+                                                                    match n3 with
+                                                                    | O ->
+                                                                    None
+                                                                    | S _ ->
+                                                                    (match l with
+                                                                    | [] ->
+                                                                    let p5 =
+                                                                    inject_Z
+                                                                    (Z.pow
+                                                                    (Zpos (XO
+                                                                    (XI (XO
+                                                                    XH)))) ex)
+                                                                    in
+                                                                    Some
+                                                                    (
+                                                                    if neg
+                                                                    then 
+                                                                    qdiv
+                                                                    base0 p5
+                                                                    else 
+                                                                    qmult
+                                                                    base0 p5)
+                                                                    | _ :: _ ->
+                                                                    None))
+                                                                    | None ->
+                                                                    None)
+                                                                    else 
+                                                                    if b14
+                                                                    then 
+                                                                    let neg =
+                                                                    false
+                                                                    in
+                                                                    (
+                                                                    match 
+                                                                    dec_digits
+                                                                    r0 Z0 O with
+                                                                    | Some p3 ->
+                                                                    let (
+                                                                    p4, l) =
+                                                                    p3
+                                                                    in
+                                                                    let (
+                                                                    ex, n3) =
+                                                                    p4
+                                                                    in
+                                                                    (
+                                                                    match n3 with
+                                                                    | O ->
+                                                                    None
+                                                                    | S _ ->
+                                                                    (match l with
+                                                                    | [] ->
+                                                                    let p5 =
+                                                                    inject_Z
+                                                                    (Z.pow
+                                                                    (Zpos (XO
+                                                                    (XI (XO
+                                                                    XH)))) ex)
+                                                                    in
+                                                                    Some
+                                                                    (
+                                                                    if neg
+                                                                    then 
+                                                                    qdiv
+                                                                    base0 p5
+                                                                    else 
+                                                                    qmult
+                                                                    base0 p5)
+                                                                    | _ :: _ ->
+                                                                    None))
+                                                                    | None ->
+                                                                    None)
+                                                                    else 
+                                                                    let neg =
+                                                                    false
+                                                                    in
+                                                                    (
+                                                                    match 
+                                                                    dec_digits
+                                                                    t Z0 O with
+                                                                    | Some p3 ->
+                                                                    let (
+                                                                    p4, l) =
+                                                                    p3
+                                                                    in
+                                                                    let (
+                                                                    ex, n3) =
+                                                                    p4
+                                                                    in
+                                                                    (
+                                                                    match n3 with
+                                                                    | O ->
+                                                                    None
+                                                                    | S _ ->
+                                                                    (match l with
+                                                                    | [] ->
+                                                                    let p5 =
+                                                                    inject_Z
+                                                                    (Z.pow
+                                                                    (Zpos (XO
+                                                                    (XI (XO
+                                                                    XH)))) ex)
+                                                                    in
+                                                                    Some
+                                                                    (
+                                                                    if neg
+                                                                    then 
+                                                                    qdiv
+                                                                    base0 p5
+                                                                    else 
+                                                                    qmult
+                                                                    base0 p5)
+                                                                    | _ :: _ ->
+                                                                    None))
+                                                                    | None ->
+                                                                    None)
+                                                                    else 
+                                                                    let neg =
+                                                                    false
+                                                                    in
+                                                                    (
+                                                                    match 
+                                                                    dec_digits
+                                                                    r0 Z0 O with
+                                                                    | Some p3 ->
+                                                                    let (
+                                                                    p4, l) =
+                                                                    p3
+                                                                    in
+                                                                    let (
+                                                                    ex, n3) =
+                                                                    p4
+                                                                    in
+                                                                    (
+                                                                    match n3 with
+                                                                    | O ->
+                                                                    None
+                                                                    | S _ ->
+                                                                    (match l with
+                                                                    | [] ->
+                                                                    let p5 =
+                                                                    inject_Z
+                                                                    (Z.pow
+                                                                    (Zpos (XO
+                                                                    (XI (XO
+                                                                    XH)))) ex)
+                                                                    in
+                                                                    Some
+                                                                    (
+                                                                    if neg
+                                                                    then 
+                                                                    qdiv
+                                                                    base0 p5
+                                                                    else 
+                                                                    qmult
+                                                                    base0 p5)
+                                                                    | _ :: _ ->
+                                                                    None))
+                                                                    | None ->
+                                                                    None)
+                                                              else let neg =
+                                                                    false
+                                                                   in
+                                                                   (match 
+                                                                    dec_digits
+                                                                    r0 Z0 O with
+                                                                    | Some p3 ->
+                                                                    let (
+                                                                    p4, l) =
+                                                                    p3
+                                                                    in
+                                                                    let (
+                                                                    ex, n3) =
+                                                                    p4
+                                                                    in
+                                                                    (
+                                                                    match n3 with
+                                                                    | O ->
+                                                                    None
+                                                                    | S _ ->
+                                                                    (match l with
+                                                                    | [] ->
+                                                                    let p5 =
+                                                                    inject_Z
+                                                                    (Z.pow
+                                                                    (Zpos (XO
+                                                                    (XI (XO
+                                                                    XH)))) ex)
+                                                                    in
+                                                                    Some
+                                                                    (
+                                                                    if neg
+                                                                    then 
+                                                                    qdiv
+                                                                    base0 p5
+                                                                    else 
+                                                                    qmult
+                                                                    base0 p5)
+                                                                    | _ :: _ ->
+                                                                    None))
+                                                                    | None ->
+                                                                    None)
+                                                    else if b9
+                                                         then if b10
+                                                              then if b11
+                                                                   then 
+                                                                    let neg =
+                                                                    false
+                                                                    in
+                                                                    (
+                                                                    match 
+                                                                    dec_digits
+                                                                    r0 Z0 O with
+                                                                    | Some p3 ->
+                                                                    let (
+                                                                    p4, l) =
+                                                                    p3
+                                                                    in
+                                                                    let (
+                                                                    ex, n3) =
+                                                                    p4
+                                                                    in
+                                                                    (
+                                                                    match n3 with
+                                                                    | O ->
+                                                                    None
+                                                                    | S _ ->
+                                                                    (match l with
+                                                                    | [] ->
+                                                                    let p5 =
+                                                                    inject_Z
+                                                                    (Z.pow
+                                                                    (Zpos (XO
+                                                                    (XI (XO
+                                                                    XH)))) ex)
+                                                                    in
+                                                                    Some
+                                                                    (
+                                                                    if neg
+                                                                    then 
+                                                                    qdiv
+                                                                    base0 p5
+                                                                    else 
+                                                                    qmult
+                                                                    base0 p5)
+                                                                    | _ :: _ ->
+                                                                    None))
+                                                                    | None ->
+                                                                    None)
+                                                                   else 
+                                                                    if b12
+                                                                    then 
+                                                                    if b13
+                                                                    then 
+                                                                    let neg =
+                                                                    false
+                                                                    in
+                                                                    (
+                                                                    match 
+                                                                    dec_digits
+                                                                    r0 Z0 O with
+                                                                    | Some p3 ->
+                                                                    let (
+                                                                    p4, l) =
+                                                                    p3
+                                                                    in
+                                                                    let (
+                                                                    ex, n3) =
+                                                                    p4
+                                                                    in
+                                                                    (
+                                                                    match n3 with
+                                                                    | O ->
+                                                                    None
+                                                                    | S _ ->
+                                                                    (match l with
+                                                                    | [] ->
+                                                                    let p5 =
+                                                                    inject_Z
+                                                                    (Z.pow
+                                                                    (Zpos (XO
+                                                                    (XI (XO
+                                                                    XH)))) ex)
+                                                                    in
+                                                                    Some
+                                                                    (
+                                                                    if neg
+                                                                    then 
+                                                                    qdiv
+                                                                    base0 p5
+                                                                    else 
+                                                                    qmult
+                                                                    base0 p5)
+                                                                    | _ :: _ ->
+                                                                    None))
+                                                                    | None ->
+                                                                    None)
+                                                                    else 
+                                                                    if b14
+                                                                    then 
+                                                                    let neg =
+                                                                    false
+                                                                    in
+                                                                    (
+                                                                    match 
+                                                                    dec_digits
+                                                                    r0 Z0 O with
+                                                                    | Some p3 ->
+                                                                    let (
+                                                                    p4, l) =
+                                                                    p3
+                                                                    in
+                                                                    let (
+                                                                    ex, n3) =
+                                                                    p4
+                                                                    in
+                                                                    (
+                                                                    match n3 with
+                                                                    | O ->
+                                                                    None
+                                                                    | S _ ->
+                                                                    (match l with
+                                                                    | [] ->
+                                                                    let p5 =
+                                                                    inject_Z
+                                                                    (Z.pow
+                                                                    (Zpos (XO
+                                                                    (XI (XO
+                                                                    XH)))) ex)
+                                                                    in
+                                                                    Some
+                                                                    (
+                                                                    if neg
+                                                                    then 
+                                                                    qdiv
+                                                                    base0 p5
+                                                                    else 
+                                                                    qmult
+                                                                    base0 p5)
+                                                                    | _ :: _ ->
+                                                                    None))
+                                                                    | None ->
+                                                                    None)
+                                                                    else 
+                                                                    let neg =
+                                                                    true
+                                                                    in
+                                                                    (
+                                                                    match 
+                                                                    dec_digits
+                                                                    t Z0 O with
+                                                                    | Some p3 ->
+                                                                    let (
+                                                                    p4, l) =
+                                                                    p3
+                                                                    in
+                                                                    let (
+                                                                    ex, n3) =
+                                                                    p4
+                                                                    in
+                                                                    (
+                                                                    match n3 with
+                                                                    | O ->
+                                                                    None
+                                                                    | S _ ->
+                                                                    (match l with
+                                                                    | [] ->
+                                                                    let p5 =
+                                                                    inject_Z
+                                                                    (Z.pow
+                                                                    (Zpos (XO
+                                                                    (XI (XO
+                                                                    XH)))) ex)
+                                                                    in
+                                                                    Some
+                                                                    (
+                                                                    if neg
+                                                                    then 
+                                                                    qdiv
+                                                                    base0 p5
+                                                                    else 
+                                                                    qmult
+                                                                    base0 p5)
+                                                                    | _ :: _ ->
+                                                                    None))
+                                                                    | None ->
+                                                                    None)
+                                                                    else 
+                                                                    let neg =
+                                                                    false
+                                                                    in
+                                                                    (
+                                                                    match 
+                                                                    dec_digits
+                                                                    r0 Z0 O with
+                                                                    | Some p3 ->
+                                                                    let (
+                                                                    p4, l) =
+                                                                    p3
+                                                                    in
+                                                                    let (
+                                                                    ex, n3) =
+                                                                    p4
+                                                                    in
+                                                                    (
+                                                                    match n3 with
+                                                                    | O ->
+                                                                    None
+                                                                    | S _ ->
+                                                                    (match l with
+                                                                    | [] ->
+                                                                    let p5 =
+                                                                    inject_Z
+                                                                    (Z.pow
+                                                                    (Zpos (XO
+                                                                    (XI (XO
+                                                                    XH)))) ex)
+                                                                    in
+                                                                    Some
+                                                                    (
+                                                                    if neg
+                                                                    then 
+                                                                    qdiv
+                                                                    base0 p5
+                                                                    else 
+                                                                    qmult
+                                                                    base0 p5)
+                                                                    | _ :: _ ->
+                                                                    None))
+                                                                    | None ->
+                                                                    None)
+                                                              else let neg =
+                                                                    false
+                                                                   in
+                                                                   (match 
+                                                                    dec_digits
+                                                                    r0 Z0 O with
+                                                                    | Some p3 ->
+                                                                    let (
+                                                                    p4, l) =
+                                                                    p3
+                                                                    in
+                                                                    let (
+                                                                    ex, n3) =
+                                                                    p4
+                                                                    in
+                                                                    (
+                                                                    match n3 with
+                                                                    | O ->
+                                                                    None
+                                                                    | S _ ->
+                                                                    (match l with
+                                                                    | [] ->
+                                                                    let p5 =
+                                                                    inject_Z
+                                                                    (Z.pow
+                                                                    (Zpos (XO
+                                                                    (XI (XO
+                                                                    XH)))) ex)
+                                                                    in
+                                                                    Some
+                                                                    (
+                                                                    if neg
+                                                                    then 
+                                                                    qdiv
+                                                                    base0 p5
+                                                                    else 
+                                                                    qmult
+                                                                    base0 p5)
+                                                                    | _ :: _ ->
+                                                                    None))
+                                                                    | None ->
+                                                                    None)
+                                                         else let neg = false
+                                                              in
+                                                              (match 
+                                                               dec_digits r0
+                                                                 Z0 O with
+                                                               | Some p3 ->
+                                                                 let (
+                                                                   p4, l) = p3
+                                                                 in
+                                                                 let (
+                                                                   ex, n3) =
+                                                                   p4
+                                                                 in
+                                                                 (match n3 with
+                                                                  | O -> None
+                                                                  | S _ ->
+                                                                    (match l with
+                                                                    | [] ->
+                                                                    let p5 =
+                                                                    inject_Z
+                                                                    (Z.pow
+                                                                    (Zpos (XO
+                                                                    (XI (XO
+                                                                    XH)))) ex)
+                                                                    in
+                                                                    Some
+                                                                    (
+                                                                    if neg
+                                                                    then 
+                                                                    qdiv
+                                                                    base0 p5
+                                                                    else 
+                                                                    qmult
+                                                                    base0 p5)
+                                                                    | _ :: _ ->
+                                                                    None))
+                                                               | None -> None)
+                                               else let neg = false in
+                                                    (match dec_digits r0 Z0 O with
+                                                     | Some p3 ->
+                                                       let (p4, l) = p3 in
+                                                       let (ex, n3) = p4 in
+                                                       (match n3 with
+                                                        | O -> None
+                                                        | S _ ->
+                                                          (match l with
+                                                           | [] ->
+                                                             let p5 =
+                                                               inject_Z
+                                                                 (Z.pow (Zpos
+                                                                   (XO (XI
+                                                                   (XO XH))))
+                                                                   ex)
+                                                             in
+                                                             Some
+                                                             (if neg
+                                                              then qdiv base0
+                                                                    p5
+                                                              else qmult
+                                                                    base0 p5)
+                                                           | _ :: _ -> None))
+                                                     | None -> None))
+                                               a0)
+                                     else None)
+                   else let p1 = ((ip, O), rest) in
+                        let n2 = O in
+                        let (p2, rest2) = p1 in
+                        let (mant, scale) = p2 in
+                        if Nat.eqb (add n1 n2) O
+                        then None
+                        else let base = { qnum = mant; qden =
+                               (Coq_Pos.pow (XO (XI (XO XH)))
+                                 (Coq_Pos.of_nat scale)) }
+                             in
+                             let base0 =
+                               if Nat.eqb scale O then inject_Z mant else base
+                             in
+                             (match rest2 with
+                              | [] -> Some base0
+                              | e :: r0 ->
+                                if (||) ((=) e 'e') ((=) e 'E')
+                                then (match r0 with
+                                      | [] ->
+                                        let neg = false in
+                                        (match dec_digits r0 Z0 O with
+                                         | Some p3 ->
+                                           let (p4, l) = p3 in
+                                           let (ex, n3) = p4 in
+                                           (match n3 with
+                                            | O -> None
+                                            | S _ ->
+                                              (match l with
+                                               | [] ->
+                                                 let p5 =
+                                                   inject_Z
+                                                     (Z.pow (Zpos (XO (XI (XO
+                                                       XH)))) ex)
+                                                 in
+                                                 Some
+                                                 (if neg
+                                                  then qdiv base0 p5
+                                                  else qmult base0 p5)
+                                               | _ :: _ -> None))
+                                         | None -> None)
+                                      | a0 :: t ->
+                                        (* If this appears, you're using Ascii internals. Please don't *)
+ (fun f c ->
+  let n = Char.code c in
+  let h i = (n land (1 lsl i)) <> 0 in
+  f (h 0) (h 1) (h 2) (h 3) (h 4) (h 5) (h 6) (h 7))
+                                          (fun b7 b8 b9 b10 b11 b12 b13 b14 ->
+                                          if b7
+                                          then if b8
+                                               then if b9
+                                                    then let neg = false in
+                                                         (match dec_digits r0
+                                                                  Z0 O with
+                                                          | Some p3 ->
+                                                            let (p4, l) = p3
+                                                            in
+                                                            let (ex, n3) = p4
+                                                            in
+                                                            (match n3 with
+                                                             | O -> None
+                                                             | S _ ->
+                                                               (match l with
+                                                                | [] ->
+                                                                  let p5 =
+                                                                    inject_Z
+                                                                    (Z.pow
+                                                                    (Zpos (XO
+                                                                    (XI (XO
+                                                                    XH)))) ex)
+                                                                  in
+                                                                  Some
+                                                                  (if neg
+                                                                   then 
+                                                                    qdiv
+                                                                    base0 p5
+                                                                   else 
+                                                                    qmult
+                                                                    base0 p5)
+                                                                | _ :: _ ->
+                                                                  None))
+                                                          | None -> None)
+                                                    else if b10
+                                                         then if b11
+                                                              then let neg =
+                                                                    false
+                                                                   in
+                                                                   (match 
+                                                                    dec_digits
+                                                                    r0 Z0 O with
+                                                                    | Some p3 ->
+                                                                    let (
+                                                                    p4, l) =
+                                                                    p3
+                                                                    in
+                                                                    let (
+                                                                    ex, n3) =
+                                                                    p4
+                                                                    in
+                                                                    (
+                                                                    match n3 with
+                                                                    | O ->
+                                                                    None
+                                                                    | S _ ->
+                                                                    (match l with
+                                                                    | [] ->
+                                                                    let p5 =
+                                                                    inject_Z
+                                                                    (Z.pow
+                                                                    (Zpos (XO
+                                                                    (XI (XO
+                                                                    XH)))) ex)
+                                                                    in
+                                                                    Some
+                                                                    (
+                                                                    if neg
+                                                                    then 
+                                                                    qdiv
+                                                                    base0 p5
+                                                                    else 
+                                                                    qmult
+                                                                    base0 p5)
+                                                                    | _ :: _ ->
+                                                                    None))
+                                                                    | None ->
+                                                                    None)
+                                                              else if b12
+                                                                   then 
+                                                                    if b13
+                                                                    then 
+                                                                    let neg =
+                                                                    false
+                                                                    in
+                                                                    (
+                                                                    match 
+                                                                    dec_digits
+                                                                    r0 Z0 O with
+                                                                    | Some p3 ->
+                                                                    let (
+                                                                    p4, l) =
+                                                                    p3
+                                                                    in
+                                                                    let (
+                                                                    ex, n3) =
+                                                                    p4
+                                                                    in
+                                                                    (
+                                                                    match n3 with
+                                                                    | O ->
+                                                                    None
+                                                                    | S _ ->
+                                                                    (match l with
+                                                                    | [] ->
+                                                                    let p5 =
+                                                                    inject_Z
+                                                                    (Z.pow
+                                                                    (Zpos (XO
+                                                                    (XI (XO
+                                                                    XH)))) ex)
+                                                                    in
+                                                                    Some
+                                                                    (
+                                                                    if neg
+                                                                    then 
+                                                                    qdiv
+                                                                    base0 p5
+                                                                    else 
+                                                                    qmult
+                                                                    base0 p5)
+                                                                    | _ :: _ ->
+                                                                    None))
+                                                                    | None ->
+                                                                    None)
+                                                                    else 
+                                                                    if b14
+                                                                    then 
+                                                                    let neg =
+                                                                    false
+                                                                    in
+                                                                    (
+                                                                    match 
+                                                                    dec_digits
+                                                                    r0 Z0 O with
+                                                                    | Some p3 ->
+                                                                    let (
+                                                                    p4, l) =
+                                                                    p3
+                                                                    in
+                                                                    let (
+                                                                    ex, n3) =
+                                                                    p4
+                                                                    in
+                                                                    (
+                                                                    match n3 with
+                                                                    | O ->
+                                                                    None
+                                                                    | S _ ->
+                                                                    (match l with
+                                                                    | [] ->
+                                                                    let p5 =
+                                                                    inject_Z
+                                                                    (Z.pow
+                                                                    (Zpos (XO
+                                                                    (XI (XO
+                                                                    XH)))) ex)
+                                                                    in
+                                                                    Some
+                                                                    (
+                                                                    if neg
+                                                                    then 
+                                                                    qdiv
+                                                                    base0 p5
+                                                                    else 
+                                                                    qmult
+                                                                    base0 p5)
+                                                                    | _ :: _ ->
+                                                                    None))
+                                                                    | None ->
+                                                                    None)
+                                                                    else 
+                                                                    let neg =
+                                                                    false
+                                                                    in
+                                                                    (
+                                                                    match 
+                                                                    dec_digits
+                                                                    t Z0 O with
+                                                                    | Some p3 ->
+                                                                    let (
+                                                                    p4, l) =
+                                                                    p3
+                                                                    in
+                                                                    let (
+                                                                    ex, n3) =
+                                                                    p4
+                                                                    in
+                                                                    (
+                                                                    match n3 with
+                                                                    | O ->
+                                                                    None
+                                                                    | S _ ->
+                                                                    (match l with
+                                                                    | [] ->
+                                                                    let p5 =
+                                                                    inject_Z
+                                                                    (Z.pow
+                                                                    (Zpos (XO
+                                                                    (XI (XO
+                                                                    XH)))) ex)
+                                                                    in
+                                                                    Some
+                                                                    (
+                                                                    if neg
+                                                                    then 
+                                                                    qdiv
+                                                                    base0 p5
+                                                                    else 
+                                                                    qmult
+                                                                    base0 p5)
+                                                                    | _ :: _ ->
+                                                                    None))
+                                                                    | None ->
+                                                                    None)
+                                                                   else 
+                                                                    let neg =
+                                                                    false
+                                                                    in
+                                                                    (
+                                                                    match 
+                                                                    dec_digits
+                                                                    r0 Z0 O with
+                                                                    | Some p3 ->
+                                                                    let (
+                                                                    p4, l) =
+                                                                    p3
+                                                                    in
+                                                                    let (
+                                                                    ex, n3) =
+                                                                    p4
+                                                                    in
+                                                                    (
+                                                                    match n3 with
+                                                                    | O ->
+                                                                    None
+                                                                    | S _ ->
+                                                                    (match l with
+                                                                    | [] ->
+                                                                    let p5 =
+                                                                    inject_Z
+                                                                    (Z.pow
+                                                                    (Zpos (XO
+                                                                    (XI (XO
+                                                                    XH)))) ex)
+                                                                    in
+                                                                    Some
+                                                                    (
+                                                                    if neg
+                                                                    then 
+                                                                    qdiv
+                                                                    base0 p5
+                                                                    else 
+                                                                    qmult
+                                                                    base0 p5)
+                                                                    | _ :: _ ->
+                                                                    None))
+                                                                    | None ->
+                                                                    None)
+                                                         else let neg = false
+                                                              in
+                                                              (match 
+                                                               dec_digits r0
+                                                                 Z0 O with
+                                                               | Some p3 ->
+                                                                 let (
+                                                                   p4, l) = p3
+                                                                 in
+                                                                 let (
+                                                                   ex, n3) =
+                                                                   p4
+                                                                 in
+                                                                 (match n3 with
+                                                                  | O -> None
+                                                                  | S _ ->
+                                                                    (match l with
+                                                                    | [] ->
+                                                                    let p5 =
+                                                                    inject_Z
+                                                                    (Z.pow
+                                                                    (Zpos (XO
+                                                                    (XI (XO
+                                                                    XH)))) ex)
+                                                                    in
+                                                                    Some
+                                                                    (
+                                                                    if neg
+                                                                    then 
+                                                                    qdiv
+                                                                    base0 p5
+                                                                    else 
+                                                                    qmult
+                                                                    base0 p5)
+                                                                    | _ :: _ ->
+                                                                    None))
+                                                               | None -> None)
+                                               else if b9
+                                                    then if b10
+                                                         then if b11
+                                                              then let neg =
+                                                                    false
+                                                                   in
+                                                                   (match 
+                                                                    dec_digits
+                                                                    r0 Z0 O with
+                                                                    | Some p3 ->
+                                                                    let (
+                                                                    p4, l) =
+                                                                    p3
+                                                                    in
+                                                                    let (
+                                                                    ex, n3) =
+                                                                    p4
+                                                                    in
+                                                                    (
+                                                                    match n3 with
+                                                                    | O ->
+                                                                    None
+                                                                    | S _ ->
+                                                                    (match l with
+                                                                    | [] ->
+                                                                    let p5 =
+                                                                    inject_Z
+                                                                    (Z.pow
+                                                                    (Zpos (XO
+                                                                    (XI (XO
+                                                                    XH)))) ex)
+                                                                    in
+                                                                    Some
+                                                                    (
+                                                                    if neg
+                                                                    then 
+                                                                    qdiv
+                                                                    base0 p5
+                                                                    else 
+                                                                    qmult
+                                                                    base0 p5)
+                                                                    | _ :: _ ->
+                                                                    None))
+                                                                    | None ->
+                                                                    None)
+                                                              else if b12
+                                                                   then 
+                                                                    if b13
+                                                                    then 
+                                                                    let neg =
+                                                                    false
+                                                                    in
+                                                                    (
+                                                                    match 
+                                                                    dec_digits
+                                                                    r0 Z0 O with
+                                                                    | Some p3 ->
+                                                                    let (
+                                                                    p4, l) =
+                                                                    p3
+                                                                    in
+                                                                    let (
+                                                                    ex, n3) =
+                                                                    p4
+                                                                    in
+                                                                    (
+                                                                    match n3 with
+                                                                    | O ->
+                                                                    None
+                                                                    | S _ ->
+                                                                    (match l with
+                                                                    | [] ->
+                                                                    let p5 =
+                                                                    inject_Z
+                                                                    (Z.pow
+                                                                    (Zpos (XO
+                                                                    (XI (XO
+                                                                    XH)))) ex)
+                                                                    in
+                                                                    Some
+                                                                    (
+                                                                    if neg
+                                                                    then 
+                                                                    qdiv
+                                                                    base0 p5
+                                                                    else 
+                                                                    qmult
+                                                                    base0 p5)
+                                                                    | _ :: _ ->
+                                                                    None))
+                                                                    | None ->
+                                                                    None)
+                                                                    else 
+                                                                    if b14
+                                                                    then 
+                                                                    let neg =
+                                                                    false
+                                                                    in
+                                                                    (
+                                                                    match 
+                                                                    dec_digits
+                                                                    r0 Z0 O with
+                                                                    | Some p3 ->
+                                                                    let (
+                                                                    p4, l) =
+                                                                    p3
+                                                                    in
+                                                                    let (
+                                                                    ex, n3) =
+                                                                    p4
+                                                                    in
+                                                                    (
+                                                                    match n3 with
+                                                                    | O ->
+                                                                    None
+                                                                    | S _ ->
+                                                                    (match l with
+                                                                    | [] ->
+                                                                    let p5 =
+                                                                    inject_Z
+                                                                    (Z.pow
+                                                                    (Zpos (XO
+                                                                    (XI (XO
+                                                                    XH)))) ex)
+                                                                    in
+                                                                    Some
+                                                                    (
+                                                                    if neg
+                                                                    then 
+                                                                    qdiv
+                                                                    base0 p5
+                                                                    else 
+                                                                    qmult
+                                                                    base0 p5)
+                                                                    | _ :: _ ->
+                                                                    None))
+                                                                    | None ->
+                                                                    None)
+                                                                    else 
+                                                                    let neg =
+                                                                    true
+                                                                    in
+                                                                    (
+                                                                    match 
+                                                                    dec_digits
+                                                                    t Z0 O with
+                                                                    | Some p3 ->
+                                                                    let (
+                                                                    p4, l) =
+                                                                    p3
+                                                                    in
+                                                                    let (
+                                                                    ex, n3) =
+                                                                    p4
+                                                                    in
+                                                                    (
+                                                                    match n3 with
+                                                                    | O ->
+                                                                    None
+                                                                    | S _ ->
+                                                                    (match l with
+                                                                    | [] ->
+                                                                    let p5 =
+                                                                    inject_Z
+                                                                    (Z.pow
+                                                                    (Zpos (XO
+                                                                    (XI (XO
+                                                                    XH)))) ex)
+                                                                    in
+                                                                    Some
+                                                                    (
+                                                                    if neg
+                                                                    then 
+                                                                    qdiv
+                                                                    base0 p5
+                                                                    else 
+                                                                    qmult
+                                                                    base0 p5)
+                                                                    | _ :: _ ->
+                                                                    None))
+                                                                    | None ->
+                                                                    None)
+                                                                   else 
+                                                                    let neg =
+                                                                    false
+                                                                    in
+                                                                    (
+                                                                    match 
+                                                                    dec_digits
+                                                                    r0 Z0 O with
+                                                                    | Some p3 ->
+                                                                    let (
+                                                                    p4, l) =
+                                                                    p3
+                                                                    in
+                                                                    let (
+                                                                    ex, n3) =
+                                                                    p4
+                                                                    in
+                                                                    (
+                                                                    match n3 with
+                                                                    | O ->
+                                                                    None
+                                                                    | S _ ->
+                                                                    (match l with
+                                                                    | [] ->
+                                                                    let p5 =
+                                                                    inject_Z
+                                                                    (Z.pow
+                                                                    (Zpos (XO
+                                                                    (XI (XO
+                                                                    XH)))) ex)
+                                                                    in
+                                                                    Some
+                                                                    (
+                                                                    if neg
+                                                                    then 
+                                                                    qdiv
+                                                                    base0 p5
+                                                                    else 
+                                                                    qmult
+                                                                    base0 p5)
+                                                                    | _ :: _ ->
+                                                                    None))
+                                                                    | None ->
+                                                                    None)
+                                                         else let neg = false
+                                                              in
+                                                              (match 
+                                                               dec_digits r0
+                                                                 Z0 O with
+                                                               | Some p3 ->
+                                                                 let (
+                                                                   p4, l) = p3
+                                                                 in
+                                                                 let (
+                                                                   ex, n3) =
+                                                                   p4
+                                                                 in
+                                                                 (match n3 with
+                                                                  | O -> None
+                                                                  | S _ ->
+                                                                    (match l with
+                                                                    | [] ->
+                                                                    let p5 =
+                                                                    inject_Z
+                                                                    (Z.pow
+                                                                    (Zpos (XO
+                                                                    (XI (XO
+                                                                    XH)))) ex)
+                                                                    in
+                                                                    Some
+                                                                    (
+                                                                    if neg
+                                                                    then 
+                                                                    qdiv
+                                                                    base0 p5
+                                                                    else 
+                                                                    qmult
+                                                                    base0 p5)
+                                                                    | _ :: _ ->
+                                                                    None))
+                                                               | None -> None)
+                                                    else let neg = false in
+                                                         (match dec_digits r0
+                                                                  Z0 O with
+                                                          | Some p3 ->
+                                                            let (p4, l) = p3
+                                                            in
+                                                            let (ex, n3) = p4
+                                                            in
+                                                            (match n3 with
+                                                             | O -> None
+                                                             | S _ ->
+                                                               (match l with
+                                                                | [] ->
+                                                                  let p5 =
+                                                                    inject_Z
+                                                                    (Z.pow
+                                                                    (Zpos (XO
+                                                                    (XI (XO
+                                                                    XH)))) ex)
+                                                                  in
+                                                                  Some
+                                                                  (if neg
+                                                                   then 
+                                                                    qdiv
+                                                                    base0 p5
+                                                                   else 
+                                                                    qmult
+                                                                    base0 p5)
+                                                                | _ :: _ ->
+                                                                  None))
+                                                          | None -> None)
+                                          else let neg = false in
+                                               (match dec_digits r0 Z0 O with
+                                                | Some p3 ->
+                                                  let (p4, l) = p3 in
+                                                  let (ex, n3) = p4 in
+                                                  (match n3 with
+                                                   | O -> None
+                                                   | S _ ->
+                                                     (match l with
+                                                      | [] ->
+                                                        let p5 =
+                                                          inject_Z
+                                                            (Z.pow (Zpos (XO
+                                                              (XI (XO XH))))
+                                                              ex)
+                                                        in
+                                                        Some
+                                                        (if neg
+                                                         then qdiv base0 p5
+                                                         else qmult base0 p5)
+                                                      | _ :: _ -> None))
+                                                | None -> None))
+                                          a0)
+                                else None)
+              else let p1 = ((ip, O), rest) in
+                   let n2 = O in
+                   let (p2, rest2) = p1 in
+                   let (mant, scale) = p2 in
+                   if Nat.eqb (add n1 n2) O
+                   then None
+                   else let base = { qnum = mant; qden =
+                          (Coq_Pos.pow (XO (XI (XO XH)))
+                            (Coq_Pos.of_nat scale)) }
+                        in
+                        let base0 =
+                          if Nat.eqb scale O then inject_Z mant else base
+                        in
+                        (match rest2 with
+                         | [] -> Some base0
+                         | e :: r0 ->
+                           if (||) ((=) e 'e') ((=) e 'E')
+                           then (match r0 with
+                                 | [] ->
+                                   let neg = false in
+                                   (match dec_digits r0 Z0 O with
+                                    | Some p3 ->
+                                      let (p4, l) = p3 in
+                                      let (ex, n3) = p4 in
+                                      (match n3 with
+                                       | O -> None
+                                       | S _ ->
+                                         (match l with
+                                          | [] ->
+                                            let p5 =
+                                              inject_Z
+                                                (Z.pow (Zpos (XO (XI (XO
+                                                  XH)))) ex)
+                                            in
+                                            Some
+                                            (if neg
+                                             then qdiv base0 p5
+                                             else qmult base0 p5)
+                                          | _ :: _ -> None))
+                                    | None -> None)
+                                 | a0 :: t ->
+                                   (* If this appears, you're using Ascii internals. Please don't *)
+ (fun f c ->
+  let n = Char.code c in
+  let h i = (n land (1 lsl i)) <> 0 in
+  f (h 0) (h 1) (h 2) (h 3) (h 4) (h 5) (h 6) (h 7))
+                                     (fun b7 b8 b9 b10 b11 b12 b13 b14 ->
+                                     if b7
+                                     then if b8
+                                          then if b9
+                                               then let neg = false in
+                                                    (match dec_digits r0 Z0 O with
+                                                     | Some p3 ->
+                                                       let (p4, l) = p3 in
+                                                       let (ex, n3) = p4 in
+                                                       (match n3 with
+                                                        | O -> None
+                                                        | S _ ->
+                                                          (match l with
+                                                           | [] ->
+                                                             let p5 =
+                                                               inject_Z
+                                                                 (Z.pow (Zpos
+                                                                   (XO (XI
+                                                                   (XO XH))))
+                                                                   ex)
+                                                             in
+                                                             Some
+                                                             (if neg
+                                                              then qdiv base0
+                                                                    p5
+                                                              else qmult
+                                                                    base0 p5)
+                                                           | _ :: _ -> None))
+                                                     | None -> None)
+                                               else if b10
+                                                    then if b11
+                                                         then let neg = false
+                                                              in
+                                                              (match 
+                                                               dec_digits r0
+                                                                 Z0 O with
+                                                               | Some p3 ->
+                                                                 let (
+                                                                   p4, l) = p3
+                                                                 in
+                                                                 let (
+                                                                   ex, n3) =
+                                                                   p4
+                                                                 in
+                                                                 (match n3 with
+                                                                  | O -> None
+                                                                  | S _ ->
+                                                                    (match l with
+                                                                    | [] ->
+                                                                    let p5 =
+                                                                    inject_Z
+                                                                    (Z.pow
+                                                                    (Zpos (XO
+                                                                    (XI (XO
+                                                                    XH)))) ex)
+                                                                    in
+                                                                    Some
+                                                                    (
+                                                                    if neg
+                                                                    then 
+                                                                    qdiv
+                                                                    base0 p5
+                                                                    else 
+                                                                    qmult
+                                                                    base0 p5)
+                                                                    | _ :: _ ->
+                                                                    None))
+                                                               | None -> None)
+                                                         else if b12
+                                                              then if b13
+                                                                   then 
+                                                                    let neg =
+                                                                    false
+                                                                    in
+                                                                    (
+                                                                    match 
+                                                                    dec_digits
+                                                                    r0 Z0 O with
+                                                                    | Some p3 ->
+                                                                    let (
+                                                                    p4, l) =
+                                                                    p3
+                                                                    in
+                                                                    let (
+                                                                    ex, n3) =
+                                                                    p4
+                                                                    in
+                                                                    (
+                                                                    match n3 with
+                                                                    | O ->
+                                                                    None
+                                                                    | S _ ->
+                                                                    (match l with
+                                                                    | [] ->
+                                                                    let p5 =
+                                                                    inject_Z
+                                                                    (Z.pow
+                                                                    (Zpos (XO
+                                                                    (XI (XO
+                                                                    XH)))) ex)
+                                                                    in
+                                                                    Some
+                                                                    (
+                                                                    if neg
+                                                                    then 
+                                                                    qdiv
+                                                                    base0 p5
+                                                                    else 
+                                                                    qmult
+                                                                    base0 p5)
+                                                                    | _ :: _ ->
+                                                                    None))
+                                                                    | None ->
+                                                                    None)
+                                                                   else 
+                                                                    if b14
+                                                                    then 
+                                                                    let neg =
+                                                                    false
+                                                                    in
+                                                                    (
+                                                                    match 
+                                                                    dec_digits
+                                                                    r0 Z0 O with
+                                                                    | Some p3 ->
+                                                                    let (
+                                                                    p4, l) =
+                                                                    p3
+                                                                    in
+                                                                    let (
+                                                                    ex, n3) =
+                                                                    p4
+                                                                    in
+                                                                    (
+                                                                    match n3 with
+                                                                    | O ->
+                                                                    None
+                                                                    | S _ ->
+                                                                    (match l with
+                                                                    | [] ->
+                                                                    let p5 =
+                                                                    inject_Z
+                                                                    (Z.pow
+                                                                    (Zpos (XO
+                                                                    (XI (XO
+                                                                    XH)))) ex)
+                                                                    in
+                                                                    Some
+                                                                    (
+                                                                    if neg
+                                                                    then 
+                                                                    qdiv
+                                                                    base0 p5
+                                                                    else 
+                                                                    qmult
+                                                                    base0 p5)
+                                                                    | _ :: _ ->
+                                                                    None))
+                                                                    | None ->
+                                                                    None)
+                                                                    else 
+                                                                    let neg =
+                                                                    false
+                                                                    in
+                                                                    (
+                                                                    match 
+                                                                    dec_digits
+                                                                    t Z0 O with
+                                                                    | Some p3 ->
+                                                                    let (
+                                                                    p4, l) =
+                                                                    p3
+                                                                    in
+                                                                    let (
+                                                                    ex, n3) =
+                                                                    p4
+                                                                    in
+                                                                    (
+                                                                    match n3 with
+                                                                    | O ->
+                                                                    None
+                                                                    | S _ ->
+                                                                    (match l with
+                                                                    | [] ->
+                                                                    let p5 =
+                                                                    inject_Z
+                                                                    (Z.pow
+                                                                    (Zpos (XO
+                                                                    (XI (XO
+                                                                    XH)))) ex)
+                                                                    in
+                                                                    Some
+                                                                    (
+                                                                    if neg
+                                                                    then 
+                                                                    qdiv
+                                                                    base0 p5
+                                                                    else 
+                                                                    qmult
+                                                                    base0 p5)
+                                                                    | _ :: _ ->
+                                                                    None))
+                                                                    | None ->
+                                                                    None)
+                                                              else let neg =
+                                                                    false
+                                                                   in
+                                                                   (match 
+                                                                    dec_digits
+                                                                    r0 Z0 O with
+                                                                    | Some p3 ->
+                                                                    let (
+                                                                    p4, l) =
+                                                                    p3
+                                                                    in
+                                                                    let (
+                                                                    ex, n3) =
+                                                                    p4
+                                                                    in
+                                                                    (
+                                                                    match n3 with
+                                                                    | O ->
+                                                                    None
+                                                                    | S _ ->
+                                                                    (match l with
+                                                                    | [] ->
+                                                                    let p5 =
+                                                                    inject_Z
+                                                                    (Z.pow
+                                                                    (Zpos (XO
+                                                                    (XI (XO
+                                                                    XH)))) ex)
+                                                                    in
+                                                                    Some
+                                                                    (
+                                                                    if neg
+                                                                    then 
+                                                                    qdiv
+                                                                    base0 p5
+                                                                    else 
+                                                                    qmult
+                                                                    base0 p5)
+                                                                    | _ :: _ ->
+                                                                    None))
+                                                                    | None ->
+                                                                    None)
+                                                    else let neg = false in
+                                                         (match dec_digits r0
+                                                                  Z0 O with
+                                                          | Some p3 ->
+                                                            let (p4, l) = p3
+                                                            in
+                                                            let (ex, n3) = p4
+                                                            in
+                                                            (match n3 with
+                                                             | O -> None
+                                                             | S _ ->
+                                                               (match l with
+                                                                | [] ->
+                                                                  let p5 =
+                                                                    inject_Z
+                                                                    (Z.pow
+                                                                    (Zpos (XO
+                                                                    (XI (XO
+                                                                    XH)))) ex)
+                                                                  in
+                                                                  Some
+                                                                  (if neg
+                                                                   then 
+                                                                    qdiv
+                                                                    base0 p5
+                                                                   else 
+                                                                    qmult
+                                                                    base0 p5)
+                                                                | _ :: _ ->
+                                                                  None))
+                                                          | None -> None)
+                                          else if b9
+                                               then if b10
+                                                    then if b11
+                                                         then let neg = false
+                                                              in
+                                                              (match 
+                                                               dec_digits r0
+                                                                 Z0 O with
+                                                               | Some p3 ->
+                                                                 let (
+                                                                   p4, l) = p3
+                                                                 in
+                                                                 let (
+                                                                   ex, n3) =
+                                                                   p4
+                                                                 in
+                                                                 (match n3 with
+                                                                  | O -> None
+                                                                  | S _ ->
+                                                                    (match l with
+                                                                    | [] ->
+                                                                    let p5 =
+                                                                    inject_Z
+                                                                    (Z.pow
+                                                                    (Zpos (XO
+                                                                    (XI (XO
+                                                                    XH)))) ex)
+                                                                    in
+                                                                    Some
+                                                                    (
+                                                                    if neg
+                                                                    then 
+                                                                    qdiv
+                                                                    base0 p5
+                                                                    else 
+                                                                    qmult
+                                                                    base0 p5)
+                                                                    | _ :: _ ->
+                                                                    None))
+                                                               | None -> None)
+                                                         else if b12
+                                                              then if b13
+                                                                   then 
+                                                                    let neg =
+                                                                    false
+                                                                    in
+                                                                    (
+                                                                    match 
+                                                                    dec_digits
+                                                                    r0 Z0 O with
+                                                                    | Some p3 ->
+                                                                    let (
+                                                                    p4, l) =
+                                                                    p3
+                                                                    in
+                                                                    let (
+                                                                    ex, n3) =
+                                                                    p4
+                                                                    in
+                                                                    (
+                                                                    match n3 with
+                                                                    | O ->
+                                                                    None
+                                                                    | S _ ->
+                                                                    (match l with
+                                                                    | [] ->
+                                                                    let p5 =
+                                                                    inject_Z
+                                                                    (Z.pow
+                                                                    (Zpos (XO
+                                                                    (XI (XO
+                                                                    XH)))) ex)
+                                                                    in
+                                                                    Some
+                                                                    (
+                                                                    if neg
+                                                                    then 
+                                                                    qdiv
+                                                                    base0 p5
+                                                                    else 
+                                                                    qmult
+                                                                    base0 p5)
+                                                                    | _ :: _ ->
+                                                                    None))
+                                                                    | None ->
+                                                                    None)
+                                                                   else 
+                                                                    if b14
+                                                                    then 
+                                                                    let neg =
+                                                                    false
+                                                                    in
+                                                                    (
+                                                                    match 
+                                                                    dec_digits
+                                                                    r0 Z0 O with
+                                                                    | Some p3 ->
+                                                                    let (
+                                                                    p4, l) =
+                                                                    p3
+                                                                    in
+                                                                    let (
+                                                                    ex, n3) =
+                                                                    p4
+                                                                    in
+                                                                    (
+                                                                    match n3 with
+                                                                    | O ->
+                                                                    None
+                                                                    | S _ ->
+                                                                    (match l with
+                                                                    | [] ->
+                                                                    let p5 =
+                                                                    inject_Z
+                                                                    (Z.pow
+                                                                    (Zpos (XO
+                                                                    (XI (XO
+                                                                    XH)))) ex)
+                                                                    in
+                                                                    Some
+                                                                    (
+                                                                    if neg
+                                                                    then 
+                                                                    qdiv
+                                                                    base0 p5
+                                                                    else 
+                                                                    qmult
+                                                                    base0 p5)
+                                                                    | _ :: _ ->
+                                                                    None))
+                                                                    | None ->
+                                                                    None)
+                                                                    else 
+                                                                    let neg =
+                                                                    true
+                                                                    in
+                                                                    (
+                                                                    match 
+                                                                    dec_digits
+                                                                    t Z0 O with
+                                                                    | Some p3 ->
+                                                                    let (
+                                                                    p4, l) =
+                                                                    p3
+                                                                    in
+                                                                    let (
+                                                                    ex, n3) =
+                                                                    p4
+                                                                    in
+                                                                    (
+                                                                    match n3 with
+                                                                    | O ->
+                                                                    None
+                                                                    | S _ ->
+                                                                    (match l with
+                                                                    | [] ->
+                                                                    let p5 =
+                                                                    inject_Z
+                                                                    (Z.pow
+                                                                    (Zpos (XO
+                                                                    (XI (XO
+                                                                    XH)))) ex)
+                                                                    in
+                                                                    Some
+                                                                    (
+                                                                    if neg
+                                                                    then 
+                                                                    qdiv
+                                                                    base0 p5
+                                                                    else 
+                                                                    qmult
+                                                                    base0 p5)
+                                                                    | _ :: _ ->
+                                                                    None))
+                                                                    | None ->
+                                                                    None)
+                                                              else let neg =
+                                                                    false
+                                                                   in
+                                                                   (match 
+                                                                    dec_digits
+                                                                    r0 Z0 O with
+                                                                    | Some p3 ->
+                                                                    let (
+                                                                    p4, l) =
+                                                                    p3
+                                                                    in
+                                                                    let (
+                                                                    ex, n3) =
+                                                                    p4
+                                                                    in
+                                                                    (
+                                                                    match n3 with
+                                                                    | O ->
+                                                                    None
+                                                                    | S _ ->
+                                                                    (match l with
+                                                                    | [] ->
+                                                                    let p5 =
+                                                                    inject_Z
+                                                                    (Z.pow
+                                                                    (Zpos (XO
+                                                                    (XI (XO
+                                                                    XH)))) ex)
+                                                                    in
+                                                                    Some
+                                                                    (
+                                                                    if neg
+                                                                    then 
+                                                                    qdiv
+                                                                    base0 p5
+                                                                    else 
+                                                                    qmult
+                                                                    base0 p5)
+                                                                    | _ :: _ ->
+                                                                    None))
+                                                                    | None ->
+                                                                    None)
+                                                    else let neg = false in
+                                                         (match dec_digits r0
+                                                                  Z0 O with
+                                                          | Some p3 ->
+                                                            let (p4, l) = p3
+                                                            in
+                                                            let (ex, n3) = p4
+                                                            in
+                                                            (match n3 with
+                                                             | O -> None
+                                                             | S _ ->
+                                                               (match l with
+                                                                | [] ->
+                                                                  let p5 =
+                                                                    inject_Z
+                                                                    (Z.pow
+                                                                    (Zpos (XO
+                                                                    (XI (XO
+                                                                    XH)))) ex)
+                                                                  in
+                                                                  Some
+                                                                  (if neg
+                                                                   then 
+                                                                    qdiv
+                                                                    base0 p5
+                                                                   else 
+                                                                    qmult
+                                                                    base0 p5)
+                                                                | _ :: _ ->
+                                                                  None))
+                                                          | None -> None)
+                                               else let neg = false in
+                                                    (match dec_digits r0 Z0 O with
+                                                     | Some p3 ->
+                                                       let (p4, l) = p3 in
+                                                       let (ex, n3) = p4 in
+                                                       (match n3 with
+                                                        | O -> None
+                                                        | S _ ->
+                                                          (match l with
+                                                           | [] ->
+                                                             let p5 =
+                                                               inject_Z
+                                                                 (Z.pow (Zpos
+                                                                   (XO (XI
+                                                                   (XO XH))))
+                                                                   ex)
+                                                             in
+                                                             Some
+                                                             (if neg
+                                                              then qdiv base0
+                                                                    p5
+                                                              else qmult
+                                                                    base0 p5)
+                                                           | _ :: _ -> None))
+                                                     | None -> None)
+                                     else let neg = false in
+                                          (match dec_digits r0 Z0 O with
+                                           | Some p3 ->
+                                             let (p4, l) = p3 in
+                                             let (ex, n3) = p4 in
+                                             (match n3 with
+                                              | O -> None
+                                              | S _ ->
+                                                (match l with
+                                                 | [] ->
+                                                   let p5 =
+                                                     inject_Z
+                                                       (Z.pow (Zpos (XO (XI
+                                                         (XO XH)))) ex)
+                                                   in
+                                                   Some
+                                                   (if neg
+                                                    then qdiv base0 p5
+                                                    else qmult base0 p5)
+                                                 | _ :: _ -> None))
+                                           | None -> None))
+                                     a0)
+                           else None))
+         a)
+  | None -> None
+
+(** val similar_meta : char -> bool **)
+
+let similar_meta c =
+  existsb ((=) c)
+    ('|' :: ('*' :: ('+' :: ('?' :: ('(' :: (')' :: ('[' :: (']' :: ('{' :: ('}' :: ('\\' :: [])))))))))))
+
+(** val sim_match_fuel : nat -> char list -> char list -> bool **)
+
+let rec sim_match_fuel fuel p s =
+  match fuel with
+  | O -> false
+  | S f ->
+    (match p with
+     | [] -> (match s with
+              | [] -> true
+              | _::_ -> false)
+     | c::p' ->
+       (* If this appears, you're using Ascii internals. Please don't *)
+ (fun f c ->
+  let n = Char.code c in
+  let h i = (n land (1 lsl i)) <> 0 in
+  f (h 0) (h 1) (h 2) (h 3) (h 4) (h 5) (h 6) (h 7))
+         (fun b b0 b1 b2 b3 b4 b5 b6 ->
+         if b
+         then if b0
+              then if b1
+                   then if b2
+                        then if b3
+                             then if b4
+                                  then (match s with
+                                        | [] -> false
+                                        | d::s' ->
+                                          (&&) ((=) c d)
+                                            (sim_match_fuel f p' s'))
+                                  else if b5
+                                       then if b6
+                                            then (match s with
+                                                  | [] -> false
+                                                  | d::s' ->
+                                                    (&&) ((=) c d)
+                                                      (sim_match_fuel f p' s'))
+                                            else (match s with
+                                                  | [] -> false
+                                                  | _::s' ->
+                                                    sim_match_fuel f p' s')
+                                       else (match s with
+                                             | [] -> false
+                                             | d::s' ->
+                                               (&&) ((=) c d)
+                                                 (sim_match_fuel f p' s'))
+                             else (match s with
+                                   | [] -> false
+                                   | d::s' ->
+                                     (&&) ((=) c d) (sim_match_fuel f p' s'))
+                        else (match s with
+                              | [] -> false
+                              | d::s' ->
+                                (&&) ((=) c d) (sim_match_fuel f p' s'))
+                   else (match s with
+                         | [] -> false
+                         | d::s' -> (&&) ((=) c d) (sim_match_fuel f p' s'))
+              else if b1
+                   then if b2
+                        then (match s with
+                              | [] -> false
+                              | d::s' ->
+                                (&&) ((=) c d) (sim_match_fuel f p' s'))
+                        else if b3
+                             then (match s with
+                                   | [] -> false
+                                   | d::s' ->
+                                     (&&) ((=) c d) (sim_match_fuel f p' s'))
+                             else if b4
+                                  then if b5
+                                       then (match s with
+                                             | [] -> false
+                                             | d::s' ->
+                                               (&&) ((=) c d)
+                                                 (sim_match_fuel f p' s'))
+                                       else if b6
+                                            then (match s with
+                                                  | [] -> false
+                                                  | d::s' ->
+                                                    (&&) ((=) c d)
+                                                      (sim_match_fuel f p' s'))
+                                            else (||) (sim_match_fuel f p' s)
+                                                   (match s with
+                                                    | [] -> false
+                                                    | _::s' ->
+                                                      sim_match_fuel f p s')
+                                  else (match s with
+                                        | [] -> false
+                                        | d::s' ->
+                                          (&&) ((=) c d)
+                                            (sim_match_fuel f p' s'))
+                   else (match s with
+                         | [] -> false
+                         | d::s' -> (&&) ((=) c d) (sim_match_fuel f p' s'))
+         else (match s with
+               | [] -> false
+               | d::s' -> (&&) ((=) c d) (sim_match_fuel f p' s')))
+         c)
+
+(** val sim_match : char list -> char list -> bool **)
+
+let sim_match p s =
+  sim_match_fuel (S (add (length0 p) (length0 s))) p s
+
+(** val has_meta : char list -> bool **)
+
+let rec has_meta = function
+| [] -> false
+| c::r -> (||) (similar_meta c) (has_meta r)
+
+(** val nat_of_digits : char list -> nat -> nat **)
+
+let rec nat_of_digits s acc =
+  match s with
+  | [] -> acc
+  | c :: t ->
+    nat_of_digits t
+      (add (mul acc (S (S (S (S (S (S (S (S (S (S O)))))))))))
+        (sub (nat_of_ascii c) (S (S (S (S (S (S (S (S (S (S (S (S (S (S (S (S
+          (S (S (S (S (S (S (S (S (S (S (S (S (S (S (S (S (S (S (S (S (S (S
+          (S (S (S (S (S (S (S (S (S (S
+          O))))))))))))))))))))))))))))))))))))))))))))))))))
+
+(** val operand : row -> rval list -> ast -> rval option **)
+
+let operand r params = function
+| ACol c -> r (sstr c)
+| AStr s -> Some (RStr (sstr s))
+| ANum (neg, t) ->
+  (match q_of_decimal t with
+   | Some q0 -> Some (RNum (if neg then qopp q0 else q0))
+   | None -> None)
+| AParam k -> nth_error params (sub (nat_of_digits k O) (S O))
+| _ -> None
+
+(** val cmp_of : char list -> cmpop option **)
+
+let cmp_of op =
+  if eqb0 op ('='::[])
+  then Some CEq
+  else if eqb0 op ('<'::[])
+       then Some CLt
+       else if eqb0 op ('<'::('='::[]))
+            then Some CLe
+            else if eqb0 op ('>'::[])
+                 then Some CGt
+                 else if eqb0 op ('>'::('='::[])) then Some CGe else None
+
+(** val cmp2 : row -> rval list -> cmpop -> ast -> ast -> bool option **)
+
+let cmp2 r params op a b =
+  match operand r params a with
+  | Some x ->
+    (match operand r params b with
+     | Some y -> cmp_vals op x y
+     | None -> None)
+  | None -> None
+
+(** val ssem : row -> rval list -> ast -> bool option **)
+
+let rec ssem r params = function
+| ABool (is_and, l) ->
+  let rec go = function
+  | [] -> Some is_and
+  | x :: rest ->
+    if is_and
+    then opt_and (ssem r params x) (go rest)
+    else opt_or (ssem r params x) (go rest)
+  in go l
+| ANot x -> option_map negb (ssem r params x)
+| AOp (op, x, y) ->
+  (match cmp_of (sstr op) with
+   | Some c -> cmp2 r params c x y
+   | None -> None)
+| AIn (x, l) ->
+  let rec go = function
+  | [] -> Some false
+  | y :: rest -> opt_or (cmp2 r params CEq x y) (go rest)
+  in go l
+| ABetween (x, lo, hi) ->
+  opt_and (cmp2 r params CGe x lo) (cmp2 r params CLe x hi)
+| ASimilar (x, p) ->
+  (match operand r params x with
+   | Some r0 ->
+     (match r0 with
+      | RNum _ -> None
+      | RStr s ->
+        (match operand r params p with
+         | Some r1 ->
+           (match r1 with
+            | RNum _ -> None
+            | RStr pat ->
+              if has_meta pat then None else Some (sim_match pat s))
+         | None -> None))
+   | None -> None)
+| _ -> None
+
+(** val mid : q -> q -> q **)
+
+let mid a b =
+  qred (qdiv (qplus a b) (inject_Z (Zpos (XO XH))))
+
+(** val num_probes : q list -> q list **)
+
+let num_probes cs =
+  app cs
+    (app (map (fun c -> qred (qplus c (inject_Z (Zpos XH)))) cs)
+      (app (map (fun c -> qred (qminus c (inject_Z (Zpos XH)))) cs)
+        (app (flat_map (fun a -> map (mid a) cs) cs) ((inject_Z Z0) :: []))))
+
+(** val q_lt : q -> q -> bool **)
+
+let q_lt a b =
+  match qcompare a b with
+  | Lt -> true
+  | _ -> false
+
+(** val q_eq : q -> q -> bool **)
+
+let q_eq a b =
+  match qcompare a b with
+  | Eq -> true
+  | _ -> false
